@@ -3576,6 +3576,8 @@ class CSCtx:
             return "list N"
         if t[0] == "opaque":
             return self.S
+        if t[0] == "parr":
+            return "list (list N)"
         if t[0] in ("struct", "ptr"):
             return f"(src_{t[1]} {self.S})" if t[1] in self.poly else f"src_{t[1]}"
         raise AnchorError(f"no Gallina type for {t!r}")
@@ -4093,6 +4095,10 @@ class CSFn:
                 if w != pt[1] or (pt[2] is not None and ln is not None and ln < pt[2]):
                     raise self.err(f"call of {fname}: array argument {i + 1} does not match {pname}")
                 terms.append(cur)
+            elif pt[0] == "parr":
+                if a[0] != "var" or self.env.get(a[1], {}).get("type", ("",))[0] != "parr":
+                    raise self.err(f"call of {fname}: argument {i + 1} is not an array of pointers")
+                terms.append(a[1])
             elif pt[0] == "ptr":
                 root, fs, t, isptr = self.path(a)
                 if not isptr or t != ("struct", pt[1]):
@@ -4819,6 +4825,820 @@ def gen_c_hasher_loops():
     return "\n".join(out)
 
 
+# ---------------------------------------------------------------------------
+# GenCHasherWide.v: the wide core of c/blake3.c (compress_chunks_parallel, compress_parents_parallel,
+# blake3_compress_subtree_wide, compress_subtree_to_parent_node, blake3_hasher_update_base, output_root_bytes),
+# translated statement by statement on top of GenCHasherSmall.v / GenCHasherLoops.v (same records at S := list N, same
+# translated callees, the rules of CSFn / CSLoopFn).  What is added:
+#   * preprocessor: `#if defined(BLAKE3_TESTING)` blocks are kept (the testing build's asserts), of
+#     `#if defined(BLAKE3_USE_TBB) A #else B #endif` the arm B, `#if E .. #endif` with a comparison E of build constants
+#     becomes `if (E) { .. }`; MAX_SIMD_DEGREE / MAX_SIMD_DEGREE_OR_2 are c_MAX_SIMD_DEGREE / c_MAX_SIMD_DEGREE_OR_2 of
+#     GenConsts.v (the x86-64 values of blake3_impl.h); any other directive is an AnchorError.
+#   * `assert(e);` -> `assert! e code c`, c from the per-function table in source order (the codes of Model/CHasher.v).
+#   * a `(pointer, length)` pair is the list of ALL bytes from the pointer on plus the length: `&p[e]` / `p + e` for a
+#     byte-pointer parameter or const pointer local is `skipn e p`, `p += n` likewise; `const uint8_t *q = &p[e]`,
+#     `const uint8_t *q = (const uint8_t *)p` are such lists.
+#   * `const uint8_t *a[N]` (an array of pointers) is a list of N such lists, `a[i] = &p[e]` -> bounds assert `i < N`
+#     (site code), pa_set.  blake3_hash_many takes it with num_inputs and blocks.
+#   * writing through a `uint8_t *out` parameter (memcpy(out, ..) / memcpy(&out[e], ..) / `&out[e]` passed for
+#     `uint8_t cv[32]`) asserts `e + n <= length out` with the site's code first.  `out += n` on such a parameter
+#     (output_root_bytes) moves an offset variable `out_off` (checked addition) instead of the list: the function still
+#     returns the caller's buffer; `out` then means the bytes from out_off on (a callee that writes from there on gets
+#     `skipn out_off out`, its result is put back behind `firstn out_off out`).  memcpy from `local + e` / from a local
+#     array with a variable count asserts the source range with the site's code.
+#   * `uint8_t *q = &a[e]` for a local array a SPLITS it, like split_at_mut: after the bounds assert `e <= length a`
+#     (site code) `a` is a[0 .. e) and `q` the rest; where `a` is read as a whole afterwards it is `a ++ q`.
+#   * recursion (blake3_compress_subtree_wide): a Fixpoint on fuel, `match fuel` after the leading
+#     `if (c) { return e; }` statements, as in GenLibWide.v.  `if (c) { A; return e; }` / a final
+#     `if (c) { A; return e; } else { return f; }` with values; `if (c) { A } else { return; }` nested in the last
+#     position of an arm of a void function yields `early : bool` (then `if early then <result> else <rest>`).
+#   * conditions: == != < > <= >= && and `if (x)` (x != 0); checked arithmetic inside a loop condition is evaluated at
+#     the head of the loop function.  `/`, `%` by a non-zero constant are N.div / N.modulo, `&` is N.land
+#     (`x & -64` at the width of x), `c ? a : b`, `x /= k`, `v = f(p, ..)` for calls that write through arguments.
+#   * left_subtree_len / round_down_to_power_of_2 are the formulas c_left_subtree_len / c_round_down_to_power_of_2 of
+#     GenFormulas.v (translated there from the same text); blake3_simd_degree, blake3_hash_many, blake3_compress_xof,
+#     blake3_xof_many are ext_ parameters with the prototypes of blake3_impl.h.
+# Everything else raises AnchorError.
+# ---------------------------------------------------------------------------
+_CW_TOK = re.compile(r"(?P<num>0[xX][0-9a-fA-F]+|\d+)[uUlL]*|(?P<id>[A-Za-z_]\w*)"
+                     r"|(?P<op>->|\+=|-=|/=|==|!=|<=|>=|<<|>>|&&|\|\||[-+*/%&|^!~<>=().,\[\]{};?:])")
+
+
+def _cw_tokens(text, name):
+    out, i = [], 0
+    while True:
+        while i < len(text) and text[i].isspace():
+            i += 1
+        if i >= len(text):
+            return out
+        m = _CW_TOK.match(text, i)
+        if not m:
+            raise AnchorError(f"{name}: cannot tokenize {text[i:i + 20]!r}")
+        if m.group("num") is not None:
+            out.append(("num", int(m.group("num"), 0)))
+        elif m.group("id") is not None:
+            out.append(("id", m.group("id")))
+        else:
+            out.append(("op", m.group("op")))
+        i = m.end()
+
+
+def _c_preprocess(body, name):
+    """the body of a function of c/blake3.c with its conditional compilation resolved (see the comment above)"""
+    out, stack = [], []                       # stack entries: ("keep" | "drop" | "else-keep" | "block")
+    for line in body.split("\n"):
+        s = line.strip()
+        if not s.startswith("#"):
+            if not any(x == "drop" for x in stack):
+                out.append(line)
+            continue
+        s = " ".join(s.split())
+        if s == "#if defined(BLAKE3_TESTING)":
+            stack.append("keep")
+        elif s == "#if defined(BLAKE3_USE_TBB)":
+            stack.append("drop")
+        elif s == "#else" and stack and stack[-1] == "drop":
+            stack[-1] = "keep"
+        elif s.startswith("#if ") and re.fullmatch(r"#if [A-Z_0-9]+ (>|<|==|>=|<=) \d+", s):
+            stack.append("block")
+            out.append("if (" + s[4:] + ") {")
+        elif s == "#endif":
+            if not stack:
+                raise AnchorError(f"{name}: #endif without #if")
+            if stack.pop() == "block":
+                out.append("}")
+        else:
+            raise AnchorError(f"{name}: preprocessor directive {s!r}")
+    if stack:
+        raise AnchorError(f"{name}: unterminated #if")
+    return "\n".join(out)
+
+
+class CWParser(CSParser):
+    """CSParser plus `x /= e`, `c ? a : b` (('cond', c, a, b)) and pointer casts `(const uint8_t *)e` (('pcast', e))"""
+
+    def expr(self, minprec, assign=False):
+        lhs = self.unary()
+        if assign and self.peek() in (("op", "="), ("op", "+="), ("op", "-="), ("op", "/=")):
+            op = self.next()[1]
+            return ("assign", op, lhs, self.expr(0))
+        while True:
+            k, v = self.peek()
+            if k == "op" and v in self.PREC and self.PREC[v] >= minprec:
+                self.next()
+                rhs = self.expr(self.PREC[v] + 1)
+                lhs = ("bin", v, lhs, rhs)
+                continue
+            if (k, v) == ("op", "?") and minprec == 0:
+                self.next()
+                a = self.expr(0)
+                self.expect(":")
+                b = self.expr(0)
+                return ("cond", lhs, a, b)
+            return lhs
+
+    def unary(self):
+        if self.peek() == ("op", "("):
+            j = self.i + 1
+            if self.t[j:j + 1] == [("id", "const")]:
+                j += 1
+            if j < len(self.t) and self.t[j][0] == "id" and self.t[j][1] in ("uint8_t",) \
+                    and self.t[j + 1:j + 3] == [("op", "*"), ("op", ")")]:
+                self.i = j + 3
+                return ("pcast", self.unary())
+        return CSParser.unary(self)
+
+
+# per function: Panic codes of its assert(..) statements in source order, and [(kind, code)] of its checked pointer sites
+# in translation order (the codes of Model/CHasher.v for the same sites)
+_CW_FNS = {
+    "compress_chunks_parallel": ([1600, 1601], [("parr", 301), ("out", 302)]),
+    "compress_parents_parallel": ([1602, 1603], [("parr", 303), ("out", 304)]),
+    "blake3_compress_subtree_wide": ([], [("split", 305), ("out", 308)]),
+    "compress_subtree_to_parent_node": ([1604, 1605], []),
+    "blake3_hasher_update_base": ([], []),
+    "output_root_bytes": ([], [("src", 310), ("out", 313), ("src", 312), ("out", 313)]),        # 313: past the end of out
+}
+
+
+class CSWideFn(CSLoopFn):
+    def __init__(self, ctx, text, cname):
+        self.ctx, self.c, self.name = ctx, cname, "src_" + cname
+        hdr = r"\b(?:INLINE\s+)?(void|size_t|uint8_t|uint32_t|uint64_t|output_t)\s+" + cname + r"\s*\("
+        m = find1(hdr, text, self.name)
+        ptext, between = _fn_header(text, hdr, self.name)
+        if between:
+            raise AnchorError(f"{self.name}: text between ')' and '{{': {between!r}")
+        self.params, self.ret = ctx.signature(self.name, ptext, m.group(1))
+        body = _c_preprocess(fn_body(text, hdr, self.name), self.name)
+        self.stmts = CWParser(_cw_tokens(body, self.name), self.name, ctx.typenames()).stmts_until(("eof", None))
+        self.env, self.lines, self.written, self.exts, self.extras = {}, [], set(), [], []
+        self.monadic, self.tmp, self.poly = True, 0, False
+        self.recorders, self.site, self.nsite, self.fuel, self.sites_used = [], None, 0, False, set()
+        self.nloop, self.loop_defs, self.early = 0, [], False
+        self.codes, self.wsites = [list(x) for x in _CW_FNS[cname]]
+        self.code_i, self.wsite_i, self.closers, self.split = 0, 0, [], {}
+        for pname, t, const in self.params:
+            self.declare(pname, t, const=const, param=True)
+        self.recursive = WFn.mentions_call(self.stmts, cname)
+        self.offsets = {}                                  # written pointer parameter -> its offset variable (`out += n`)
+
+    # ---- tables ----
+    def wsite(self, kind):
+        if self.wsite_i >= len(self.wsites):
+            raise self.err(f"more checked pointer sites than entries in _CW_FNS (next: {kind})")
+        k, code = self.wsites[self.wsite_i]
+        if k != kind:
+            raise self.err(f"site {self.wsite_i + 1} is a {kind!r}, the table expects {k!r}")
+        self.wsite_i += 1
+        return code
+
+    def check(self, cond, code, note=None):
+        self.monadic = True
+        self.lines.append(f"  assert! {cond} code {code} ;;" + (f"   (* {note} *)" if note else ""))
+
+    def is_byteptr(self, v):
+        """a byte pointer with unknown extent: parameter or local"""
+        e = self.env.get(v)
+        return e is not None and e["type"] == ("arr", 8, None)
+
+    # ---- expressions ----
+    def try_const(self, ast):
+        try:
+            return self.ctx.const_int(ast, self.name)
+        except (AnchorError, KeyError):
+            return None
+
+    def val0(self, ast):
+        k = ast[0]
+        if k in ("bin", "cond") or (k == "un" and ast[1] == "-"):
+            n = self.try_const(ast) if self.no_vars(ast) else None
+            if n is not None and n >= 0:
+                return str(n), ("lit", n), False
+        if k == "bin" and ast[1] in ("/", "%"):
+            a, ta, _ = self.val(ast[2])
+            d = self.try_const(ast[3]) if self.no_vars(ast[3]) else None
+            if d is None or d <= 0 or ta[0] != "int":
+                raise self.err(f"division by something that is not a positive constant: {ast!r}")
+            b, _, _ = self.val(ast[3])
+            return f"({a} {'/' if ast[1] == '/' else 'mod'} {b})", ta, False
+        if k == "bin" and ast[1] == "&":
+            a, ta, _ = self.val(ast[2])
+            if ta[0] != "int":
+                raise self.err(f"operands of '&': {ast!r}")
+            if ast[3][0] == "un" and ast[3][1] == "-" and ast[3][2][0] == "num":
+                return f"(N.land {a} {(1 << ta[1]) - ast[3][2][1]})", ta, False       # two's complement at the width of a
+            b, tb, _ = self.val(ast[3])
+            if tb[0] not in ("int", "lit"):
+                raise self.err(f"operands of '&': {ast!r}")
+            return f"(N.land {a} {b})", ("int", max(ta[1], tb[1] if tb[0] == "int" else 0)), False
+        if k == "cond":
+            c = self.cond(ast[1])
+            a, ta, _ = self.val(ast[2])
+            b, tb, _ = self.val(ast[3])
+            if ta[0] != "int" or tb[0] != "int":
+                raise self.err(f"conditional expression {ast!r}")
+            return f"(if {c} then {a} else {b})", ("int", max(ta[1], tb[1])), False
+        return CSLoopFn.val0(self, ast)
+
+    def no_vars(self, node):
+        if isinstance(node, tuple) and len(node) == 2 and node[0] == "var":
+            return node[1] in self.ctx.ints and node[1] not in self.env
+        if isinstance(node, tuple) and node and node[0] in ("call", "index", "arrow", "field"):
+            return False
+        if isinstance(node, (tuple, list)):
+            return all(self.no_vars(x) for x in node if isinstance(x, (tuple, list)))
+        return True
+
+    def cond(self, ast):
+        if ast[0] == "bin" and ast[1] == "&&":
+            return f"({self.cond(ast[2])} && {self.cond(ast[3])})"
+        if ast[0] == "bin" and ast[1] in ("==", "!=", "<", ">", "<=", ">="):
+            a, ta, _ = self.val(ast[2])
+            b, tb, _ = self.val(ast[3])
+            if any(t[0] not in ("int", "lit") for t in (ta, tb)):
+                raise self.err(f"comparison {ast!r}")
+            return {"==": f"({a} =? {b})", "!=": f"(negb ({a} =? {b}))", "<": f"({a} <? {b})", ">": f"({b} <? {a})",
+                    "<=": f"({a} <=? {b})", ">=": f"({b} <=? {a})"}[ast[1]]
+        a, ta, _ = self.val(ast)
+        if ta[0] != "int":
+            raise self.err(f"condition {ast!r}")
+        return f"(negb ({a} =? 0))"
+
+    # ---- byte pointers with unknown extent ----
+    def suffix(self, ast):
+        """`p`, `&p[e]`, `p + e`, `(const uint8_t *)p` for a byte pointer p -> (root, Gallina term of the bytes from there
+        on, offset term : N or None); None when ast is not of that shape"""
+        if ast[0] == "pcast":
+            return self.suffix(ast[1])
+        if ast[0] == "var" and self.is_byteptr(ast[1]):
+            return ast[1], self.cur_ptr(ast[1]), None
+        if ast[0] == "un" and ast[1] == "&" and ast[2][0] == "index" and ast[2][1][0] == "var" and self.is_byteptr(ast[2][1][1]):
+            root, idx = ast[2][1][1], ast[2][2]
+        elif ast[0] == "bin" and ast[1] == "+" and ast[2][0] == "var" and self.is_byteptr(ast[2][1]):
+            root, idx = ast[2][1], ast[3]
+        else:
+            return None
+        e, t, _ = self.val(idx)
+        if t[0] not in ("int", "lit"):
+            raise self.err(f"pointer offset {idx!r}")
+        return root, f"(skipn (N.to_nat {e}) {self.cur_ptr(root)})", e
+
+    def cur_ptr(self, v):
+        """the bytes a written pointer parameter currently points at (`out += n` moves it)"""
+        if v in self.offsets:
+            return f"(skipn (N.to_nat {self.offsets[v]}) {v})"
+        return v
+
+    def out_write(self, root, off, data, n, note):
+        """n bytes stored through the non-const byte pointer `root` (+ off); bounds assert with the site's code first"""
+        en = self.env[root]
+        if en["const"]:
+            raise self.err(f"write through the const pointer {root}")
+        base = self.offsets.get(root)
+        parts = [x for x in (base, off) if x is not None]
+        o = " + ".join(parts) if parts else "0"
+        self.check(f"({o} + {n} <=? N.of_nat (length {root}))", self.wsite("out"), f"{note}: {n} bytes at {root}")
+        self.let(root, f"arr_store {root} (N.to_nat ({o})) {data}", note=note)
+        if en["param"]:
+            self.written.add(root)
+        if en["uninit"] is not None:
+            en["uninit"] = set()
+
+    # ---- calls: pointer arguments are lowered to named lists first ----
+    def call(self, ast, value=False, ret_stmt=False, bind=None):
+        fname, args = ast[1], ast[2]
+        f = self.ctx.funcs.get(fname)
+        if f is None or len(args) != len(f["params"]):
+            return CSLoopFn.call(self, ast, value, ret_stmt, bind)
+        new_args, post = [], []
+        for i, (a, (pname, pt, pconst)) in enumerate(zip(args, f["params"])):
+            if pt[0] == "parr":
+                if a[0] != "var" or self.env.get(a[1], {}).get("type", ("",))[0] != "parr":
+                    raise self.err(f"call of {fname}: argument {i + 1} is not an array of pointers")
+                new_args.append(a)
+                continue
+            if pt[0] != "arr" or pt[1] != 8:
+                new_args.append(a)
+                continue
+            if a[0] == "var" and a[1] in self.split and i not in f["inouts"]:
+                # a split local array read as a whole
+                v = self.fresh()
+                self.lines.append(f"  let {v} := ({a[1]} ++ {self.split[a[1]]}) in")
+                self.declare(v, ("arr", 8, None), const=True)
+                new_args.append(("var", v))
+                continue
+            s = self.suffix(a) if not (a[0] == "var" and a[1] not in self.offsets) else None
+            if s is None:
+                new_args.append(a)
+                continue
+            root, term, off = s
+            v = self.fresh()
+            if i in f["inouts"]:
+                if pt[2] is None:
+                    # the callee writes from there on: what lies before the pointer stays
+                    self.lines.append(f"  let {v} := {term} in")
+                    self.declare(v, ("arr", 8, None))
+                    o = " + ".join(x for x in (self.offsets.get(root), off) if x is not None)
+                    post.append((root, f"firstn (N.to_nat ({o})) {root} ++ {v}"))
+                else:
+                    n = pt[2]
+                    o = " + ".join(x for x in (self.offsets.get(root), off) if x is not None) or "0"
+                    self.check(f"({o} + {n} <=? N.of_nat (length {root}))", self.wsite("out"),
+                               f"{n} bytes written at {root}")
+                    self.lines.append(f"  let {v} := firstn {n}%nat {term} in")
+                    self.declare(v, ("arr", 8, n))
+                    post.append((root, f"arr_store {root} (N.to_nat ({o})) {v}"))
+            else:
+                self.lines.append(f"  let {v} := {term} in")
+                self.declare(v, ("arr", 8, None), const=True)
+            new_args.append(("var", v))
+        r = CSLoopFn.call(self, ("call", fname, new_args), value, ret_stmt, bind)
+        for root, term in post:
+            en = self.env[root]
+            if en["const"]:
+                raise self.err(f"call of {fname} writes through the const pointer {root}")
+            self.let(root, term)
+            if en["param"]:
+                self.written.add(root)
+            if en["uninit"] is not None:
+                en["uninit"] = set()
+        return r
+
+    def arr_r(self, ast):
+        if ast[0] == "var" and ast[1] in self.split:
+            a = ast[1]
+            if self.env[a]["uninit"] or self.env[self.split[a]]["uninit"]:
+                raise self.err(f"{a} is read before all of it is written")
+            return f"({a} ++ {self.split[a]})", 8, None
+        s = self.suffix(ast) if ast[0] != "var" or ast[1] in self.offsets else None
+        if s is not None:
+            return s[1], 8, None
+        return CSLoopFn.arr_r(self, ast)
+
+    # ---- statements ----
+    def stmt(self, s, top):
+        k = s[0]
+        if k == "expr" and s[1][0] == "call" and s[1][1] == "assert" and len(s[1][2]) == 1:
+            if self.code_i >= len(self.codes):
+                raise self.err("more assert statements than Panic codes in _CW_FNS")
+            self.code_i += 1
+            return self.check(self.cond(s[1][2][0]), self.codes[self.code_i - 1], "assert")
+        if k == "decl":
+            r = self.wdecl(s)
+            if r is not NotImplemented:
+                return r
+        if k == "expr" and s[1][0] == "assign":
+            r = self.wassign(s[1])
+            if r is not NotImplemented:
+                return r
+        if k == "expr" and s[1][0] == "call" and s[1][1] == "memcpy" and len(s[1][2]) == 3:
+            r = self.wmemcpy(s[1])
+            if r is not NotImplemented:
+                return r
+        return CSLoopFn.stmt(self, s, top)
+
+    def wdecl(self, s):
+        _, const, ty, star, v, ln, init = s
+        if ty == "uint8_t" and star and const and ln is not None and init is None:
+            n = self.ctx.const_int(ln, self.name)                  # const uint8_t *a[N]
+            self.declare(v, ("parr", n))
+            self.let(v, f"repeat [] {n}%nat")
+            return None
+        if ty == "uint8_t" and star and const and ln is None and init is not None:
+            sfx = self.suffix(init)                                # const uint8_t *q = &p[e] / (const uint8_t *)p
+            if sfx is None:
+                raise self.err(f"pointer declaration {v}")
+            self.declare(v, ("arr", 8, None), const=True)
+            self.let(v, sfx[1])
+            return None
+        if ty == "uint8_t" and star and not const and ln is None and init is not None and init[0] == "un" \
+                and init[1] == "&" and init[2][0] == "index" and init[2][1][0] == "var":
+            a = init[2][1][1]
+            en = self.env.get(a)
+            if en is not None and en["type"][0] == "arr" and en["type"][1] == 8 and en["type"][2] is not None \
+                    and not en["param"] and self.try_const(init[2][2]) is None:
+                # uint8_t *q = &a[e] with a variable e: the local array a is split at e
+                if a in self.split:
+                    raise self.err(f"{a} is split twice")
+                e, t, _ = self.val(init[2][2])
+                if t[0] != "int":
+                    raise self.err(f"pointer declaration {v}")
+                self.check(f"({e} <=? N.of_nat (length {a}))", self.wsite("split"), f"&{a}[..]")
+                self.declare(v, ("arr", 8, None), uninit=(set(en["uninit"]) if en["uninit"] is not None else None))
+                self.let(v, f"skipn (N.to_nat {e}) {a}")
+                self.let(a, f"firstn (N.to_nat {e}) {a}")
+                self.env[a]["type"] = ("arr", 8, None)
+                self.split[a] = v
+                return None
+        if (ty in _CS_INT) and not star and ln is None and init is not None and init[0] == "call" \
+                and self.ctx.funcs.get(init[1], {}).get("inouts"):
+            it = self.call(init, bind=v)
+            if not self.fits(it, ("int", _CS_INT[ty])):
+                raise self.err(f"initialiser of {v} does not fit {ty}")
+            self.declare(v, ("int", _CS_INT[ty]))
+            return None
+        return NotImplemented
+
+    def wassign(self, e):
+        _, op, lhs, rhs = e
+        if lhs[0] == "index" and lhs[1][0] == "var" and self.env.get(lhs[1][1], {}).get("type", ("",))[0] == "parr" and op == "=":
+            a = lhs[1][1]
+            sfx = self.suffix(rhs)
+            if sfx is None:
+                raise self.err(f"element of the pointer array {a}: {rhs!r}")
+            i, t, _ = self.val(lhs[2])
+            if t[0] != "int":
+                raise self.err(f"index {lhs[2]!r}")
+            self.check(f"({i} <? {self.env[a]['type'][1]})", self.wsite("parr"), f"{a}[..]")
+            self.let(a, f"pa_set {a} (N.to_nat {i}) {sfx[1]}")
+            return None
+        if lhs[0] == "var" and lhs[1] in self.env:
+            v, en = lhs[1], self.env[lhs[1]]
+            if op == "+=" and en["type"] == ("arr", 8, None):
+                a, rt, _ = self.val(rhs)
+                if not self.fits(rt, ("int", 64)):
+                    raise self.err(f"{e!r}: pointer increment")
+                if en["const"]:
+                    return self.let(v, f"skipn (N.to_nat {a}) {v}")           # the bytes that remain
+                if not en["param"]:
+                    raise self.err(f"{e!r}: increment of a written local pointer")
+                o = f"{v}_off"                                               # a written pointer: its offset moves
+                if v not in self.offsets:
+                    raise self.err(f"{v} is advanced before its offset variable exists")
+                t = self.fresh()
+                self.let(t, f"mi_add 64 {o} {a}", res=True)
+                self.let(o, t)
+                return None
+            if op == "/=" and en["type"][0] == "int" and not en["param"]:
+                d = self.try_const(rhs)
+                if d is None or d <= 0:
+                    raise self.err(f"{e!r}: divisor")
+                return self.let(v, f"({v} / {d})")
+            if op == "=" and en["type"][0] == "int" and not en["param"] and rhs[0] == "call" \
+                    and self.ctx.funcs.get(rhs[1], {}).get("inouts"):
+                it = self.call(rhs, bind=v)
+                if not self.fits(it, en["type"]):
+                    raise self.err(f"assignment {e!r} truncates")
+                if en["uninit"]:
+                    en["uninit"] = set()
+                self.assigned(v)
+                return None
+        return NotImplemented
+
+    def wmemcpy(self, e):
+        dst, src, cnt = e[2]
+        d = None
+        if dst[0] == "var" and self.is_byteptr(dst[1]) and not self.env[dst[1]]["const"]:
+            d = (dst[1], None)
+        elif dst[0] == "un" and dst[1] == "&" and dst[2][0] == "index" and dst[2][1][0] == "var" \
+                and self.is_byteptr(dst[2][1][1]) and not self.env[dst[2][1][1]]["const"]:
+            o, t, _ = self.val(dst[2][2])
+            if t[0] not in ("int", "lit"):
+                raise self.err(f"memcpy destination {dst!r}")
+            d = (dst[2][1][1], o)
+        local_src = src[0] == "bin" and src[1] == "+" and src[2][0] == "var" \
+            and self.env.get(src[2][1], {}).get("type", ("", 0, None))[2] is not None
+        if d is None and not local_src:
+            return NotImplemented
+        # the source
+        n = self.try_const(cnt) if self.no_vars(cnt) else None
+        if n is not None:
+            nterm = f"{n}%nat"
+            ncheck = str(n)
+        else:
+            c, t, _ = self.val(cnt)
+            if t[0] != "int":
+                raise self.err(f"memcpy count {cnt!r}")
+            nterm, ncheck = f"(N.to_nat {c})", c
+        if local_src:
+            a = src[2][1]
+            o, t, _ = self.val(src[3])
+            if t[0] != "int" or self.env[a]["uninit"]:
+                raise self.err(f"memcpy source {src!r}")
+            self.check(f"({o} + {ncheck} <=? N.of_nat (length {a}))", self.wsite("src"), f"{ncheck} bytes read at {a} + ..")
+            data = f"(firstn {nterm} (skipn (N.to_nat {o}) {a}))"
+        else:
+            term, sw, sln = self.arr_r(src)
+            if sw != 8:
+                raise self.err("memcpy between arrays of different element types")
+            if n is None and sln is not None:
+                self.check(f"({ncheck} <=? N.of_nat (length {term}))", self.wsite("src"), f"{ncheck} bytes read")
+            data = f"(firstn {nterm} {term})"
+        if d is None:
+            raise self.err(f"memcpy {e!r}")
+        self.out_write(d[0], d[1], data, ncheck, "memcpy")
+        return None
+
+    # ---- control flow ----
+    @staticmethod
+    def ends_in_return(stmts):
+        if not stmts:
+            return False
+        s = stmts[-1]
+        if s[0] == "return":
+            return True
+        return s[0] == "if" and s[3] is not None and (CSWideFn.ends_in_return(s[2]) or CSWideFn.ends_in_return(s[3]))
+
+    def ret_value(self, e):
+        if e is not None and e[0] == "call" and self.ctx.funcs.get(e[1], {}).get("inouts") and self.ret is not None \
+                and self.ret[0] == "int":
+            t = self.fresh()                                         # return f(p, ..); where f writes through p
+            it = self.call(e, bind=t)
+            if not self.fits(it, self.ret):
+                raise self.err("returned value does not fit the return type")
+            return t
+        return CSLoopFn.ret_value(self, e)
+
+    def result_term(self, e):
+        """Ok (written parameters.., value of `return e`)"""
+        val = self.ret_value(e) if e is not None else None
+        if (e is None) != (self.ret is None):
+            raise self.err("return with / without a value")
+        parts = [p for p, t, const in self.params if p in self.all_written()] + ([val] if val is not None else [])
+        return "Ok " + self.tup(parts)
+
+    def all_written(self):
+        return self.inout_names if self.inout_names is not None else self.written
+
+    def if_stmt(self, s, top):
+        _, c, th, el = s
+        has_ret = WFn.has_return(th) or (el is not None and WFn.has_return(el))
+        if not has_ret:
+            return CSLoopFn.if_stmt(self, s, top)
+        if top and el is None and th and th[-1][0] == "return":
+            # if (c) { A; return e; }: the rest of the function is the else arm
+            cterm = self.cond(c)
+            snap = self.snapshot()
+            outer = set(self.env)
+            saved, self.lines = self.lines, []
+            saved_off = dict(self.offsets)
+            for st in th[:-1]:
+                self.stmt(st, False)
+            self.lines.append("  " + self.result_term(th[-1][1]))
+            lines, self.lines = self.lines, saved
+            for v in list(self.env):
+                if v not in outer:
+                    del self.env[v]
+            self.restore(snap)
+            self.offsets = saved_off
+            self.lines.append(f"  if {cterm} then (")
+            self.lines += ["  " + l for l in lines] + ["  ) else"]
+            return None
+        if self.ret is not None:
+            raise self.err("nested return in a function that returns a value")
+        self.flag_if(s)
+        if not top:
+            raise self.err("return inside a nested block")
+        self.lines.append("  if (early : bool) then " + self.result_term(None) + " else")
+        return None
+
+    def flag_if(self, s):
+        """if / else of a void function one of whose arms ends in `return;` (directly or through such an if in its last
+        position): binds the variables the arms assign and `early : bool`"""
+        _, c, th, el = s
+        cterm = self.cond(c)
+        snap = self.snapshot()
+        la, ra, ea = self.flag_arm(th)
+        sa = self.snapshot()
+        self.restore(snap)
+        lb, rb, eb = self.flag_arm(el if el is not None else [])
+        sb = self.snapshot()
+        for v, e in self.env.items():
+            if e["uninit"] is not None:
+                e["uninit"] = set(sa[v][0]) | set(sb[v][0])
+                e["assigned"] = sa[v][1] & sb[v][1]
+        vs = [v for v in self.env if v in ra or v in rb]
+        for v in vs:
+            self.assigned(v)
+        self.lines.append(f"  {self.pat(vs + ['early'])} <- (if {cterm} then")
+        self.lines += ["    " + l for l in la] + [f"      Ok {self.tup(vs + [ea])}", "    else"]
+        self.lines += ["    " + l for l in lb] + [f"      Ok {self.tup(vs + [eb])}) ;;"]
+
+    def flag_arm(self, stmts):
+        outer = set(self.env)
+        saved, self.lines = self.lines, []
+        rec = set()
+        self.recorders.append(rec)
+        early = "false"
+        if stmts and stmts[-1] == ("return", None):
+            for st in stmts[:-1]:
+                self.stmt(st, False)
+            early = "true"
+        elif stmts and stmts[-1][0] == "if" and WFn.has_return(stmts[-1]):
+            for st in stmts[:-1]:
+                self.stmt(st, False)
+            self.flag_if(stmts[-1])
+            early = "early"
+        else:
+            for st in stmts:
+                self.stmt(st, False)
+        self.recorders.pop()
+        lines, self.lines = self.lines, saved
+        for v in list(self.env):
+            if v not in outer:
+                del self.env[v]
+        return lines, rec, early
+
+    def while_stmt(self, s):
+        _, c, body = s
+        ctx = self.ctx
+        self.nloop += 1
+        lname = f"{self.name}_loop{self.nloop}"
+        used = self.vars_in([c, body], [])
+        used = [v for v in self.env if v in used]                     # declaration order
+        for v in used:
+            if self.env[v]["type"][0] == "alias" or v in self.split or v in self.offsets:
+                raise self.err(f"loop {self.nloop}: the pointer {v} is used inside the loop")
+        snap = self.snapshot()
+        saved, self.lines = self.lines, []
+        cterm = self.cond(c)
+        head, self.lines = self.lines, saved                          # checked arithmetic of the condition
+        saved_exts, self.exts, n_extras = self.exts, [], len(self.extras)
+        saved_fuel, self.fuel = self.fuel, False
+        lines, rec = self.block(body)
+        lexts = self.exts
+        self.exts = saved_exts + [x for x in lexts if x not in saved_exts]
+        if len(self.extras) != n_extras:
+            raise self.err(f"loop {self.nloop}: uninitialised struct local inside the loop")
+        self.restore(snap)                                            # the body may not run at all
+        vs = [v for v in self.env if v in rec]
+        if not vs or any(v not in used for v in vs):
+            raise self.err(f"loop {self.nloop}: no effect")
+        sig = [f"(ext_{x} : {ctx.fun_type(ctx.funcs[x])})" for x in lexts] + ["(fuel : nat)"] \
+            + [f"({v} : {ctx.coq_type(self.env[v]['type'])})" for v in used]
+        rtype = " * ".join(ctx.coq_type(self.env[v]["type"]) for v in vs)
+        args = " ".join(["ext_" + x for x in lexts] + ["fuel"] + used)
+        self.loop_defs.append(
+            f"Fixpoint {lname} " + " ".join(sig) + f"\n  : res {rtype if len(vs) == 1 else '(' + rtype + ')'} :=\n"
+            + "".join(l + "\n" for l in head)
+            + f"  if {cterm} then\n    match fuel with\n    | O => OutOfFuel\n    | S fuel =>\n"
+            + "".join("    " + l + "\n" for l in lines)
+            + f"      {lname} {args}\n    end\n  else Ok {self.tup(vs)}.\n")
+        self.fuel = True
+        for v in vs:
+            self.assigned(v)
+        self.lines.append(f"  {self.pat(vs)} <- {lname} {args} ;;")
+        return None
+
+    def open_fuel(self):
+        self.lines += ["  match fuel with", "  | O => OutOfFuel", "  | S fuel =>"]
+        self.closers.insert(0, "  end")
+        self.fuel = True
+
+    def translate(self):
+        ctx = self.ctx
+        stmts = list(self.stmts)
+        # which parameters are written: needed before the body for returns inside it (verified at the end)
+        self.inout_names = [p for p, t, const in self.params if t[0] in ("arr", "ptr") and not const]
+        if self.recursive:
+            ctx.funcs[self.c] = {"c": self.c, "coq": self.name, "params": self.params, "ret": self.ret,
+                                 "inouts": [i for i, (p, t, const) in enumerate(self.params) if p in self.inout_names],
+                                 "res": True, "exts": ["@SELF@"], "extras": [], "poly": False, "fuel": True}
+        for p, t, const in self.params:                               # `out += n` on a written pointer parameter
+            if t == ("arr", 8, None) and not const and self.advances(stmts, p):
+                self.declare(f"{p}_off", ("int", 64))
+                self.offsets[p] = f"{p}_off"
+                self.lines.append(f"  let {p}_off := 0 in")
+        tail = None
+        if stmts and stmts[-1][0] == "return" and stmts[-1][1] is not None:
+            tail = ("return", stmts.pop()[1])
+        elif stmts and stmts[-1][0] == "if" and stmts[-1][3] is not None and self.ret is not None:
+            tail = ("if", stmts.pop())
+        elif self.ret is not None:
+            raise self.err("no return statement at the end")
+        opened = False
+        for s in stmts:
+            early = s[0] == "if" and s[3] is None and s[2] and s[2][-1][0] == "return"
+            if self.recursive and not opened and not early:
+                self.open_fuel()
+                opened = True
+            self.stmt(s, True)
+        if self.recursive and not opened:
+            self.open_fuel()
+        if tail is None:
+            self.lines.append("  " + self.result_term(None))
+        elif tail[0] == "return":
+            self.lines.append("  " + self.result_term(tail[1]))
+        else:
+            _, c, th, el = tail[1]
+            if not th or not el or th[-1][0] != "return" or el[-1][0] != "return":
+                raise self.err("if / else at the end is not a pair of returns")
+            cterm = self.cond(c)
+            arms = []
+            for arm in (th, el):
+                snap, outer, saved_off = self.snapshot(), set(self.env), dict(self.offsets)
+                saved, self.lines = self.lines, []
+                for st in arm[:-1]:
+                    self.stmt(st, False)
+                self.lines.append("  " + self.result_term(arm[-1][1]))
+                lines, self.lines = self.lines, saved
+                for v in list(self.env):
+                    if v not in outer:
+                        del self.env[v]
+                self.restore(snap)
+                self.offsets = saved_off
+                arms.append(lines)
+            self.lines.append(f"  if {cterm} then (")
+            self.lines += ["  " + l for l in arms[0]] + ["  ) else ("] + ["  " + l for l in arms[1]] + ["  )"]
+        if self.code_i != len(self.codes):
+            raise self.err(f"{self.code_i} assert statements, {len(self.codes)} Panic codes in _CW_FNS")
+        if self.wsite_i != len(self.wsites):
+            raise self.err(f"{self.wsite_i} checked pointer sites, {len(self.wsites)} in _CW_FNS")
+        if self.extras:
+            raise self.err("uninitialised struct local with an uninterpreted member")
+        if sorted(self.written) != sorted(self.inout_names):
+            raise self.err(f"written parameters {sorted(self.written)}, non-const pointer parameters {sorted(self.inout_names)}")
+        inouts = [i for i, (p, t, const) in enumerate(self.params) if p in self.written]
+        self.exts = [x for x in self.exts if x != "@SELF@"]
+        f = {"c": self.c, "coq": self.name, "params": self.params, "ret": self.ret, "inouts": inouts,
+             "res": True, "exts": self.exts, "extras": [], "poly": False, "fuel": self.fuel}
+        rt = ctx.result_type(f)
+        sig = [f"(ext_{x} : {ctx.fun_type(ctx.funcs[x])})" for x in self.exts]
+        if self.fuel:
+            sig.append("(fuel : nat)")
+        sig += [f"({p} : {ctx.coq_type(t)})" for p, t, _ in self.params]
+        ctx.funcs[self.c] = f
+        selfexts = " ".join("ext_" + x for x in self.exts)
+        text = "".join(d + "\n" for d in self.loop_defs)
+        kw, struct = ("Fixpoint", " {struct fuel}") if self.recursive else ("Definition", "")
+        body = "".join(l + "\n" for l in self.lines + self.closers).replace("ext_@SELF@", selfexts)
+        text += f"{kw} {self.name} " + " ".join(sig) + f"{struct}\n  : {rt} :=\n" + body.rstrip() + ".\n"
+        return text.replace("ext_@SELF@", selfexts)
+
+    @staticmethod
+    def advances(node, p):
+        if isinstance(node, tuple) and len(node) == 4 and node[0] == "assign" and node[1] == "+=" and node[2] == ("var", p):
+            return True
+        if isinstance(node, (tuple, list)):
+            return any(CSWideFn.advances(x, p) for x in node)
+        return False
+
+
+def gen_c_hasher_wide():
+    ctx, _, (h, ih, c) = _c_hasher_small_parts()
+    ctx.interpret_flat()
+    # the callees translated in GenCHasherLoops.v: same run, same text, same context
+    ctx.external_from_source(c, "output_root_bytes", r"\bINLINE\s+(void)\s+output_root_bytes\s*\(", True, False)
+    find1(r"\bINLINE\s+unsigned\s+int\s+popcnt\s*\(\s*uint64_t\s+x\s*\)\s*\{", ih, "popcnt prototype")
+    ctx.funcs["popcnt"] = {"c": "popcnt", "coq": "c_popcnt", "params": [("x", ("int", 64), False)], "ret": ("int", 32),
+                           "inouts": [], "res": True, "exts": [], "extras": [], "poly": False}
+    params, ret = ctx.signature("chunk_state_len", _fn_header(c, r"\bINLINE\s+(size_t)\s+chunk_state_len\s*\(", "chunk_state_len")[0],
+                                "size_t")
+    ctx.funcs["chunk_state_len"] = {"c": "chunk_state_len", "coq": "c_chunk_state_len", "params": params, "ret": ret,
+                                    "inouts": [], "res": True, "exts": [], "extras": [], "poly": False,
+                                    "fields": ["blocks_compressed", "buf_len"]}
+    for fn in ("chunk_state_update", "hasher_merge_cv_stack", "hasher_push_cv"):
+        CSLoopFn(ctx, c, fn).translate()
+    out = [HEADER.replace("NArith List.", "NArith List Bool.").replace(
+        "Base.MachInt.", "Base.MachInt Base.Word Base.Arr Base.Slice.\n"
+        "From V Require Import gen.GenConsts gen.GenFormulas gen.GenCHasherSmall gen.GenCHasherLoops.")]
+
+    # build constants (gen_consts reads the same lines)
+    m = find1(r"#if defined\(IS_X86\)\s*#define MAX_SIMD_DEGREE (\d+)", ih, "c_MAX_SIMD_DEGREE")
+    ctx.ints["MAX_SIMD_DEGREE"], ctx.ints_coq["MAX_SIMD_DEGREE"] = int(m.group(1)), "c_MAX_SIMD_DEGREE"
+    find1(r"#define MAX_SIMD_DEGREE_OR_2 \(MAX_SIMD_DEGREE > 2 \? MAX_SIMD_DEGREE : 2\)", ih, "c_MAX_SIMD_DEGREE_OR_2")
+    ctx.ints["MAX_SIMD_DEGREE_OR_2"] = max(int(m.group(1)), 2)
+    ctx.ints_coq["MAX_SIMD_DEGREE_OR_2"] = "c_MAX_SIMD_DEGREE_OR_2"
+    find1(r"#include\s*<stdint\.h>", ih, "blake3_impl.h includes <stdint.h>")              # SIZE_MAX
+    ctx.ints["SIZE_MAX"], ctx.ints_coq["SIZE_MAX"] = (1 << 64) - 1, str((1 << 64) - 1)
+    find1(r"#include\s*<assert\.h>", ih, "blake3_impl.h includes <assert.h>")
+
+    # called, not translated: the dispatcher's entry points (prototypes of blake3_impl.h)
+    ctx.external_from_source(ih, "blake3_simd_degree", r"\b(size_t)\s+blake3_simd_degree\s*\(", False, True)
+    ctx.external_from_source(ih, "blake3_compress_xof", r"\b(void)\s+blake3_compress_xof\s*\(", False, True)
+    find1(r"\bvoid\s+blake3_hash_many\s*\(\s*const\s+uint8_t\s*\*\s*const\s*\*\s*inputs\s*,\s*size_t\s+num_inputs\s*,\s*"
+          r"size_t\s+blocks\s*,\s*const\s+uint32_t\s+key\[8\]\s*,\s*uint64_t\s+counter\s*,\s*bool\s+increment_counter\s*,\s*"
+          r"uint8_t\s+flags\s*,\s*uint8_t\s+flags_start\s*,\s*uint8_t\s+flags_end\s*,\s*uint8_t\s*\*\s*out\s*\)\s*;", ih,
+          "blake3_hash_many prototype")
+    ctx.add_external("blake3_hash_many",
+                     [("inputs", ("parr", None), True), ("num_inputs", ("int", 64), False), ("blocks", ("int", 64), False),
+                      ("key", ("arr", 32, 8), True), ("counter", ("int", 64), False), ("increment_counter", ("bool",), False),
+                      ("flags", ("int", 8), False), ("flags_start", ("int", 8), False), ("flags_end", ("int", 8), False),
+                      ("out", ("arr", 8, None), False)], None, True)
+    find1(r"\bvoid\s+blake3_xof_many\s*\(\s*const\s+uint32_t\s+cv\[8\]\s*,\s*const\s+uint8_t\s+block\[BLAKE3_BLOCK_LEN\]\s*,\s*"
+          r"uint8_t\s+block_len\s*,\s*uint64_t\s+counter\s*,\s*uint8_t\s+flags\s*,\s*uint8_t\s+out\[64\]\s*,\s*"
+          r"size_t\s+outblocks\s*\)\s*;", ih, "blake3_xof_many prototype")
+    ctx.add_external("blake3_xof_many",                                     # writes 64 * outblocks bytes from out on
+                     [("cv", ("arr", 32, 8), True), ("block", ("arr", 8, 64), True), ("block_len", ("int", 8), False),
+                      ("counter", ("int", 64), False), ("flags", ("int", 8), False), ("out", ("arr", 8, None), False),
+                      ("outblocks", ("int", 64), False)], None, True)
+    # left_subtree_len(n) = c_left_subtree_len n, round_down_to_power_of_2(x) = c_round_down_to_power_of_2 x (gen_formulas)
+    find1(r"\bINLINE\s+size_t\s+left_subtree_len\s*\(\s*size_t\s+input_len\s*\)\s*\{", c, "left_subtree_len prototype")
+    ctx.funcs["left_subtree_len"] = {"c": "left_subtree_len", "coq": "c_left_subtree_len",
+                                     "params": [("input_len", ("int", 64), False)], "ret": ("int", 64), "inouts": [],
+                                     "res": True, "exts": [], "extras": [], "poly": False}
+    find1(r"\bINLINE\s+uint64_t\s+round_down_to_power_of_2\s*\(\s*uint64_t\s+x\s*\)\s*\{", ih, "round_down_to_power_of_2 prototype")
+    ctx.funcs["round_down_to_power_of_2"] = {"c": "round_down_to_power_of_2", "coq": "c_round_down_to_power_of_2",
+                                             "params": [("x", ("int", 64), False)], "ret": ("int", 64), "inouts": [],
+                                             "res": True, "exts": [], "extras": [], "poly": False}
+    out.append("(* ---- c/blake3.c ---- *)\n")
+    for fn in ("compress_chunks_parallel", "compress_parents_parallel", "blake3_compress_subtree_wide",
+               "compress_subtree_to_parent_node", "blake3_hasher_update_base", "output_root_bytes"):
+        out.append(CSWideFn(ctx, c, fn).translate())
+    return "\n".join(out)
+
+
 ROUND_FILES = [("src/rust_sse2.rs", "rs", "rs_sse2", [("round", "transpose_vecs", "transpose_msg_vecs", "hash4", 4)]),
                ("src/rust_sse41.rs", "rs", "rs_sse41", [("round", "transpose_vecs", "transpose_msg_vecs", "hash4", 4)]),
                ("src/rust_avx2.rs", "rs", "rs_avx2", [("round", "transpose_vecs", "transpose_msg_vecs", "hash8", 8)]),
@@ -4961,8 +5781,6 @@ class RStruct:
                 self.fields.append((fld, "arr", None))
             elif ty == "CVWords":
                 self.fields.append((fld, "arr", None))
-            elif re.fullmatch(r"\[\s*\[\s*u32\s*;\s*\d+\s*\]\s*;\s*\d+\s*\]", ty):     # [[u32; 8]; 54]
-                self.fields.append((fld, "arr2", None))
             elif ty in ("u8", "u32", "u64"):
                 self.fields.append((fld, "word", TYPES[ty]))
             elif ty == "Platform":
@@ -4978,7 +5796,7 @@ class RStruct:
         return f"{self.coq}_{f}"
 
     def record(self):
-        ty = {"arr": "list N", "word": "N", "platform": "platform", "cvstack": "list (list N)", "arr2": "list (list N)"}
+        ty = {"arr": "list N", "word": "N", "platform": "platform", "cvstack": "list (list N)"}
         rows = ";\n".join(f"  {self.proj(f)} : {self.structs[k[1]].coq if isinstance(k, tuple) else ty[k]}"
                           for f, k, _ in self.fields)
         return f"Record {self.coq} := {self.coq}_mk {{\n{rows} }}.\n"
@@ -5401,13 +6219,11 @@ class RFn(PFn):
             text += (f"Definition {self.name}_debug_assert {sig} : bool :=\n" + "".join(l + "\n" for l in prelude)
                      + "  " + " && ".join(self.asserts) + ".\n\n")
         text += f"Definition {self.name} {sig} : {rty} :=\n" + "".join(l + "\n" for l in lines) + f"  {result}.\n"
-        self.sig = {"coq": self.name, "params": kinds, "widths": widths, "ret": rkind, "rettext": ret,
-                    "asserts": bool(self.asserts)}
+        self.sig = {"coq": self.name, "params": kinds, "widths": widths, "ret": rkind}
         return text
 
 
-def _refimpl_core():
-    """the text of GenRefImpl.v and what gen_refimpl_loops needs of it"""
+def gen_refimpl():
     out = [HEADER.replace("NArith List.", "NArith List Bool.").replace(
         "Base.MachInt.", "Base.MachInt Base.Word Base.Arr.\nFrom V Require Import gen.GenConsts.")]
     ref = strip_comments(src("reference_impl/reference_impl.rs"))
@@ -5447,11 +6263,7 @@ def _refimpl_core():
         f = RFn(P + fname, ref, r"\bfn\s+" + fname + r"\s*\(", consts, cenv, fns, structs, None, methods)
         out.append(f.translate())
         fns[fname] = f.sig
-    return {"text": "\n".join(out), "ref": ref, "fns": fns, "methods": methods, "structs": structs, "cenv": cenv}
-
-
-def gen_refimpl():
-    return _refimpl_core()["text"]
+    return "\n".join(out)
 
 
 # ---------------------------------------------------------------------------
@@ -5574,7 +6386,7 @@ _L_TOK = re.compile(r"""
   | (?P<num>0[xX][0-9a-fA-F_]+|[0-9][0-9_]*)(?:_?(?:u8|u16|u32|u64|usize))?
   | (?P<str>"(?:\\.|[^"\\])*")
   | (?P<id>[A-Za-z_][A-Za-z0-9_]*(?:::[A-Za-z_][A-Za-z0-9_]*)*)
-  | (?P<op>\.\.|\+=|-=|->|==|!=|<<=|>>=|<=|>=|&&|\|\||<<|>>|[-+*/%&|^!<>=().,\[\]{};:])
+  | (?P<op>\.\.|\+=|-=|->|==|!=|<=|>=|&&|\|\||<<|>>|[-+*/%&|^!<>=().,\[\]{};:])
 """, re.X)
 _L_SLICE_FROM, _L_SLICE_TO, _L_COPY_LEN, _L_ARRAY_REF = 40, 41, 42, 54
 
@@ -5605,8 +6417,8 @@ class LParser:
        expressions: the nodes of Parser plus ('ref', mut, e) ('deref', e) ('range', lo | None, hi | None)
                     ('macro', name, [args]) ('str', text) ('struct', name, [(field, e)]) ('repeat', e, n)"""
 
-    def __init__(self, toks, name, structs, rust_for=False):
-        self.t, self.i, self.name, self.structs, self.rust_for = toks, 0, name, structs, rust_for
+    def __init__(self, toks, name, structs):
+        self.t, self.i, self.name, self.structs = toks, 0, name, structs
 
     def err(self, msg):
         return AnchorError(f"{self.name}: {msg} at {self.t[self.i:self.i + 6]!r}")
@@ -5687,25 +6499,11 @@ class LParser:
                 e = self.expr(0)
                 self.expect(";")
                 out.append(("return", e))
-            elif (k, v) == ("id", "for") and self.rust_for:
-                # for x in e { .. } / for (x, y) in e { .. } -> ('for', [names], e, block)
-                self.next()
-                if self.accept("("):
-                    pat = [self.ident()]
-                    while self.accept(","):
-                        pat.append(self.ident())
-                    self.expect(")")
-                else:
-                    pat = [self.ident()]
-                if not self.accept_id("in"):
-                    raise self.err("expected 'in'")
-                it = self.expr(0, nostruct=True)
-                out.append(("for", pat, it, self.block()))
             elif k == "id" and v in ("for", "loop", "match", "break", "continue", "unsafe", "fn", "const", "static", "else"):
                 raise self.err(f"statement {v!r} is not translated")
             else:
                 e = self.expr(0)
-                if self.peek() in (("op", "="), ("op", "+="), ("op", "-="), ("op", ">>="), ("op", "<<=")):
+                if self.peek() in (("op", "="), ("op", "+="), ("op", "-=")):
                     op = self.next()[1]
                     rhs = self.expr(0)
                     self.expect(";")
@@ -5833,10 +6631,8 @@ class LCtx:
             return self.structs[k[1]].coq
         if k[0] == "platform":
             return "platform"
-        if k[0] in ("cvstack", "arr2"):
+        if k[0] == "cvstack":
             return "list (list N)"
-        if k[0] == "str":
-            return "list N"
         if k[0] == "ext":
             return k[1]
         raise AnchorError(f"no Gallina type for {k!r}")
@@ -5880,7 +6676,8 @@ class LFn:
         self.ctx, self.struct, self.fname = ctx, struct, fname
         self.name = f"{ctx.P}{struct}_{fname}"
         ptext, rtext = _fn_header(impl_text, header_re, self.name)
-        self.block = self.parse_body(fn_body(impl_text, header_re, self.name))
+        self.block = LParser(_l_tokens(fn_body(impl_text, header_re, self.name), self.name), self.name,
+                             set(ctx.structs)).body()
         self.codes, self.code_i = list(codes), 0
         self.env, self.params, self.selfmode = {}, [], None
         self.lines, self.tmp, self.monadic, self.exts, self.fuel, self.loops = [], 0, False, [], False, []
@@ -5893,13 +6690,6 @@ class LFn:
 
     def err(self, msg):
         return AnchorError(f"{self.name}: {msg}")
-
-    def parse_body(self, text):
-        return LParser(_l_tokens(text, self.name), self.name, set(self.ctx.structs)).body()
-
-    def site_wrap(self, lhs, term):
-        """hook: the checked arithmetic of a compound assignment (RLFn: Panic code of the source site)"""
-        return term
 
     # ---- signature ----
     def param(self, p):
@@ -6360,13 +7150,11 @@ class LFn:
                     self.bind(val, emit(s2, {}, {}, self.name, kind[1]))
             else:
                 val = self.fresh()
-                if kind[1] is None:
-                    raise self.err(f"{lhs!r} {op} {rhs!r}: the type of the left-hand side is not known here")
-                e = ("bin", op[:-1], ("coq", cur, kind[1]), self.subst(rhs))
+                e = ("bin", op[0], ("coq", cur, kind[1]), self.subst(rhs))
                 w = width_of(e[3], {})
-                if w is not None and w != kind[1] and op[:-1] not in ("<<", ">>"):
+                if w is not None and w != kind[1]:
                     raise self.err(f"{lhs!r} {op} {rhs!r}: operand widths")
-                self.bind(val, self.site_wrap(lhs, emit(e, {}, {}, self.name, kind[1])))
+                self.bind(val, emit(e, {}, {}, self.name, kind[1]))
             return self.set_path(root, fs, val)
         if op != "=":
             raise self.err(f"{op} on a non-integer")
@@ -6587,12 +7375,9 @@ _LIB_LOOP_FNS = [("ChunkState", "count", []), ("ChunkState", "fill_buf", []), ("
                  ("Hasher", "finalize_xof", [22]), ("Hasher", "count", [])]
 
 
-def gen_lib_loops():
-    return _lib_loops_build()[0]
-
-
-def _lib_loops_build():
-    """(text of GenLibLoops.v, its LCtx, the stripped lib.rs text)"""
+def _lib_loops_parts():
+    """(ctx, text pieces of GenLibLoops.v, (lib.rs, platform.rs without comments, impl ChunkState, impl Hasher, impl Output)):
+    the records, constants, externals and the translated methods are built once here for GenLibLoops.v and GenLibWide.v"""
     out = [HEADER.replace("NArith List.", "NArith List Bool.").replace(
         "Base.MachInt.", "Base.MachInt Base.Word Base.Arr Base.ArrayVec.\n"
         "From V Require Import gen.GenConsts Model.Platform gen.GenLibSmall.")]
@@ -6617,7 +7402,7 @@ def _lib_loops_build():
     for s in ("Output", "ChunkState"):
         structs[s] = RStruct(lib, s, P, cenv)
     structs["Hasher"] = RStruct(lib, "Hasher", P, cenv, structs)
-    ctx = LCtx(P, structs, consts, "rs_cv_stack_cap")
+    ctx = WCtx(P, structs, consts, "rs_cv_stack_cap")
     pimpl = fn_body(plat, r"\bimpl\s+Platform\s*\{", "impl Platform")
     tail_params = ["block: &[u8; BLOCK_LEN]", "block_len: u8", "counter: u64", "flags: u8"]
     ctx.platform_methods = {
@@ -6681,58 +7466,60 @@ def _lib_loops_build():
             f = LFn(ctx, impl, s, fname, r"\bfn\s+" + fname + r"\s*\(", codes)
             out.append(f.translate())
             ctx.methods[(s, fname)] = f.sig
-    return "\n".join(out), ctx, lib
+    return ctx, out, (lib, plat, cs_impl, h_impl, o_impl)
+
+
+def gen_lib_loops():
+    return "\n".join(_lib_loops_parts()[1])
 
 
 # ---------------------------------------------------------------------------
-# GenXof.v / GenHazmat.v / GenTraits.v: `OutputReader` of src/lib.rs, src/hazmat.rs, src/traits.rs and src/guts.rs,
-# translated statement by statement with the machinery of GenLibLoops.v (LParser / LCtx / LFn), extended here
-# (XParser / XCtx / XFn) by exactly the shapes these files use:
-#   * `&mut [u8]` output buffers that are written through and advanced from the front (Base/MutSlice.v): a variable
-#     of that type is the pair (bytes of the caller's buffer the slice has moved past, bytes it covers now);
-#     `buf[..n].copy_from_slice(s)` -> ms_write after the two bounds checks and the length check,
-#     `buf = &mut buf[a..]` / `*buf = &mut core::mem::take(buf)[a..]` -> ms_advance after `assert! (a <=? len)`;
-#     a parameter `buf: &mut [u8]` of a translated function is the caller's buffer before the call (a list), the
-#     result contains the buffer after the call (ms_buffer); a parameter `buf: &mut &mut [u8]` is the pair itself.
-#   * `self.inner.platform.xof_many(cv, block, block_len, counter, flags, &mut buf[..n])` stays a call of the explicit
-#     parameter ext_xof_many (signature anchored in src/platform.rs): it receives the n bytes of the destination and
-#     returns their new contents.
-#   * signed arithmetic (i64 / i128; Base/SInt.v): values are Z, `a as i128` of an unsigned a is Z.of_N a, `+` is
-#     zi_add at the width (Panic 1001 outside the range), cmp::min is Z.min, `x as u64` of a signed x is zi_as_u 64 x
-#     (the low 64 bits), comparisons are Z.ltb / Z.leb / Z.eqb.
-#   * `match e { Path::Variant(x) => value, .., Path::Variant(_) => { ..; return r; } }` over a translated enum:
-#     a Gallina match with one branch per arm in source order (every variant exactly once); as the initialiser of a
-#     top-level `let` whose arms may `return`, each arm yields inl value / inr result and the rest of the function is
-#     the inl continuation.
-#   * std::io::Result<T>: Ok(v) -> IoOk v; Err(std::io::Error::new(std::io::ErrorKind::K, "message")) -> IoErr "K"
-#     (Base/SInt.v io_result; the kind as ASCII codes).  std::io::SeekFrom is the standard library's enum
-#     Start(u64) / End(i64) / Current(i64).
-#   * `if c { a } else { b }` as the value of the function; bool parameters; tuple-struct newtypes over one translated
-#     struct (`Self(e)`, `self.0`: the identity); `Hash` / `[u8; 32]` conversions `.as_bytes()`, `.into()`, `.0`: the
-#     identity on the byte list; `Platform::detect()`: the extra last parameter `detected_platform` of the function
-#     (as in GenLibSmall's Hasher::new_internal); `S::m(&x, ..)` is `x.m(..)`.
-#   * assert_eq! / assert_ne! / assert! with a message: the message must be the one listed next to the Panic code in
-#     the table.  Slice-site Panic codes other than the defaults (40 / 41 / 42 / 54) are listed per function, in the
-#     order the checks are emitted; the list must be consumed exactly.
-# Everything else raises AnchorError: no statement is ever skipped.
+# GenLibWide.v: the all-at-once / wide core of src/lib.rs (largest_power_of_two_leq, compress_chunks_parallel,
+# compress_parents_parallel, compress_subtree_wide, compress_subtree_to_parent_node, hash_all_at_once, hash, keyed_hash,
+# derive_key, Hasher::update_with_join, Hasher::update) and hazmat::left_subtree_len, translated statement by statement
+# on top of GenLibSmall.v / GenLibLoops.v (same records, same translated callees, the rules of LFn).  What is added:
+#   * every function is in `res`; `out: &mut [u8]` parameters are threaded: the function returns (out, result), a call
+#     `f(.., out)` / `f(.., &mut arr)` rebinds the variable.
+#   * recursion (compress_subtree_wide): a Fixpoint on explicit fuel.  The leading `if c { return e; }` statements are
+#     evaluated first; `match fuel with O => OutOfFuel | S fuel =>` stands before the first other statement, so every
+#     call below it (the recursive ones included) receives the predecessor.
+#   * `J::join(|| a, || b)` is `a` then `b` (join::SerialJoin; that the schedule does not matter is C08 / WideSchedP);
+#     `f::<J>(..)` / `f::<join::SerialJoin>(..)` is `f(..)`: the type argument must be the function's own `J` or
+#     join::SerialJoin.
+#   * `s.chunks_exact(N)` is the pair sl_chunks_exact N s (Base/Slice.v); `for x in &mut it { body }` is a Fixpoint
+#     <f>_for<k> by structural recursion over the pieces, `it.remainder()` the second component.
+#     `ArrayVec::<&[u8; N], CAP>::new()` is [], push is av_push CAP (Base/ArrayVec.v) under at_code.
+#   * `s.split_at(k)` -> bounds assert, (firstn k s, skipn k s); `a.split_at_mut(k)` the same, and `a` is rebuilt as
+#     `left ++ right` after the last statement that mentions one of the two halves (using `a` before is an AnchorError).
+#   * `*array_mut_ref!(s, off, n) = e` -> e first, then the bounds assert, then arr_store; `s[a..][..b]` places.
+#   * Panic codes: the assertion macros take the codes of the first table in source order; every slice index, split,
+#     array_ref!, push and copy_from_slice takes the next entry of the second table, which also names the KIND of
+#     operation expected at that position (a mismatch is an AnchorError).  The codes are the ones Model/RsWide.v /
+#     Model/RsHasher.v use for the same sites; 40 / 41 / 42 / 54 are the generic slice / copy / array_ref! codes for
+#     sites the models do not check separately.
+#   * `if c { .. } else { return self; }` nested in the last position of an arm: the `if` yields an extra component
+#     `early : option <result>`; after the outermost one `match early with Some r => Ok r | None => <rest> end`.
+#   * `if let Some(x) = hazmat::max_subtree_len(e) { body }` -> match on the formula rs_max_subtree_len of GenFormulas.v
+#     (translated there from hazmat.rs); `let x = if c { ..; a } else { b };` and a final `if c { ..; a } else { b }`.
+#   * constants of the build (MAX_SIMD_DEGREE, MAX_SIMD_DEGREE_OR_2: cfg-dependent in platform.rs) and
+#     Platform::detect() are ext_ parameters like the functions that are called but not translated
+#     (Platform::hash_many with `out` threaded, platform::words_from_le_bytes_32, hazmat::hash_derive_key_context).
+# Everything else raises AnchorError.
 # ---------------------------------------------------------------------------
-_X_TOK = re.compile(r"""
+_W_TOK = re.compile(r"""
     (?P<ws>\s+)
   | (?P<num>0[xX][0-9a-fA-F_]+|[0-9][0-9_]*)(?:_?(?:u8|u16|u32|u64|usize))?
   | (?P<str>"(?:\\.|[^"\\])*")
   | (?P<id>[A-Za-z_][A-Za-z0-9_]*(?:::[A-Za-z_][A-Za-z0-9_]*)*)
-  | (?P<op>\.\.|\+=|-=|->|=>|==|!=|<=|>=|&&|\|\||<<|>>|::|[-+*/%&|^!<>=().,\[\]{};:])
+  | (?P<op>::|\.\.|\+=|-=|/=|->|==|!=|<=|>=|&&|\|\||<<|>>|[-+*/%&|^!<>=().,\[\]{};:])
 """, re.X)
-_X_UNSIGNED = {"u8": 8, "u16": 16, "u32": 32, "u64": 64, "usize": 64}
-_X_SIGNED = {"i64": 64, "i128": 128}
-# std::io::SeekFrom (Rust standard library): variant -> payload kind
-_X_SEEKFROM = [("Start", ("int", 64)), ("End", ("sint", 64)), ("Current", ("sint", 64))]
+_W_RENAME = {"left": "left_", "right": "right_"}          # constructors of Coq's sumbool: unusable in patterns
 
 
-def _x_tokens(text, name):
+def _w_tokens(text, name):
     out, i = [], 0
     while i < len(text):
-        m = _X_TOK.match(text, i)
+        m = _W_TOK.match(text, i)
         if not m:
             raise AnchorError(f"{name}: cannot tokenize {text[i:i + 20]!r}")
         i = m.end()
@@ -6743,32 +7530,17 @@ def _x_tokens(text, name):
         elif m.group("str") is not None:
             out.append(("str", m.group("str")))
         elif m.group("id"):
-            out.append(("id", m.group("id")))
+            out.append(("id", _W_RENAME.get(m.group("id"), m.group("id"))))
         else:
             out.append(("op", m.group("op")))
     return out
 
 
-class XParser(LParser):
-    """LParser plus ('let', mut, v, type text | None, init) with any type text; ('return', None);
-       ('match', scrutinee, [((path, binder | None, has payload), ('value', e) | ('block', ([stmts], tail)))]);
-       ('scast', w, e) for `as i64 / i128`; ('tfield', e, n) for `e.0`; ('call', f, args, [generic arguments])"""
-
-    def type_text(self):
-        out, depth = [], 0
-        while True:
-            k, v = self.peek()
-            if k == "eof":
-                raise self.err("unexpected end in a type")
-            if depth == 0 and (k, v) in (("op", "="), ("op", ";")):
-                break
-            if k == "op" and v in "[(<":
-                depth += 1
-            if k == "op" and v in "])>":
-                depth -= 1
-            out.append(str(v))
-            self.next()
-        return " ".join(out)
+class WParser(LParser):
+    """LParser plus
+       statements:  ('lettuple', [names], init) ('for', var, iterator, block) ('iflet', ctor, var, e, block)
+       expressions: ('ifexpr', cond, block, block) ('gcall', name, generics, [args]) ('gmeth', recv, m, generics, [args])
+                    ('closure', e) ('tfield', e, k);  an `if` with valued arms at the end of a block is the block's value"""
 
     def stmts(self, end):
         out, tail = [], None
@@ -6780,36 +7552,70 @@ class XParser(LParser):
             k, v = self.peek()
             if (k, v) == ("id", "let"):
                 self.next()
+                if self.accept("("):
+                    names = []
+                    while True:
+                        names.append(self.ident())
+                        if self.accept(")"):
+                            break
+                        self.expect(",")
+                    self.expect("=")
+                    init = self.expr(0)
+                    self.expect(";")
+                    out.append(("lettuple", names, init))
+                    continue
                 mut = self.accept_id("mut")
                 name = self.ident()
                 ty = None
                 if self.accept(":"):
-                    ty = self.type_text()
+                    ty = self.ident()
                 init = self.expr(0) if self.accept("=") else None
                 self.expect(";")
                 out.append(("let", mut, name, ty, init))
             elif (k, v) == ("id", "if"):
                 self.next()
+                if self.accept_id("let"):
+                    ctor = self.ident()
+                    self.expect("(")
+                    var = self.ident()
+                    self.expect(")")
+                    self.expect("=")
+                    e = self.expr(0, nostruct=True)
+                    b = self.block()
+                    if self.peek() == ("id", "else"):
+                        raise self.err("if let .. else")
+                    out.append(("iflet", ctor, var, e, b))
+                    continue
                 c = self.expr(0, nostruct=True)
                 th = self.block()
                 el = None
                 if self.accept_id("else"):
                     el = self.block()
-                out.append(("if", c, th, el))
+                if self.peek() == end and th[1] is not None and el is not None and el[1] is not None:
+                    tail = ("ifexpr", c, th, el)
+                else:
+                    out.append(("if", c, th, el))
             elif (k, v) == ("id", "while"):
                 self.next()
                 c = self.expr(0, nostruct=True)
                 out.append(("while", c, self.block()))
+            elif (k, v) == ("id", "for"):
+                self.next()
+                var = self.ident()
+                if not self.accept_id("in"):
+                    raise self.err("for without in")
+                it = self.expr(0, nostruct=True)
+                out.append(("for", var, it, self.block()))
             elif (k, v) == ("id", "return"):
                 self.next()
-                e = None if self.peek() == ("op", ";") else self.expr(0)
+                e = self.expr(0)
                 self.expect(";")
                 out.append(("return", e))
-            elif k == "id" and v in ("for", "loop", "break", "continue", "unsafe", "fn", "const", "static", "else"):
+            elif k == "id" and v in ("loop", "match", "break", "continue", "unsafe", "fn", "const", "static", "else"):
                 raise self.err(f"statement {v!r} is not translated")
             else:
                 e = self.expr(0)
-                if self.peek() in (("op", "="), ("op", "+="), ("op", "-=")):
+                if self.peek() in (("op", "="), ("op", "+="), ("op", "-="), ("op", "/=")):
                     op = self.next()[1]
                     rhs = self.expr(0)
                     self.expect(";")
@@ -6820,79 +7626,65 @@ class XParser(LParser):
                     tail = e
         return out, tail
 
-    def expr(self, minprec, nostruct=False):
-        lhs = self.unary(nostruct)
+    def generics(self):
+        self.expect("::")
+        self.expect("<")
+        depth, toks = 1, []
         while True:
-            k, v = self.peek()
-            if (k, v) == ("id", "as"):
-                self.next()
-                ty = self.next()[1]
-                if ty in _X_SIGNED:
-                    lhs = ("scast", _X_SIGNED[ty], lhs)
-                elif ty in _X_UNSIGNED:
-                    lhs = ("cast", _X_UNSIGNED[ty], lhs)
-                else:
-                    raise self.err(f"cast to {ty!r}")
-                continue
-            if k == "op" and v in BIN_PREC and BIN_PREC[v] >= minprec:
-                self.next()
-                rhs = self.expr(BIN_PREC[v] + 1, nostruct)
-                lhs = ("bin", v, lhs, rhs)
-                continue
-            return lhs
+            t = self.next()
+            if t[0] == "eof":
+                raise self.err("unterminated generic arguments")
+            if t == ("op", "<"):
+                depth += 1
+            elif t == ("op", ">"):
+                depth -= 1
+                if depth == 0:
+                    return " ".join(str(x) for _, x in toks)
+            toks.append(t)
 
-    def pattern(self):
-        k, v = self.next()
-        if k != "id":
-            raise self.err("pattern")
-        if self.accept("("):
-            b = self.ident()
-            self.expect(")")
-            return (v, None if b == "_" else b, True)
-        return (v, None, False)
+    def args(self, close):
+        out = []
+        while not self.accept(close):
+            if self.accept("||"):
+                out.append(("closure", self.expr(0)))
+            else:
+                out.append(self.expr(0))
+            if not self.accept(","):
+                self.expect(close)
+                break
+        return out
 
     def primary(self, nostruct):
         k, v = self.peek()
-        if (k, v) == ("id", "match"):
+        if (k, v) == ("id", "if"):
             self.next()
-            scrut = self.expr(0, nostruct=True)
-            self.expect("{")
-            arms = []
-            while not self.accept("}"):
-                pat = self.pattern()
-                self.expect("=>")
-                if self.peek() == ("op", "{"):
-                    arms.append((pat, ("block", self.block())))
-                    self.accept(",")
-                else:
-                    arms.append((pat, ("value", self.expr(0))))
-                    if not self.accept(","):
-                        self.expect("}")
-                        break
-            return ("match", scrut, arms)
+            c = self.expr(0, nostruct=True)
+            th = self.block()
+            if not self.accept_id("else"):
+                raise self.err("if expression without else")
+            return ("ifexpr", c, th, self.block())
         if k == "id" and self.peek(1) == ("op", "::") and self.peek(2) == ("op", "<"):
-            self.i += 3
-            gen = []
-            while True:
-                g = self.next()
-                if g[0] != "id":
-                    raise self.err("generic argument")
-                gen.append(g[1])
-                if self.accept(">"):
-                    break
-                self.expect(",")
+            self.next()
+            gens = self.generics()
+            name = v
+            if self.accept("::"):
+                name += "::" + self.ident()
             self.expect("(")
-            return ("call", v, self.args(")"), gen)
+            return ("gcall", name, gens, self.args(")"))
         return LParser.primary(self, nostruct)
 
     def postfix(self, e):
         while True:
             if self.peek() == ("op", ".") and self.peek(1)[0] == "num":
-                e = ("tfield", e, self.peek(1)[1])
                 self.i += 2
+                e = ("tfield", e, self.t[self.i - 1][1])
             elif self.accept("."):
                 m = self.ident()
-                if self.accept("("):
+                if self.peek() == ("op", "::") and self.peek(1) == ("op", "<"):
+                    gens = self.generics()
+                    self.expect("(")
+                    e = ("gmeth", e, m, gens, self.args(")"))
+                elif self.accept("("):
                     e = ("meth", e, m, self.args(")"))
                 else:
                     e = ("field", e, m)
@@ -6909,830 +7701,848 @@ class XParser(LParser):
                 return e
 
 
-class XCtx(LCtx):
-    """LCtx plus: enums (name -> dict(coq, path, variants = [(name, payload kind | None)])), array-valued constants,
-    type names (text -> kind), translated functions standing in for an external of a callee (bound)."""
+class WCtx(LCtx):
+    """LCtx plus the kinds ('vec', cap term) (an ArrayVec of array references: list (list N)), ('chunks',) (a ChunksExact
+    iterator: pieces and remainder), ('bool',), ('option', w); ext_consts: identifier -> (ext name, kind)"""
 
-    def __init__(self, prefix, base):
-        LCtx.__init__(self, prefix, dict(base.structs), dict(base.consts), base.cap)
-        self.fns, self.methods, self.exts, self.tyvars = dict(base.fns), dict(base.methods), dict(base.exts), list(base.tyvars)
-        self.platform_methods = dict(getattr(base, "platform_methods", {}))
-        self.enums = dict(getattr(base, "enums", {}))
-        self.aconsts = dict(getattr(base, "aconsts", {}))
-        self.types = dict(getattr(base, "types", {}))
-        self.bound = dict(getattr(base, "bound", {}))
-        self.newtypes = dict(getattr(base, "newtypes", {}))
+    def __init__(self, prefix, structs, consts, cap):
+        LCtx.__init__(self, prefix, structs, consts, cap)
+        self.ext_consts, self.arr_consts = {}, {}
 
     def coq_type(self, k):
-        if k[0] == "sint":
-            return "Z"
+        if k[0] == "vec":
+            return "list (list N)"
+        if k[0] == "chunks":
+            return "(list (list N) * list N)"
         if k[0] == "bool":
             return "bool"
-        if k[0] == "mslice":
-            return "mslice"
-        if k[0] == "enum":
-            return self.enums[k[1]]["coq"]
-        if k[0] == "ioresult":
-            return f"(io_result {self.coq_type(k[1])})"
         return LCtx.coq_type(self, k)
 
-    def enum_def(self, name):
-        en = self.enums[name]
-        rows = []
-        for v, k in en["variants"]:
-            rows.append(f"| {en['coq']}_{v}" + (f" (x : {self.coq_type(k)})" if k else ""))
-        return f"Inductive {en['coq']} :=\n" + "\n".join(rows) + ".\n"
+    def add_ext_const(self, ident, name, kind):
+        self.exts[name] = {"type": self.coq_type(kind), "tyvar": None}
+        self.ext_consts[ident] = (name, kind)
 
 
-def _x_ascii(s):
-    return "[" + "; ".join(str(b) for b in s.encode()) + "]"
-
-
-class XFn(LFn):
-    def __init__(self, ctx, impl_text, struct, fname, header_re, codes, coqname=None, slice_codes=None,
-                 self_kind=None, newtype=False):
+class WFn(LFn):
+    def __init__(self, ctx, text, struct, fname, header_re, codes, sites, key=None):
         self.ctx, self.struct, self.fname = ctx, struct, fname
-        self.name = coqname or f"{ctx.P}{struct}_{fname}"
-        ptext, rtext = _fn_header(impl_text, header_re, self.name)
-        self.self_kind = self_kind or (("struct", struct) if struct else None)
-        self.newtype = newtype
-        structs = set(ctx.structs) | {"Self"}
+        self.name = f"{ctx.P}{struct}_{fname}" if struct else f"{ctx.P}{fname}"
+        self.key = key or fname                        # the name under which calls refer to this function
+        ptext, rtext = _fn_header(text, header_re, self.name)
+        self.generic = None
+        mg = re.search(r"<\s*(%s)\s*:\s*join::Join\s*>\s*\($" % _IDENT, find1(header_re, text, self.name).group(0))
+        if mg:
+            self.generic = mg.group(1)
+        self.block = WParser(_w_tokens(fn_body(text, header_re, self.name), self.name), self.name,
+                             set(ctx.structs)).body()
         self.codes, self.code_i = list(codes), 0
-        self.slice_codes, self.slice_i = (list(slice_codes) if slice_codes is not None else None), 0
+        self.sites, self.site_i = list(sites), 0
         self.env, self.params, self.selfmode = {}, [], None
-        self.lines, self.tmp, self.monadic, self.exts, self.fuel, self.loops = [], 0, False, [], False, []
-        self.frame, self.closers, self.detect, self.prologue = set(), [], False, []
-        ptext = re.sub(r"<[^<>;()]*>", lambda g: g.group(0).replace(",", "\x00"), ptext)   # generic arguments
+        self.lines, self.tmp, self.monadic, self.exts, self.fuel, self.loops = [], 0, True, [], False, []
+        self.frame, self.closers, self.nfor, self.lent, self.rest = set(), [], 0, {}, []
         for p in _p_split_top(ptext, ","):
-            p = " ".join(p.replace("\x00", ",").split())
+            p = " ".join(p.split())
             if p:
                 self.param(p)
         self.ret = self.ret_kind(" ".join(rtext.split()))
-        body = XParser(_x_tokens(fn_body(impl_text, header_re, self.name), self.name), self.name, structs).body()
-        self.block = self.norm(body)
-
-    # ---- normalisation of paths ----
-    def strip_crate(self, name):
-        for pre in ("crate::", "core::cmp::"):
-            if name.startswith(pre):
-                name = ("cmp::" if pre == "core::cmp::" else "") + name[len(pre):]
-        if name.startswith("Self::") and self.struct:
-            name = self.struct + name[4:]
-        return name
-
-    def norm(self, x):
-        if isinstance(x, list):
-            return [self.norm(y) for y in x]
-        if not isinstance(x, tuple):
-            return x
-        x = tuple(self.norm(y) for y in x)
-        if len(x) == 2 and x[0] == "var" and isinstance(x[1], str):
-            return ("var", self.strip_crate(x[1]))
-        if len(x) in (3, 4) and x[0] == "call" and isinstance(x[1], str) and isinstance(x[2], list):
-            name = self.strip_crate(x[1])
-            if "::" in name and name not in self.ctx.fns and x[2]:
-                s, m = name.rsplit("::", 1)
-                if (s, m) in self.ctx.methods:                      # S::m(&x, ..) is x.m(..)
-                    recv = x[2][0]
-                    if recv[0] == "ref":
-                        recv = recv[2]
-                    return ("meth", recv, m, x[2][1:])
-            return ("call", name) + x[2:]
-        if len(x) == 3 and x[0] == "tfield" and x[1] == ("var", "self") and x[2] == 0 and self.newtype:
-            return ("var", "self")                                  # the one field of a newtype over a translated struct
-        return x
+        self.recursive = self.mentions_call(self.block, self.key)
 
     # ---- signature ----
-    def type_kind(self, ty):
-        """type text -> (kind, passing mode) ; mode in None | 'buffer' | 'cursor' | 'inout'"""
-        ty = " ".join(ty.replace("crate::", "").split())
-        ty = re.sub(r"&\s*'\w+\s+", "&", ty)
-        if ty in self.ctx.types:
-            return self.ctx.types[ty], None
-        if ty == "&mut &mut [u8]":
-            return ("mslice",), "cursor"
-        if ty == "&mut [u8]":
-            return ("mslice",), "buffer"
-        if ty in ("&[u8]", "&str"):
-            return ("slice",), None
-        if re.fullmatch(r"&?\s*\[\s*u8\s*;\s*(\d+|[A-Z_]+)\s*\]", ty) or ty in ("&CVBytes", "&CVWords", "CVWords", "CVBytes"):
-            return ("arr",), None
-        if ty in _X_UNSIGNED:
-            return ("int", _X_UNSIGNED[ty]), None
-        if ty in _X_SIGNED:
-            return ("sint", _X_SIGNED[ty]), None
-        if ty == "bool":
-            return ("bool",), None
-        if ty == "Platform":
-            return ("platform",), None
-        base = ty[1:].strip() if ty.startswith("&") and not ty.startswith("&mut") else ty
-        if base == "Self" and self.self_kind:
-            return self.self_kind, None
-        if base in self.ctx.structs:
-            return ("struct", base), None
-        if base in self.ctx.enums:
-            return ("enum", base), None
-        for en in self.ctx.enums.values():
-            if base == en.get("path"):
-                return ("enum", en["name"]), None
-        raise self.err(f"type {ty!r}")
-
     def param(self, p):
-        if p in ("&self", "&mut self", "self"):
-            if self.params or self.selfmode or not self.self_kind:
-                raise self.err("self is not the first parameter")
-            self.selfmode = {"&self": "ref", "&mut self": "mut", "self": "val"}[p]
-            self.env["self"] = {"kind": self.self_kind, "mut": self.selfmode == "mut", "uninit": False}
-            return
+        if p in ("&self", "&mut self"):
+            return LFn.param(self, p)
         m = re.fullmatch(r"(mut )?(%s)\s*:\s*(.+)" % _IDENT, p)
         if not m:
             raise self.err(f"parameter {p!r}")
-        mut, v, ty = bool(m.group(1)), m.group(2), m.group(3).strip()
-        kind, mode = self.type_kind(ty)
-        if kind == ("arr",) and mode is None and re.match(r"&mut\b", ty):
-            mode = "inout"
-        if mode in ("buffer", "cursor", "inout"):
-            self.declare(v, kind, True)
-            self.env[v]["rebind"] = mut or mode == "cursor"
+        mut, v, ty = bool(m.group(1)), _W_RENAME.get(m.group(2), m.group(2)), m.group(3).strip()
+        inout = False
+        if ty == "&mut [u8]":
+            kind, inout, mut = ("slice",), True, True
+        elif ty in ("&[u8]", "&str"):
+            kind = ("slice",)
+        elif ty in ("&CVBytes", "&CVWords") or re.fullmatch(r"&\[u8; (KEY_LEN|OUT_LEN|BLOCK_LEN|\d+)\]", ty):
+            kind = ("arr",)
+        elif ty in ("u8", "u32", "u64", "usize"):
+            kind = ("int", TYPES[ty])
+        elif ty == "Platform":
+            kind = ("platform",)
         else:
-            self.declare(v, kind, mut)
-        self.params.append((v, kind, mode or False))
+            raise self.err(f"parameter type {ty!r}")
+        self.declare(v, kind, mut)
+        self.params.append((v, kind, inout))
 
     def ret_kind(self, r):
-        if r == "":
-            return None
-        if not r.startswith("->"):
-            raise self.err(f"result type {r!r}")
-        ty = " ".join(r[2:].replace("crate::", "").split())
-        if ty in ("&mut Self", "&mut " + (self.struct or "?")):
-            if self.selfmode != "mut":
-                raise self.err("-> &mut Self without &mut self")
-            return None
-        m = re.fullmatch(r"std::io::Result\s*<\s*(\w+)\s*>", ty)
-        if m:
-            if m.group(1) not in _X_UNSIGNED:
-                raise self.err(f"result type {r!r}")
-            return ("ioresult", ("int", _X_UNSIGNED[m.group(1)]))
-        kind, mode = self.type_kind(ty)
-        if mode is not None or ty.startswith("&"):
-            raise self.err(f"result type {r!r}")
-        return kind
+        if r in ("-> [u8; BLOCK_LEN]", "-> [u8; OUT_LEN]"):
+            return ("arr",)
+        return LFn.ret_kind(self, r)
 
-    # ---- Panic codes ----
-    def next_code(self, msg=None):
-        if self.code_i >= len(self.codes):
-            raise self.err("more assertion macros than Panic codes in the table")
-        c = self.codes[self.code_i]
-        self.code_i += 1
-        if isinstance(c, tuple):
-            want = c[1]
-            got = None if msg is None else msg[1:-1]
-            if want != got:
-                raise self.err(f"assertion message {got!r}, the table has {want!r} for Panic code {c[0]}")
-            return c[0]
-        if msg is not None:
-            raise self.err(f"assertion message {msg!r} is not in the table")
-        return c
+    def result_type(self):
+        parts = ([("struct", self.struct)] if self.selfmode == "mut" else []) + [k for _, k, io in self.params if io] \
+            + ([self.ret] if self.ret is not None else [])
+        return " * ".join(self.ctx.coq_type(k) for k in parts)
 
-    def check(self, cond, code, note=None):
-        if note in ("[a..]", "[..b]", "copy_from_slice", "array_ref!") and self.slice_codes is not None:
-            if self.slice_i >= len(self.slice_codes):
-                raise self.err("more slice checks than codes in the table")
-            code = self.slice_codes[self.slice_i]
-            self.slice_i += 1
-        LFn.check(self, cond, code, note)
+    # ---- tables ----
+    def site(self, kind):
+        if self.site_i >= len(self.sites):
+            raise self.err(f"more slice / split / push sites than entries in the table (next: {kind})")
+        k, code = self.sites[self.site_i]
+        if k != kind:
+            raise self.err(f"site {self.site_i + 1} is a {kind!r}, the table expects {k!r}")
+        self.site_i += 1
+        return code
 
-    # ---- kinds ----
-    def var_kind(self, ast):
-        if ast[0] == "var":
-            e = self.env.get(ast[1])
-            if e:
-                return e["kind"]
-        return None
+    def use_ext(self, name):
+        if name not in self.exts:
+            self.exts.append(name)
 
-    def path(self, ast):
-        if ast[0] == "var" and ast[1] in self.env:
-            e = self.env[ast[1]]
-            if e["uninit"]:
-                raise self.err(f"{ast[1]} is read before it is assigned")
-            return ast[1], [], ast[1], e["kind"]
-        return LFn.path(self, ast)
+    def use_sig(self, sig):
+        for x in sig["exts"]:
+            if x != "@SELF@" and x not in self.exts:
+                self.exts.append(x)
+        if sig["fuel"]:
+            self.fuel = True
 
-    def is_signed(self, ast):
-        k = ast[0]
-        if k == "scast":
+    def check_generics(self, gens):
+        if gens not in ("join::SerialJoin",) + ((self.generic,) if self.generic else ()):
+            raise self.err(f"type argument {gens!r} is neither join::SerialJoin nor the function's own Join parameter")
+
+    @staticmethod
+    def mentions(node, names):
+        if isinstance(node, tuple) and len(node) == 2 and node[0] == "var" and node[1] in names:
             return True
-        if k == "var":
-            return (self.var_kind(ast) or ("",))[0] == "sint" or ast[1] in ("i64::MAX", "i128::MAX")
-        if k == "bin" and ast[1] in ("+", "-", "*"):
-            return self.is_signed(ast[2]) or self.is_signed(ast[3])
-        if k == "call" and ast[1] == "cmp::min":
-            return any(self.is_signed(a) for a in ast[2])
+        if isinstance(node, (tuple, list)):
+            return any(WFn.mentions(x, names) for x in node)
         return False
 
-    def swidth(self, ast):
-        k = ast[0]
-        if k == "scast":
-            return ast[1]
-        if k == "var":
-            if ast[1] == "i64::MAX":
-                return 64
-            if ast[1] == "i128::MAX":
-                return 128
-            kd = self.var_kind(ast)
-            return kd[1] if kd and kd[0] == "sint" else None
-        if k == "bin":
-            return self.swidth(ast[2]) or self.swidth(ast[3])
-        if k == "call" and ast[1] == "cmp::min":
-            for a in ast[2]:
-                if self.swidth(a):
-                    return self.swidth(a)
-        return None
+    @staticmethod
+    def mentions_call(node, fname):
+        if isinstance(node, tuple) and len(node) >= 2 and node[0] in ("call", "gcall") and node[1] == fname:
+            return True
+        if isinstance(node, (tuple, list)):
+            return any(WFn.mentions_call(x, fname) for x in node)
+        return False
 
-    def zexpr(self, ast, w):
-        """pure term of type Z for a signed expression of width w; checked operations are bound first"""
+    @staticmethod
+    def has_return(node):
+        if isinstance(node, tuple) and len(node) == 2 and node[0] == "return":
+            return True
+        if isinstance(node, (tuple, list)):
+            return any(WFn.has_return(x) for x in node)
+        return False
+
+    # ---- paths ----
+    def path(self, ast):
+        if ast[0] == "var" and ast[1] in self.lent:
+            raise self.err(f"{ast[1]} is used while split_at_mut borrows it")
+        return LFn.path(self, ast)
+
+    def kind_of(self, ast):
+        """kind of an expression from its head, without emitting anything; ('int', None) when nothing else applies"""
         k = ast[0]
-        if k == "num":
-            return f"{ast[1]}%Z"
-        if k == "var" and ast[1] in ("i64::MAX", "i128::MAX"):
-            if self.swidth(ast) != w:
-                raise self.err(f"{ast[1]} at width {w}")
-            return f"(zi_max {w})"
-        if k == "var":
-            if self.var_kind(ast) != ("sint", w):
-                raise self.err(f"{ast!r} is not an i{w}")
-            return self.path(ast)[2]
-        if k == "scast":
-            if ast[1] != w:
-                raise self.err(f"{ast!r} where an i{w} is expected")
-            inner = ast[2]
-            if self.is_signed(inner):
-                w2 = self.swidth(inner)
-                if w2 is None or w2 > w:
-                    raise self.err(f"narrowing signed cast {ast!r}")
-                return self.zexpr(inner, w2)
-            s = self.subst(inner)
-            w2 = width_of(s, {})
-            if w2 is None or w2 >= w:
-                raise self.err(f"cast {ast!r}: the unsigned operand must be narrower than the signed type")
-            return f"(Z.of_N {self.int_atom(inner, w2)})"
-        if k == "bin" and ast[1] in ("+", "-", "*"):
-            a = self.zexpr(ast[2], w)
-            b = self.zexpr(ast[3], w)
-            t = self.fresh()
-            self.bind(t, f"zi_{ {'+': 'add', '-': 'sub', '*': 'mul'}[ast[1]]} {w} {a} {b}")
-            return t
-        if k == "call" and ast[1] == "cmp::min" and len(ast[2]) == 2:
-            return f"(Z.min {self.zexpr(ast[2][0], w)} {self.zexpr(ast[2][1], w)})"
-        raise self.err(f"cannot translate the signed expression {ast!r}")
+        if k in ("var", "field"):
+            p = self.path(ast)
+            if p:
+                return p[3]
+            if k == "var" and ast[1] in self.ctx.arr_consts:
+                return ("arr",)
+        if ast == ("call", "Platform::detect", []):
+            return ("platform",)
+        if k in ("call", "gcall") and ast[1] in self.ctx.fns:
+            return self.ctx.fns[ast[1]]["ret"]
+        if k in ("meth", "gmeth"):
+            rk = self.kind_of(ast[1])
+            if rk and rk[0] == "struct":
+                sig = self.ctx.methods.get((rk[1], ast[2]))
+                if sig:
+                    return ("struct", rk[1]) if sig["ret"] is None and sig["self"] == "mut" else sig["ret"]
+            if rk == ("chunks",) and ast[2] == "remainder":
+                return ("arr",)
+        if k == "struct":
+            return ("struct", ast[1])
+        if k == "ref":
+            ik = self.kind_of(ast[2])
+            return ik if ik and ik[0] in ("vec", "struct") else ("arr",)
+        if k in ("deref", "repeat", "index", "tfield") or (k == "macro" and ast[1] in ("array_ref", "array_mut_ref")):
+            return ("arr",)
+        return ("int", None)
+
+    def method_sig(self, ast):
+        if ast[0] != "meth":
+            return None
+        p = self.path(ast[1])
+        if p is None and (self.kind_of(ast[1]) or ("",))[0] == "struct":
+            term, st = self.struct_(ast[1])                  # a call as the receiver: evaluated first
+            p = (None, [], term, ("struct", st))
+        if p is None or p[3][0] != "struct":
+            return None
+        sig = self.ctx.methods.get((p[3][1], ast[2]))
+        if sig is None:
+            raise self.err(f"call of {p[3][1]}::{ast[2]}, which is neither translated nor a declared external")
+        return sig, p[2]
 
     def len_term(self, ast):
         p = self.path(ast)
-        if p and p[3] == ("mslice",):
-            return f"(ms_len {p[2]})"
-        return LFn.len_term(self, ast)
+        if p is not None and p[3][0] in ("cvstack", "vec"):
+            return f"(av_len {p[2]})"
+        return f"(N.of_nat (length {self.arr(ast)}))"
 
-    def method_sig(self, ast):
-        if ast[0] == "meth":
-            p = self.path(ast[1])
-            if p and p[3][0] == "enum":
-                sig = self.ctx.methods.get((p[3][1], ast[2]))
-                if sig is None:
-                    raise self.err(f"call of {p[3][1]}::{ast[2]}, which is not translated")
-                return sig, p[2]
-        return LFn.method_sig(self, ast)
-
+    # ---- integer expressions ----
     def subst(self, ast):
         k = ast[0]
-        if k == "call" and ast[1] in ("u64::max_value", "u64::MAX") and not ast[2]:
-            return ("coq", str((1 << 64) - 1), 64)
-        if k == "var" and ast[1] == "u64::MAX":
-            return ("coq", str((1 << 64) - 1), 64)
-        if k == "cast" and self.is_signed(ast[2]):
-            w = self.swidth(ast[2])
+        if k == "var" and ast[1] in self.ctx.ext_consts and ast[1] not in self.env:
+            name, kind = self.ctx.ext_consts[ast[1]]
+            if kind[0] != "int":
+                raise self.err(f"{ast[1]} is not an integer")
+            self.use_ext(name)
+            return ("coq", "ext_" + name, kind[1])
+        if k == "meth" and ast[2] == "simd_degree" and not ast[3]:
+            p = self.path(ast[1])
+            if p and p[3] == ("platform",):
+                return ("coq", f"(p_degree {p[2]})", 64)
+        if k == "call" and ast[1] == "cmp::max" and len(ast[2]) == 2:
+            a, b = self.subst(ast[2][0]), self.subst(ast[2][1])
+            w = width_of(a, {}) or width_of(b, {})
             if w is None:
-                raise self.err(f"width of {ast[2]!r}")
-            return ("coq", f"(zi_as_u {ast[1]} {self.zexpr(ast[2], w)})", ast[1])
-        if k == "meth" and ast[2] not in ("len",) and ast[2] not in METHS:
-            ms = self.method_sig(ast)
-            if ms and ms[0]["ret"] and ms[0]["ret"][0] == "int" and ms[0]["self"] == "ref" and not ms[0]["params"] and not ast[3]:
-                sig, recv = ms
-                self.use_sig(sig)
-                if sig["exts"] or sig["fuel"]:
-                    raise self.err(f"integer method {ast[2]} with externals")
-                return ("coqres" if sig["res"] else "coq", f"({sig['coq']} {recv})", sig["ret"][1])
+                raise self.err(f"cannot infer the width of {ast!r}")
+            return ("coqres", f"(mb (mi_max {w}) {emit(a, {}, {}, self.name, w)} {emit(b, {}, {}, self.name, w)})", w)
+        if k in ("call", "gcall") and ast[1] in self.ctx.fns and (self.ctx.fns[ast[1]]["ret"] or ("",))[0] == "int":
+            sig = self.ctx.fns[ast[1]]
+            if k == "gcall":
+                self.check_generics(ast[2])
+            t = self.call_any(sig, None, ast[2] if k == "call" else ast[3])
+            return ("coq", t, sig["ret"][1])
         return LFn.subst(self, ast)
 
+    def atom_of(self, s, want, what):
+        """the integer expression s (already through subst) as a term of type N"""
+        w = width_of(s, {})
+        if w is not None and want is not None and w != want:
+            raise self.err(f"{what!r} has width {w}, expected {want}")
+        if s[0] == "num":
+            if want is not None and s[1] >= (1 << want):
+                raise self.err(f"literal {s[1]} does not fit {want} bits")
+            return str(s[1])
+        if s[0] == "coq":
+            return s[1]
+        v = self.fresh()
+        self.bind(v, emit(s, {}, {}, self.name, want))
+        return v
+
+    def int_atom(self, ast, want):
+        return self.atom_of(self.subst(ast), want, ast)
+
     def cond(self, ast):
-        self.monadic = True
-        if ast[0] == "bin" and ast[1] in ("==", "!=", "<", "<=", ">", ">=") and (self.is_signed(ast[2]) or self.is_signed(ast[3])):
-            w = self.swidth(ast[2]) or self.swidth(ast[3])
-            a, b = self.zexpr(ast[2], w), self.zexpr(ast[3], w)
-            op = ast[1]
-            if op in (">", ">="):
-                a, b, op = b, a, {">": "<", ">=": "<="}[op]
-            if op == "!=":
-                return f"(Ok (negb (Z.eqb {a} {b})))"
-            return f"(Ok ({ {'==': 'Z.eqb', '<': 'Z.ltb', '<=': 'Z.leb'}[op]} {a} {b}))"
-        if ast[0] == "var" and self.var_kind(ast) == ("bool",):
-            return f"(Ok {ast[1]})"
+        if ast[0] == "bin" and ast[1] == "&&":
+            return f"(a <- {self.cond(ast[2])} ;; if (a : bool) then {self.cond(ast[3])} else Ok false)"
         return LFn.cond(self, ast)
 
-    # ---- values ----
-    def is_detect(self, ast):
-        return ast[0] == "call" and not ast[2] and (ast[1] == "Platform::detect" or ast[1].endswith("::Platform::detect"))
-
+    # ---- array valued expressions ----
     def arr(self, ast):
         k = ast[0]
-        if k == "var" and ast[1] in self.ctx.aconsts and ast[1] not in self.env:
-            return self.ctx.aconsts[ast[1]]
-        if k == "deref" and ast[1][0] == "var" and ast[1][1] in self.ctx.aconsts and ast[1][1] not in self.env:
-            return self.ctx.aconsts[ast[1][1]]
+        if k == "ref":
+            return self.arr(ast[2])
         if k == "deref":
             return self.arr(ast[1])
-        if k == "meth" and ast[2] in ("as_bytes", "into") and not ast[3] and self.kind_of(ast[1]) in (("arr",), ("slice",)):
-            return self.arr(ast[1])                          # Hash / [u8; 32] / &str conversions: the same bytes
-        if k == "tfield" and ast[2] == 0 and self.kind_of(ast[1]) == ("arr",):
-            return self.arr(ast[1])                          # Hash(bytes).0
-        if k == "call" and ast[1] in self.ctx.fns and self.ctx.fns[ast[1]]["ret"] == ("arr",):
-            if len(ast) == 4 and ast[3] != self.ctx.fns[ast[1]].get("generics"):
-                raise self.err(f"generic arguments {ast[3]!r} of {ast[1]}")
-            t, res = self.call(self.ctx.fns[ast[1]], None, ast[2])
-            return self.value_of(t, res)
+        if k == "tfield" and ast[2] == 0:
+            return self.arr(ast[1])                         # Hash(bytes).0
+        if k == "var" and ast[1] in self.ctx.arr_consts and ast[1] not in self.env:
+            return self.ctx.arr_consts[ast[1]]
+        if k in ("var", "field"):
+            p = self.path(ast)
+            if p and p[3][0] in ("arr", "slice"):
+                return p[2]
         if k == "index" and ast[2][0] == "range":
+            base = self.named(self.arr(ast[1]))
+            lo, hi = ast[2][1], ast[2][2]
+            ln = f"(N.of_nat (length {base}))"
+            if lo is None and hi is not None:
+                b = self.int_atom(hi, 64)
+                self.check(f"({b} <=? {ln})", self.site("to"), "[..b]")
+                return f"(firstn (N.to_nat {b}) {base})"
+            if lo is not None and hi is None:
+                a = self.int_atom(lo, 64)
+                self.check(f"({a} <=? {ln})", self.site("from"), "[a..]")
+                return f"(skipn (N.to_nat {a}) {base})"
+        if k == "macro" and ast[1] == "array_ref" and len(ast[2]) == 3:
+            base = self.named(self.arr(ast[2][0]))
+            off, n = self.int_atom(ast[2][1], 64), self.int_atom(ast[2][2], 64)
+            self.check(f"({off} + {n} <=? N.of_nat (length {base}))", self.site("array_ref"), "array_ref!")
+            return f"(arr_slice {base} (N.to_nat {off}) (N.to_nat {n}))"
+        if k == "repeat" and ast[1] == ("num", 0):
+            return f"(repeat 0 (N.to_nat {self.int_atom(ast[2], 64)}))"
+        if k == "meth" and ast[2] == "remainder" and not ast[3]:
             p = self.path(ast[1])
-            if p and p[3] == ("mslice",):
-                raise self.err(f"a sub-slice of the output buffer {ast[1]!r} as a value")
+            if p and p[3] == ("chunks",):
+                return f"(snd {p[2]})"
+        if k in ("call", "gcall") and ast[1] in self.ctx.fns and self.ctx.fns[ast[1]]["ret"] == ("arr",):
+            if k == "gcall":
+                self.check_generics(ast[2])
+            return self.call_any(self.ctx.fns[ast[1]], None, ast[2] if k == "call" else ast[3])
+        if k == "index" and ast[2][0] != "range":
+            p = self.path(ast[1])
+            if p and p[3] == ("cvstack",):
+                i = self.int_atom(ast[2], 64)
+                v = self.fresh()
+                self.bind(v, f"av_index {p[2]} {i}")
+                return v
         if k == "meth":
             ms = self.method_sig(ast)
             if ms and ms[0]["ret"] == ("arr",):
                 term, res = self.call(ms[0], ms[1], ast[3])
                 return self.value_of(term, res)
-        return LFn.arr(self, ast)
+        raise self.err(f"cannot translate the array expression {ast!r}")
 
     def struct_(self, ast, want=None):
         k = ast[0]
-        if k == "struct" and ast[1] == "Self":
-            if not self.struct:
-                raise self.err("Self outside an impl")
-            ast = ("struct", self.struct, ast[2])
-        if k == "call" and ast[1] in ("Self", self.struct) and self.newtype and len(ast[2]) == 1:
-            return self.struct_(ast[2][0], want)            # the newtype constructor
-        if k == "call" and len(ast) == 4:
-            sig = self.ctx.fns.get(ast[1])
-            if sig is None or ast[3] != sig.get("generics"):
-                raise self.err(f"generic call {ast[1]}::<{ast[3]!r}>")
-            ast = ast[:3]
-        elif k == "call" and self.ctx.fns.get(ast[1], {}).get("generics"):
-            raise self.err(f"call of {ast[1]} without its generic arguments")
-        return LFn.struct_(self, ast, want)
+        if k == "gcall" and ast[1] in self.ctx.fns and (self.ctx.fns[ast[1]]["ret"] or ("",))[0] == "struct":
+            self.check_generics(ast[2])
+            sig = self.ctx.fns[ast[1]]
+            term, s = self.call_any(sig, None, ast[3]), sig["ret"][1]
+        elif k == "meth" and (self.kind_of(ast[1]) or ("",))[0] == "struct" \
+                and self.ctx.methods.get((self.kind_of(ast[1])[1], ast[2]), {}).get("self") == "mut":
+            # t.m(args) with `&mut self` on a temporary, returning &mut Self: the updated value
+            sig = self.ctx.methods[(self.kind_of(ast[1])[1], ast[2])]
+            if sig["ret"] is not None or self.path(ast[1]) is not None or any(io for _, _, io in sig["params"]):
+                raise self.err(f"`&mut self` method {ast[2]} inside an expression")
+            recv, s = self.struct_(ast[1])
+            recv = self.named(recv)
+            if len(ast[3]) != len(sig["params"]):
+                raise self.err(f"call of {sig['coq']}: arguments")
+            terms = [self.value(a, kd) for a, (_, kd, _) in zip(ast[3], sig["params"])]
+            self.use_sig(sig)
+            term = self.fresh()
+            if sig["res"]:
+                self.bind(term, self.call_term(sig, recv, terms))
+            else:
+                self.let(term, self.call_term(sig, recv, terms))
+        else:
+            return LFn.struct_(self, ast, want)
+        if want is not None and s != want:
+            raise self.err(f"{ast!r} is a {s}, expected {want}")
+        return term, s
 
     def value(self, ast, kind):
-        if kind[0] == "platform" and self.is_detect(ast):
-            self.detect = True
-            return "detected_platform"
-        if kind[0] == "sint":
-            return self.zexpr(ast, kind[1])
-        if kind[0] == "bool":
-            if self.var_kind(ast) == ("bool",):
-                return ast[1]
-            raise self.err(f"cannot translate {ast!r} as a bool")
-        if kind[0] == "enum":
-            p = self.path(ast)
-            if p and p[3] == kind:
+        if kind[0] == "vec":
+            e = ast[2] if ast[0] == "ref" and not ast[1] else ast
+            p = self.path(e)
+            if p and p[3][0] == "vec":
                 return p[2]
-            raise self.err(f"cannot translate {ast!r} as a {kind!r}")
-        if kind[0] == "ext":
-            raise self.err(f"value of the abstract type {kind[1]}")
-        return LFn.value(self, ast, kind)
-
-    def kind_of(self, ast):
-        k = ast[0]
-        if k == "var" and ast[1] in self.ctx.aconsts and ast[1] not in self.env:
-            return ("arr",)
-        if self.is_signed(ast):
-            return ("sint", self.swidth(ast))
-        if k == "call":
-            if self.is_detect(ast):
-                return ("platform",)
-            if ast[1] in ("Self", self.struct) and self.newtype:
-                return self.self_kind
-            if ast[1] in self.ctx.fns:
-                return self.ctx.fns[ast[1]]["ret"]
-        if k == "struct" and ast[1] == "Self":
-            return self.self_kind
-        if k == "meth":
-            if ast[2] in ("as_bytes", "into") and not ast[3]:
-                return self.kind_of(ast[1])
-            p = self.path(ast[1])
-            if p and p[3][0] in ("struct", "enum") and (p[3][1], ast[2]) in self.ctx.methods:
-                return self.ctx.methods[(p[3][1], ast[2])]["ret"]
-            if p is None and ast[1][0] in ("meth", "call"):
-                kd = self.kind_of(ast[1])
-                if kd and kd[0] == "struct" and (kd[1], ast[2]) in self.ctx.methods:
-                    return self.ctx.methods[(kd[1], ast[2])]["ret"]
-        if k == "tfield":
-            return self.kind_of(ast[1])
-        if k == "match":
-            for _, body in ast[2]:
-                if body[0] == "value":
-                    return self.kind_of(body[1])
-            raise self.err("match without a value arm")
-        if k == "deref":
-            return self.kind_of(ast[1])
-        return LFn.kind_of(self, ast)
+        if kind[0] == "bool":
+            if ast[0] == "var" and ast[1] in self.ctx.bool_consts:
+                return self.ctx.bool_consts[ast[1]]
+        if kind[0] == "platform" and ast == ("call", "Platform::detect", []):
+            name, k = self.ctx.ext_consts["Platform::detect"]
+            self.use_ext(name)
+            return "ext_" + name
+        if kind[0] not in ("vec", "bool"):
+            return LFn.value(self, ast, kind)
+        raise self.err(f"cannot translate {ast!r} as a {kind!r}")
 
     # ---- calls ----
     def call_term(self, sig, recv, terms):
         head = [sig["coq"]]
         if not sig.get("external"):
-            for x in sig["exts"]:
-                head.append(self.ctx.bound.get(x, "ext_" + x))
-            if sig["fuel"]:
-                head.append("fuel")
-        t = " ".join(head + ([recv] if recv is not None else []) + terms)
-        if sig.get("detect"):
-            self.detect = True
-            t += " detected_platform"
-        return t
+            head += ["@SELFEXTS@" if x == "@SELF@" else "ext_" + x for x in sig["exts"]] + (["fuel"] if sig["fuel"] else [])
+        return " ".join(head + ([recv] if recv is not None else []) + terms)
 
-    def use_sig(self, sig):
-        for x in sig["exts"]:
-            if x not in self.exts and x not in self.ctx.bound:
-                self.exts.append(x)
-        if sig["fuel"]:
-            self.fuel = True
+    def inout_var(self, a, kind):
+        v = None
+        if a[0] == "var" and self.env.get(a[1], {}).get("kind") == ("slice",):
+            v = a[1]
+        elif a[0] == "ref" and a[1] and a[2][0] == "var" and self.env.get(a[2][1], {}).get("kind") == ("arr",):
+            v = a[2][1]
+        if v is None or not self.env[v]["mut"] or v in self.lent or kind != ("slice",):
+            raise self.err(f"argument {a!r} for a `&mut [u8]` parameter")
+        return v
 
-    def call(self, sig, recv, args):
-        if len(args) != len(sig["params"]):
-            raise self.err(f"call of {sig['coq']}: {len(args)} arguments for {len(sig['params'])} parameters")
-        if any(io for _, _, io in sig["params"]) or sig["self"] == "mut":
-            raise self.err(f"call of {sig['coq']} inside an expression writes through its arguments")
+    def call_any(self, sig, recv, args):
+        """a call in statement / initialiser position: `&mut [u8]` arguments are rebound; -> the term of the returned
+        value (None when there is none)"""
+        if len(args) != len(sig["params"]) or sig["self"] == "mut":
+            raise self.err(f"call of {sig['coq']}: arguments")
         self.use_sig(sig)
-        terms = [self.value(a, k) for a, (_, k, _) in zip(args, sig["params"])]
-        return self.call_term(sig, recv, terms), sig["res"]
-
-    def call_stmt(self, sig, args, recv_path=None):
-        """recv.m(args) with a `&mut self` receiver, as a statement; recv_path = (root, fields, term)"""
-        if sig["self"] != "mut" or sig["ret"] is not None:
-            raise self.err(f"call of {sig['coq']} as a statement")
-        if len(args) != len(sig["params"]):
-            raise self.err(f"call of {sig['coq']}: {len(args)} arguments for {len(sig['params'])} parameters")
-        self.use_sig(sig)
-        root, fs, rterm = recv_path or ("self", [], "self")
-        rv = root if not fs else self.fresh()
-        terms, outs, after = [], [rv], []
+        terms, outs = [], []
         for a, (_, k, io) in zip(args, sig["params"]):
-            if io == "buffer":
-                # a `&mut [u8]` argument passed on: the callee sees the bytes the slice covers and returns their new contents
-                if not (a[0] == "var" and self.var_kind(a) == ("mslice",)):
-                    raise self.err(f"call of {sig['coq']}: argument {a!r} for a &mut [u8] parameter")
-                t = self.fresh()
-                terms.append(f"(ms_win {a[1]})")
-                outs.append(t)
-                after.append((a[1], f"ms_set_win {a[1]} {t}"))
-            elif io:
-                if not (a[0] == "ref" and a[1] and a[2][0] == "var" and self.env.get(a[2][1], {}).get("kind") == k
-                        and self.env[a[2][1]]["mut"] and self.env[a[2][1]].get("rebind", True)):
-                    raise self.err(f"call of {sig['coq']}: argument {a!r} for a &mut parameter")
-                terms.append(self.path(a[2])[2])
-                outs.append(a[2][1])
+            if io:
+                v = self.inout_var(a, k)
+                terms.append(v)
+                outs.append(v)
             else:
                 terms.append(self.value(a, k))
-        pat = outs[0] if len(outs) == 1 else "'(" + ", ".join(outs) + ")"
-        term = self.call_term(sig, rterm, terms)
+        term = self.call_term(sig, recv, terms)
+        ret = sig["ret"]
+        if not outs:
+            if ret is None:
+                raise self.err(f"call of {sig['coq']} has no effect")
+            if sig["res"]:
+                t = self.fresh()
+                self.bind(t, term)
+                return t
+            return f"({term})"
+        pats, t = list(outs), None
+        if ret is not None:
+            t = self.fresh()
+            pats.append(t)
+        pat = pats[0] if len(pats) == 1 else "'(" + ", ".join(pats) + ")"
         if sig["res"]:
             self.bind(pat, term)
         else:
             self.let(pat, term)
-        if fs:
-            self.set_path(root, fs, rv)
-        else:
-            self.assigned(root)
-        for v in outs[1:]:
-            if v in self.env:
-                self.assigned(v)
-        for v, t in after:
-            self.let(v, t)
+        for v in outs:
             self.assigned(v)
+        return t
 
     # ---- statements ----
-    def place(self, ast):
-        p = self.path(ast) if ast[0] in ("var", "field") else None
-        if p and p[3] == ("mslice",) and not p[1]:
-            return p[0], [], p[2], None, f"(ms_len {p[2]})"
-        if p and p[3] == ("arr",) and not p[1] and self.env[p[0]]["mut"]:
-            return p[0], [], p[2], None, f"(N.of_nat (length {p[2]}))"
-        return LFn.place(self, ast)
+    def run_stmts(self, stmts, top=False):
+        saved = self.rest
+        for i, s in enumerate(stmts):
+            self.rest = stmts[i + 1:]
+            self.stmt(s, top)
+            self.after(s)
+        self.rest = saved
+
+    def after(self, s):
+        for a, (l, r, last) in list(self.lent.items()):
+            if last is s:
+                del self.lent[a]
+                self.let(a, f"({l} ++ {r})")
+                self.assigned(a)
+                del self.env[l], self.env[r]
+
+    def sub_block(self, stmts, tail_ok=False):
+        saved_lines, saved_frame, outer = self.lines, self.frame, list(self.env)
+        self.lines, self.frame = [], set()
+        self.run_stmts(stmts)
+        lines, frame = self.lines, self.frame
+        for v in list(self.env):
+            if v not in outer:
+                if any(v in (l, r) for l, r, _ in self.lent.values()):
+                    raise self.err(f"{v} goes out of scope while it borrows")
+                del self.env[v]
+        self.lines, self.frame = saved_lines, saved_frame
+        return lines, [v for v in outer if v in frame]
 
     def stmt(self, s, top):
-        if s[0] == "let" and s[4] is not None:
-            _, mut, v, ty, init = s
-            want = None
-            if ty is not None:
-                want = self.type_kind(ty)[0]
-                s = ("let", mut, v, None, init)
-            if init[0] == "match":
-                if not top:
-                    raise self.err("let .. = match inside a block")
-                kind = want or self.kind_of(init)
-                self.match_let(v, kind, init)
-                return self.declare(v, kind, mut)
-            kind = self.kind_of(init)
-            if want is not None and kind != want:
-                raise self.err(f"let {v}: {ty} = {init!r}: the initialiser is a {kind!r}")
-            if kind and kind[0] in ("sint", "bool", "enum"):
-                self.let(v, self.value(init, kind))
-                return self.declare(v, kind, mut)
+        k = s[0]
+        if k == "let":
+            return self.let_stmt(s)
+        if k == "lettuple":
+            return self.lettuple(s)
+        if k == "for":
+            return self.for_stmt(s)
+        if k == "iflet":
+            return self.iflet(s)
+        if k == "if" and self.has_return(s):
+            if not top:
+                raise self.err("return inside a nested block")
+            self.flag_if(s)
+            self.lines.append("match early with Some r => Ok r | None =>")
+            self.closers.insert(0, "end")
+            return None
         return LFn.stmt(self, s, top)
+
+    def let_stmt(self, s):
+        _, mut, v, ty, init = s
+        if init is None or ty is not None:
+            return LFn.stmt(self, s, False)
+        if init[0] == "meth" and init[2] == "unwrap":
+            return LFn.stmt(self, s, False)
+        if init[0] == "meth" and init[2] == "chunks_exact" and len(init[3]) == 1:
+            base = self.arr(init[1])
+            n = self.int_atom(init[3][0], 64)
+            self.let(v, f"sl_chunks_exact {n} {base}")
+            return self.declare(v, ("chunks",), mut)
+        if init[0] == "gcall" and init[1] == "ArrayVec::new" and not init[3]:
+            m = re.fullmatch(r"& \[ u8 ; (\w+) \] , (\w+)", init[2])
+            if not m:
+                raise self.err(f"ArrayVec::<{init[2]}>::new()")
+            self.int_atom(("var", m.group(1)), 64)                      # the element length is a known constant
+            cap = self.int_atom(("var", m.group(2)), 64)
+            self.let(v, "[]")
+            return self.declare(v, ("vec", cap), mut)
+        if init[0] == "ifexpr":
+            return self.let_ifexpr(v, mut, init)
+        kind = self.kind_of(init)
+        if kind is None:
+            raise self.err(f"let {v} = {init!r}: no value")
+        if kind[0] == "int":
+            sx = self.subst(init)
+            w = width_of(sx, {})
+            if w is None:
+                raise self.err(f"cannot infer the type of {v}")
+            if sx[0] == "coq":
+                self.let(v, sx[1])
+            else:
+                self.bind(v, emit(sx, {}, {}, self.name, w))
+            return self.declare(v, ("int", w), mut)
+        if kind[0] == "platform":
+            self.let(v, self.value(init, kind))
+            return self.declare(v, kind, mut)
+        self.let(v, self.value(init, kind))
+        return self.declare(v, ("arr",) if kind[0] == "slice" and init[0] != "var" else kind, mut)
+
+    def let_ifexpr(self, v, mut, init):
+        """let v = if c { ..; a } else { b };  (an integer)"""
+        _, c, th, el = init
+        t = self.fresh()
+        self.bind(t, self.cond(c))
+        arms = []
+        for stmts, tail in (th, el):
+            if tail is None:
+                raise self.err("if expression: arm without a value")
+            saved_lines, saved_frame, outer = self.lines, self.frame, list(self.env)
+            self.lines, self.frame = [], set()
+            self.run_stmts(stmts)
+            sx = self.subst(tail)
+            arms.append([self.lines, sx, width_of(sx, {})])
+            if self.frame:
+                raise self.err("if expression: an arm assigns outer variables")
+            for x in list(self.env):
+                if x not in outer:
+                    del self.env[x]
+            self.lines, self.frame = saved_lines, saved_frame
+        w = arms[0][2] or arms[1][2]
+        if w is None or any(a[2] not in (None, w) for a in arms):
+            raise self.err(f"if expression: widths {[a[2] for a in arms]!r}")
+        for a in arms:
+            saved_lines, self.lines = self.lines, a[0]
+            a[0].append(f"Ok {self.atom_of(a[1], w, init)}")
+            self.lines = saved_lines
+        self.lines.append(f"{v} <- (if ({t} : bool) then")
+        self.lines += ["    " + l for l in arms[0][0]] + ["  else"] + ["    " + l for l in arms[1][0][:-1]] \
+            + ["    " + arms[1][0][-1] + ") ;;"]
+        return self.declare(v, ("int", w), mut)
+
+    def lettuple(self, s):
+        _, names, init = s
+        if len(names) != 2:
+            raise self.err(f"tuple pattern {names!r}")
+        a, b = names
+        if init[0] == "meth" and init[2] in ("split_at", "split_at_mut") and len(init[3]) == 1:
+            mutable = init[2] == "split_at_mut"
+            k = self.int_atom(init[3][0], 64)
+            if mutable:
+                p = self.path(init[1])
+                if not p or p[1] or p[3] != ("arr",) or not self.env[p[0]]["mut"]:
+                    raise self.err(f"split_at_mut on {init[1]!r}")
+                base = p[2]
+            else:
+                base = self.named(self.arr(init[1]))
+            self.check(f"({k} <=? N.of_nat (length {base}))", self.site(init[2]), init[2])
+            self.let(a, f"(firstn (N.to_nat {k}) {base})")
+            self.let(b, f"(skipn (N.to_nat {k}) {base})")
+            self.declare(a, ("slice",), mutable)
+            self.declare(b, ("slice",), mutable)
+            if mutable:
+                last = None
+                for st in self.rest:
+                    if self.mentions(st, (a, b)):
+                        last = st
+                self.lent[p[0]] = (a, b, last if last is not None else s)
+            return None
+        if init[0] == "call" and self.generic and init[1] == self.generic + "::join" and len(init[2]) == 2 \
+                and all(x[0] == "closure" for x in init[2]):
+            for v, (_, e) in zip(names, init[2]):
+                if e[0] not in ("call", "gcall") or e[1] not in self.ctx.fns or \
+                        (self.ctx.fns[e[1]]["ret"] or ("",))[0] != "int":
+                    raise self.err(f"join closure {e!r}")
+                sx = self.subst(e)
+                self.let(v, sx[1])
+                self.declare(v, ("int", sx[2]), False)
+            return None
+        raise self.err(f"let {names!r} = {init!r}")
+
+    def for_stmt(self, s):
+        _, var, it, (body, tail) = s
+        if tail is not None:
+            raise self.err("loop body with a value")
+        if not (it[0] == "ref" and it[1] and it[2][0] == "var" and self.env.get(it[2][1], {}).get("kind") == ("chunks",)):
+            raise self.err(f"for over {it!r}")
+        itv = it[2][1]
+        if "items" in self.env or var == "items":
+            raise self.err("the name `items` is taken")
+        scope = [(v, self.ctx.coq_type(e["kind"])) for v, e in self.env.items() if v != itv]
+        order = list(self.env)
+        hidden = self.env.pop(itv)                              # the body cannot reach the iterator it is driven by
+        self.declare(var, ("arr",), False)
+        fuel_before, self.fuel = self.fuel, False
+        body_lines, vs = self.sub_block(body)
+        if self.fuel:
+            raise self.err("a call that needs fuel inside a for loop")
+        self.fuel = fuel_before
+        del self.env[var]
+        self.env = {k: (hidden if k == itv else self.env[k]) for k in order}
+        if not vs:
+            raise self.err("loop body assigns nothing")
+        self.nfor += 1
+        fname = f"{self.name}_for{self.nfor}"
+        rty = " * ".join(self.ctx.coq_type(self.env[v]["kind"]) for v in vs)
+        args = " ".join(v for v, _ in scope)
+        text = (f"Fixpoint {fname} @EXTS@(items : list (list N)) " + " ".join(f"({v} : {ty})" for v, ty in scope)
+                + f" {{struct items}}\n  : res ({rty}) :=\n  match items with\n  | [] => Ok {self.tuple_of(vs)}\n"
+                + f"  | {var} :: items =>\n" + "".join("      " + l + "\n" for l in body_lines)
+                + f"      {fname} @EXTARGS@items {args}\n  end.\n")
+        self.loops.append(text)
+        self.bind(self.pat_of(vs), f"{fname} @EXTARGS@(fst {itv}) {args}")
+        for v in vs:
+            self.assigned(v)
+
+    def iflet(self, s):
+        _, ctor, var, e, (body, tail) = s
+        if ctor != "Some" or tail is not None or e[0] != "call" or e[1] not in self.ctx.fns \
+                or (self.ctx.fns[e[1]]["ret"] or ("",))[0] != "option":
+            raise self.err(f"if let {ctor}({var}) = {e!r}")
+        sig = self.ctx.fns[e[1]]
+        t = self.call_any(sig, None, e[2])
+        self.declare(var, ("int", sig["ret"][1]), False)
+        lines, vs = self.sub_block(body)
+        del self.env[var]
+        ret = f"Ok {self.tuple_of(vs)}"
+        self.lines.append(f"{self.pat_of(vs)} <- (match {t} with")
+        self.lines.append(f"  | Some {var} =>")
+        self.lines += ["      " + l for l in lines] + ["      " + ret, f"  | None => {ret}", "  end) ;;"]
+        for v in vs:
+            self.frame.add(v)
+
+    def flag_if(self, s):
+        """an `if` / `else` one of whose arms ends in `return e` (directly, or through such an `if` in its last
+        position): binds the outer variables the arms assign and `early : option <result>`"""
+        _, c, (th, th_tail), el = s
+        if th_tail is not None or (el is not None and el[1] is not None):
+            raise self.err("if with a return: arms with values")
+        t = self.fresh()
+        self.bind(t, self.cond(c))
+        before = {v: e["uninit"] for v, e in self.env.items()}
+        la, va, ea = self.flag_arm(th)
+        for v, u in before.items():
+            self.env[v]["uninit"] = u
+        lb, vb, eb = self.flag_arm(el[0] if el is not None else [])
+        vs = [v for v in self.env if v in va or v in vb]
+        for v in vs:
+            self.env[v]["uninit"] = False
+            self.frame.add(v)
+        self.lines.append(f"{self.pat_of(vs + ['early'])} <- (if ({t} : bool) then")
+        self.lines += ["    " + l for l in la] + ["    Ok " + self.tuple_of(vs + [ea]), "  else"]
+        self.lines += ["    " + l for l in lb] + ["    Ok " + self.tuple_of(vs + [eb]) + ") ;;"]
+
+    def flag_arm(self, stmts):
+        saved_lines, saved_frame, outer = self.lines, self.frame, list(self.env)
+        self.lines, self.frame = [], set()
+        early = f"(None : option ({self.result_type()}))"
+        if stmts and stmts[-1][0] == "return":
+            self.run_stmts(stmts[:-1])
+            early = f"(Some {self.result(stmts[-1][1])})"
+        elif stmts and stmts[-1][0] == "if" and self.has_return(stmts[-1]):
+            self.run_stmts(stmts[:-1])
+            self.flag_if(stmts[-1])
+            early = "early"
+        else:
+            self.run_stmts(stmts)
+        lines, frame = self.lines, self.frame
+        for v in list(self.env):
+            if v not in outer:
+                del self.env[v]
+        self.lines, self.frame = saved_lines, saved_frame
+        return lines, [v for v in outer if v in frame], early
+
+    def place(self, ast):
+        """a sub-slice of a mutable array / slice variable or field -> (root, fields, base term, offset or None, length)"""
+        if ast[0] == "index" and ast[2][0] == "range":
+            root, fs, base, off, ln = self.place(ast[1])
+            lo, hi = ast[2][1], ast[2][2]
+            if lo is not None and hi is None:
+                a = self.int_atom(lo, 64)
+                self.check(f"({a} <=? {ln})", self.site("from"), "[a..]")
+                return root, fs, base, a if off is None else f"({off} + {a})", f"({ln} - {a})"
+            if lo is None and hi is not None:
+                b = self.int_atom(hi, 64)
+                self.check(f"({b} <=? {ln})", self.site("to"), "[..b]")
+                return root, fs, base, off, b
+            raise self.err(f"range {ast!r}")
+        p = self.path(ast)
+        if p and p[3][0] in ("arr", "slice") and self.env[p[0]]["mut"]:
+            return p[0], p[1], p[2], None, f"(N.of_nat (length {p[2]}))"
+        raise self.err(f"not a mutable array place: {ast!r}")
 
     def assign(self, s):
         _, op, lhs, rhs = s
-        target = lhs[1] if lhs[0] == "deref" else lhs
-        if target[0] == "var" and self.var_kind(target) == ("mslice",) and op == "=":
-            v = target[1]
-            e = self.env[v]
-            cursor = any(x == v and io == "cursor" for x, _, io in self.params)
-            if (lhs[0] == "deref") != cursor or not e.get("rebind"):
-                raise self.err(f"assignment to the slice {lhs!r}")
-            # buf = &mut buf[a..]   /   *buf = &mut core::mem::take(buf)[a..]
-            if not (rhs[0] == "ref" and rhs[1] and rhs[2][0] == "index" and rhs[2][2][0] == "range"
-                    and rhs[2][2][1] is not None and rhs[2][2][2] is None):
-                raise self.err(f"assignment to the slice {v}: {rhs!r}")
-            base = rhs[2][1]
-            if cursor:
-                if base != ("call", "core::mem::take", [("var", v)]):
-                    raise self.err(f"assignment to the slice {v}: {rhs!r}")
-            elif base != ("var", v):
-                raise self.err(f"assignment to the slice {v}: {rhs!r}")
-            a = self.int_atom(rhs[2][2][1], 64)
-            self.check(f"({a} <=? (ms_len {v}))", _L_SLICE_FROM, "[a..]")
-            self.let(v, f"ms_advance {v} (N.to_nat {a})")
-            return self.assigned(v)
+        if lhs[0] == "deref" and lhs[1][0] == "macro" and lhs[1][1] == "array_mut_ref" and op == "=" and len(lhs[1][2]) == 3:
+            val = self.named(self.arr(rhs))                         # the right operand is evaluated first
+            p = self.path(lhs[1][2][0])
+            if not p or p[3][0] not in ("arr", "slice") or not self.env[p[0]]["mut"]:
+                raise self.err(f"array_mut_ref! on {lhs[1][2][0]!r}")
+            off, n = self.int_atom(lhs[1][2][1], 64), self.int_atom(lhs[1][2][2], 64)
+            self.check(f"({off} + {n} <=? N.of_nat (length {p[2]}))", self.site("array_mut_ref"), "array_mut_ref!")
+            return self.set_path(p[0], p[1], f"(arr_store {p[2]} (N.to_nat {off}) {val})")
+        p = self.path(lhs) if lhs[0] in ("var", "field") else None
+        if p is not None and p[3][0] == "int" and not (lhs[0] == "var" and self.env[lhs[1]]["uninit"]):
+            root, fs, cur, kind = p
+            if not self.env[root]["mut"]:
+                raise self.err(f"assignment to {root}, which is not mutable")
+            if op == "=":
+                val = self.atom_of(self.subst(rhs), kind[1], rhs)
+            else:
+                sx = self.subst(rhs)
+                w = width_of(sx, {})
+                if w is not None and w != kind[1]:
+                    raise self.err(f"{lhs!r} {op} {rhs!r}: operand widths")
+                val = self.fresh()
+                self.bind(val, emit(("bin", op[0], ("coq", cur, kind[1]), sx), {}, {}, self.name, kind[1]))
+            return self.set_path(root, fs, val)
         return LFn.assign(self, s)
 
     def expr_stmt(self, e):
-        if e[0] == "macro" and e[1] in ("debug_assert", "debug_assert_eq", "assert_eq", "assert", "assert_ne"):
-            args = [a for a in e[2]]
-            msg = None
-            if args and args[-1][0] == "str":
-                msg = args.pop()[1]
-            code = self.next_code(msg)
-            if e[1].endswith("_eq") and len(args) == 2:
-                c = self.cond(("bin", "==", args[0], args[1]))
-            elif e[1].endswith("_ne") and len(args) == 2:
-                c = self.cond(("bin", "!=", args[0], args[1]))
-            elif not (e[1].endswith("_eq") or e[1].endswith("_ne")) and len(args) == 1:
-                c = self.cond(args[0])
-            else:
+        if e[0] == "macro" and e[1] in ("debug_assert", "debug_assert_eq", "assert_eq", "assert"):
+            n = 2 if e[1].endswith("_eq") else 1
+            args = list(e[2])
+            if len(args) > n and args[n][0] == "str":
+                args = args[:n]                              # the panic message and its format arguments
+            code = self.next_code()
+            if len(args) != n:
                 raise self.err(f"{e[1]}! with {len(args)} arguments")
+            c = self.cond(("bin", "==", args[0], args[1])) if n == 2 else self.cond(args[0])
             t = self.fresh()
             self.bind(t, c)
-            return LFn.check(self, t, code, e[1] + "!")
+            return self.check(t, code, e[1] + "!")
         if e[0] == "meth":
             recv, m, args = e[1], e[2], e[3]
             if m == "copy_from_slice" and len(args) == 1:
                 root, fs, base, off, ln = self.place(recv)
                 src = self.named(self.arr(args[0]))
-                self.check(f"(N.of_nat (length {src}) =? {ln})", _L_COPY_LEN, "copy_from_slice")
-                if self.env[root]["kind"] == ("mslice",):
-                    self.let(root, f"ms_write {root} (N.to_nat {off or '0'}) {src}")
-                    return self.assigned(root)
+                self.check(f"(N.of_nat (length {src}) =? {ln})", self.site("copy"), "copy_from_slice")
                 return self.set_path(root, fs, f"(arr_store {base} (N.to_nat {off or '0'}) {src})")
             p = self.path(recv)
-            if p and p[3] == ("platform",) and m == "xof_many":
-                return self.xof_many(p, args)
-            if p and p[3][0] == "struct" and (p[3][1], m) in self.ctx.methods:
+            if p and p[3][0] == "vec" and m == "push" and len(args) == 1 and not p[1]:
+                x = self.arr(args[0])
+                t = self.fresh()
+                self.bind(t, f"at_code {self.site('push')} (av_push {p[3][1]} {p[2]} {x})")
+                return self.set_path(p[0], p[1], t)
+            if p and p[3] == ("platform",) and m == "hash_many":
+                sig = self.ctx.fns["Platform::hash_many"]
+                self.call_any(sig, None, [recv] + args)
+                return None
+            if p and p[3][0] == "struct" and not (p[0] == "self" and not p[1]) and (p[3][1], m) in self.ctx.methods:
+                # self.field.m(args) / local.m(args) with `&mut self`
                 sig = self.ctx.methods[(p[3][1], m)]
-                if sig["self"] == "mut" and self.env[p[0]]["mut"]:
-                    return self.call_stmt(sig, args, (p[0], p[1], p[2]))
+                if sig["self"] != "mut" or sig["ret"] is not None or any(io for _, _, io in sig["params"]) \
+                        or len(args) != len(sig["params"]):
+                    raise self.err(f"call of {sig['coq']} as a statement")
+                self.use_sig(sig)
+                terms = [self.value(a, k) for a, (_, k, _) in zip(args, sig["params"])]
+                t = self.fresh()
+                if sig["res"]:
+                    self.bind(t, self.call_term(sig, p[2], terms))
+                else:
+                    self.let(t, self.call_term(sig, p[2], terms))
+                return self.set_path(p[0], p[1], t)
         return LFn.expr_stmt(self, e)
 
-    def xof_many(self, p, args):
-        f = self.ctx.platform_methods.get("xof_many")
-        if f is None or len(args) != 6:
-            raise self.err("platform call xof_many")
-        terms = [self.value(a, ("arr",)) for a in args[:2]]
-        terms += [self.int_atom(a, w) for a, w in zip(args[2:5], (8, 64, 8))]
-        out = args[5]
-        # &mut buf[..n]
-        if not (out[0] == "ref" and out[1] and out[2][0] == "index" and out[2][2][0] == "range"
-                and out[2][2][1] is None and out[2][2][2] is not None and self.var_kind(out[2][1]) == ("mslice",)):
-            raise self.err(f"xof_many: destination {out!r}")
-        v = out[2][1][1]
-        n = self.int_atom(out[2][2][2], 64)
-        self.check(f"({n} <=? (ms_len {v}))", _L_SLICE_TO, "[..b]")
-        if "xof_many" not in self.exts:
-            self.exts.append("xof_many")
-        t = self.fresh()
-        self.bind(t, " ".join(["ext_xof_many", p[2]] + terms + [f"(firstn (N.to_nat {n}) (ms_win {v}))"]))
-        self.let(v, f"ms_write {v} 0%nat {t}")
-        self.assigned(v)
-
-    # ---- match ----
-    def match_arms(self, ast):
-        """-> (scrutinee term, [(Gallina pattern, binder, binder kind, body)])"""
-        _, scrut, arms = ast
-        p = self.path(scrut)
-        if not p or p[3][0] != "enum":
-            raise self.err(f"match on {scrut!r}")
-        en = self.ctx.enums[p[3][1]]
-        variants = dict(en["variants"])
-        seen, out = [], []
-        for (path, binder, payload), body in arms:
-            path = self.strip_crate(path)
-            if "::" not in path:
-                raise self.err(f"pattern {path!r}")
-            pre, v = path.rsplit("::", 1)
-            if pre not in (en["name"], en.get("path")) or v not in variants or v in seen:
-                raise self.err(f"pattern {path!r} of enum {en['name']}")
-            if payload != (variants[v] is not None):
-                raise self.err(f"pattern {path!r}: payload")
-            seen.append(v)
-            out.append((f"{en['coq']}_{v}" + (f" {binder or '_'}" if payload else ""), binder, variants[v], body))
-        if set(seen) != set(variants):
-            raise self.err(f"match on {en['name']} does not list every variant")
-        return p[2], out
-
-    def arm_scope(self, binder, kind):
-        saved = (self.lines, self.frame, list(self.env))
-        self.lines, self.frame = [], set()
-        if binder is not None:
-            self.declare(binder, kind, False)
-        return saved
-
-    def arm_close(self, saved):
-        lines, frame = self.lines, self.frame
-        self.lines, self.frame = saved[0], saved[1]
-        for v in list(self.env):
-            if v not in saved[2]:
-                del self.env[v]
-        if frame:
-            raise self.err(f"a match arm assigns {sorted(frame)}")
-        return lines
-
-    def match_value(self, ast, kind):
-        """a match whose arms are all values -> a term of the kind (bound first when an arm needs a bind)"""
-        scrut, arms = self.match_arms(ast)
-        done = []
-        for pat, binder, bk, body in arms:
-            if body[0] != "value":
-                raise self.err("a block arm in a value match")
-            saved = self.arm_scope(binder, bk)
-            v = self.value(body[1], kind)
-            done.append((pat, self.arm_close(saved), v))
-        if all(not ls for _, ls, _ in done):
-            return "match " + scrut + " with " + " ".join(f"| {pat} => {v}" for pat, _, v in done) + " end"
-        t = self.fresh()
-        self.monadic = True
-        self.lines.append(f"{t} <- match {scrut} with")
-        for pat, ls, v in done:
-            self.lines.append(f"  | {pat} =>")
-            self.lines += ["      " + l for l in ls] + [f"      Ok {v}"]
-        self.lines.append("  end ;;")
-        return t
-
-    def match_let(self, v, kind, ast):
-        """let v = match .. { .. => value, .. => { ..; return r; } }: the rest of the function is the inl continuation"""
-        scrut, arms = self.match_arms(ast)
-        if all(body[0] == "value" for _, _, _, body in arms):
-            return self.let(v, self.match_value(ast, kind))
-        t = self.fresh()
-        self.monadic = True
-        self.lines.append(f"{t} <- match {scrut} with")
-        for pat, binder, bk, body in arms:
-            saved = self.arm_scope(binder, bk)
-            if body[0] == "value":
-                val = self.value(body[1], kind)
-                fin = f"Ok (inl {val})"
-            else:
-                stmts, tail = body[1]
-                if tail is not None or not stmts or stmts[-1][0] != "return":
-                    raise self.err("a block arm must end in return")
-                for s in stmts[:-1]:
-                    self.stmt(s, False)
-                fin = f"Ok (inr {self.result(stmts[-1][1])})"
-            ls = self.arm_close(saved)
-            self.lines.append(f"  | {pat} =>")
-            self.lines += ["      " + l for l in ls] + ["      " + fin]
-        self.lines.append("  end ;;")
-        self.lines.append(f"match {t} with")
-        self.lines.append("| inr r => Ok r")
-        self.lines.append(f"| inl {v} =>")
-        self.closers.append("end")
-
-    # ---- results ----
-    def io_result(self, tail):
-        if tail[0] == "call" and tail[1] == "Ok" and len(tail[2]) == 1:
-            k = self.ret[1]
-            s = self.subst(tail[2][0])
-            if s[0] in ("num", "coq"):
-                v = self.int_atom(tail[2][0], k[1])
-            else:
-                v = self.fresh()
-                self.bind(v, emit(s, {}, {}, self.name, k[1]))
-            return f"(IoOk {v})"
-        if tail[0] == "call" and tail[1] == "Err" and len(tail[2]) == 1:
-            e = tail[2][0]
-            if e[0] == "call" and e[1] == "std::io::Error::new" and len(e[2]) == 2 and e[2][0][0] == "var" \
-                    and e[2][0][1].startswith("std::io::ErrorKind::") and e[2][1][0] == "str":
-                kind = e[2][0][1].rsplit("::", 1)[1]
-                return f"(IoErr {_x_ascii(kind)} (* ErrorKind::{kind}, {e[2][1][1]} *))"
-        raise self.err(f"result expression {tail!r}")
-
+    # ---- the function ----
     def result(self, tail):
-        parts = (["self"] if self.selfmode == "mut" else [])
-        for v, _, io in self.params:
-            if io:
-                if self.env[v]["uninit"]:
-                    raise self.err(f"{v} is not initialised at the end")
-                parts.append(f"(ms_buffer {v})" if io == "buffer" else v)
+        ret_term = None
         if self.ret is None:
-            if tail is not None and not (tail == ("var", "self") and self.selfmode == "mut"):
+            if tail is not None and tail[0] == "gmeth" and tail[1] == ("var", "self") and self.selfmode == "mut" \
+                    and (self.struct, tail[2]) in self.ctx.methods:
+                self.check_generics(tail[3])
+                self.call_stmt(self.ctx.methods[(self.struct, tail[2])], tail[4])
+            elif tail is not None and not (tail == ("var", "self") and self.selfmode == "mut"):
                 raise self.err(f"result expression {tail!r}")
         else:
             if tail is None:
                 raise self.err("no result expression")
-            if self.ret[0] == "ioresult":
-                parts.append(self.io_result(tail))
-            elif tail[0] == "match":
-                parts.append("(" + self.match_value(tail, self.ret) + ")")
-            elif self.ret[0] == "int":
-                s = self.subst(tail)
-                if s[0] in ("num", "coq"):
-                    parts.append(self.int_atom(tail, self.ret[1]))
-                else:
-                    v = self.fresh()
-                    self.bind(v, emit(s, {}, {}, self.name, self.ret[1]))
-                    parts.append(v)
+            if self.ret[0] == "int":
+                ret_term = self.atom_of(self.subst(tail), self.ret[1], tail)
+            elif self.ret[0] == "ext":
+                if not (tail[0] == "call" and tail[1] in self.ctx.fns and self.ctx.fns[tail[1]]["ret"] == self.ret):
+                    raise self.err(f"result expression {tail!r}")
+                t, res = self.call(self.ctx.fns[tail[1]], None, tail[2])
+                ret_term = self.value_of(t, res)
             else:
-                parts.append(self.value(tail, self.ret))
+                ret_term = self.value(tail, self.ret)
+        parts = (["self"] if self.selfmode == "mut" else []) + [v for v, _, io in self.params if io]
+        for v in parts:
+            if self.env[v]["uninit"] or v in self.lent:
+                raise self.err(f"{v} is not available at the end")
+        parts += [ret_term] if ret_term is not None else []
         if not parts:
             raise self.err("neither a result nor a written parameter")
         return self.tuple_of(parts)
 
-    def tail_if(self, s):
-        """if c { a } else { b } as the value of the function -> a variable holding it"""
-        _, c, (th, th_tail), el = s
-        if el is None or th_tail is None or el[1] is None:
-            raise self.err("the final if has no value in one of its arms")
-        t = self.fresh()
-        self.bind(t, self.cond(c))
-        arms = []
-        for stmts, tl in ((th, th_tail), el):
-            saved = self.arm_scope(None, None)
-            for st in stmts:
-                self.stmt(st, False)
-            v = self.value(tl, self.ret)
-            arms.append((self.arm_close(saved), v))
-        r = self.fresh()
-        self.lines.append(f"{r} <- (if ({t} : bool) then")
-        self.lines += ["    " + l for l in arms[0][0]] + [f"    Ok {arms[0][1]}", "  else"]
-        self.lines += ["    " + l for l in arms[1][0]] + [f"    Ok {arms[1][1]}) ;;"]
-        self.env[r] = {"kind": self.ret, "mut": False, "uninit": False}
-        return ("var", r)
+    def finish(self, tail):
+        if tail is not None and tail[0] == "ifexpr":
+            _, c, th, el = tail
+            t = self.fresh()
+            self.bind(t, self.cond(c))
+            self.lines.append(f"if ({t} : bool) then (")
+            self.arm(th)
+            self.lines.append(") else (")
+            self.arm(el)
+            self.lines.append(")")
+        else:
+            r = self.result(tail)
+            self.lines.append(f"Ok {r}")
+
+    def arm(self, block, ret=None):
+        """a block that ends the function: its statements, then the result"""
+        stmts, tail = block
+        saved_lines, outer = self.lines, list(self.env)
+        snap = ({v: e["uninit"] for v, e in self.env.items()}, dict(self.lent))
+        self.lines = []
+        self.run_stmts(stmts)
+        self.finish(tail if ret is None else ret)
+        lines, self.lines = self.lines, saved_lines
+        for v in list(self.env):
+            if v not in outer:
+                del self.env[v]
+        for v, u in snap[0].items():
+            self.env[v]["uninit"] = u
+        self.lent = snap[1]
+        self.lines += ["    " + l for l in lines]
+
+    def open_fuel(self):
+        self.lines += ["match fuel with", "| O => OutOfFuel", "| S fuel =>"]
+        self.closers.insert(0, "end")
+        self.fuel = True
 
     def translate(self):
         ctx = self.ctx
         stmts, tail = self.block
-        for v, k, io in self.params:
-            if io == "buffer":
-                self.prologue.append(f"let {v} := ms_of {v} in")
-        if tail is None and self.ret is not None and stmts and stmts[-1][0] == "if":
-            last, stmts = stmts[-1], stmts[:-1]
-        else:
-            last = None
+        sig0 = {"coq": self.name, "self": self.selfmode, "struct": self.struct, "params": self.params, "ret": self.ret,
+                "res": True, "exts": ["@SELF@"], "fuel": True}
+        if self.recursive:
+            if self.struct:
+                raise self.err("recursive method")
+            ctx.fns[self.key] = sig0
+        opened = False
+        saved_rest = self.rest
         for i, s in enumerate(stmts):
-            if s[0] == "if" and s[3] is None and s[2][1] is None and s[2][0] and s[2][0][-1][0] == "return":
+            self.rest = stmts[i + 1:]
+            early = s[0] == "if" and s[3] is None and s[2][1] is None and s[2][0] and s[2][0][-1][0] == "return"
+            if self.recursive and not opened and not early:
+                self.open_fuel()
+                opened = True
+            if early:
+                # if c { ..; return e; }  -> the rest of the function is the else arm
                 t = self.fresh()
                 self.bind(t, self.cond(s[1]))
-                lines, vs = self.sub_block(s[2][0][:-1])
-                if vs:
-                    raise self.err("assignments before an early return")
-                saved = self.lines
-                self.lines = []
-                r = self.result(s[2][0][-1][1])
-                arm = lines + self.lines
-                self.lines = saved
                 self.lines.append(f"if ({t} : bool) then (")
-                self.lines += ["    " + l for l in arm] + [f"    Ok {r})", "else"]
+                self.arm((s[2][0][:-1], None), ret=s[2][0][-1][1])
+                self.lines.append(") else")
             else:
                 self.stmt(s, True)
-        if last is not None:
-            tail = self.tail_if(last)
-        r = self.result(tail)
+                self.after(s)
+        self.rest = saved_rest
+        if self.recursive and not opened:
+            self.open_fuel()
+        self.finish(tail)
         if self.code_i != len(self.codes):
             raise self.err(f"{self.code_i} assertion macros in the body, {len(self.codes)} Panic codes in the table")
-        if self.slice_codes is not None and self.slice_i != len(self.slice_codes):
-            raise self.err(f"{self.slice_i} slice checks in the body, {len(self.slice_codes)} codes in the table")
-        parts = ([self.self_kind] if self.selfmode == "mut" else [])
-        rtys = [ctx.coq_type(k) for k in parts]
-        rtys += ["list N" if io == "buffer" else ctx.coq_type(k) for _, k, io in self.params if io]
-        if self.ret is not None:
-            rtys.append(ctx.coq_type(self.ret))
-        rty = " * ".join(rtys)
-        if self.monadic:
-            rty = f"res ({rty})" if " " in rty else f"res {rty}"
+        if self.site_i != len(self.sites):
+            raise self.err(f"{self.site_i} slice / split / push sites in the body, {len(self.sites)} in the table")
+        if self.lent:
+            raise self.err(f"{sorted(self.lent)} still borrowed at the end")
+        rty = self.result_type()
+        rty = f"res ({rty})" if " " in rty else f"res {rty}"
         self.exts = [x for x in ctx.exts if x in self.exts]              # declaration order
         ext_sig = "".join(f"(ext_{x} : {ctx.exts[x]['type']}) " for x in self.exts)
         tyvars = [ctx.exts[x]["tyvar"] for x in self.exts if ctx.exts[x]["tyvar"]]
@@ -7740,905 +8550,121 @@ class XFn(LFn):
         ext_args = "".join(f"ext_{x} " for x in self.exts)
         sig = ty_sig + ext_sig + ("(fuel : nat) " if self.fuel else "")
         if self.selfmode:
-            sig += f"(self : {ctx.coq_type(self.self_kind)}) "
-        sig += " ".join(f"({v} : {'list N' if io == 'buffer' else ctx.coq_type(k)})" for v, k, io in self.params)
-        if self.detect:
-            sig = (sig.rstrip() + " (detected_platform : platform)").strip()
-        text = "".join(l.replace("@EXTS@", ty_sig + ext_sig).replace("@EXTARGS@", ext_args) + "\n" for l in self.loops)
-        body = "".join("  " + l.replace("@EXTARGS@", ext_args) + "\n" for l in self.prologue + self.lines)
-        closers = "".join("\n  " + c for c in self.closers)
-        text += f"Definition {self.name} {sig.rstrip()}\n  : {rty} :=\n{body}  {'Ok ' if self.monadic else ''}{r}{closers}.\n"
-        self.sig = {"coq": self.name, "self": "ref" if self.selfmode == "val" else self.selfmode, "struct": self.struct,
-                    "params": self.params, "ret": self.ret, "res": self.monadic, "exts": self.exts, "fuel": self.fuel,
-                    "detect": self.detect}
+            sig += f"(self : {ctx.structs[self.struct].coq}) "
+        sig += " ".join(f"({v} : {ctx.coq_type(k)})" for v, k, _ in self.params)
+
+        def fill(l):
+            return l.replace("@EXTS@", ty_sig + ext_sig).replace("@EXTARGS@", ext_args).replace("@SELFEXTS@", ext_args.rstrip())
+        text = "".join(fill(l) + "\n" for l in self.loops)
+        body = "".join("  " + fill(l) + "\n" for l in self.lines + self.closers)
+        kw = "Fixpoint" if self.recursive else "Definition"
+        struct = " {struct fuel}" if self.recursive else ""
+        text += f"{kw} {self.name} {sig.rstrip()}{struct}\n  : {rty} :=\n{body.rstrip()}.\n"
+        self.sig = {"coq": self.name, "self": self.selfmode, "struct": self.struct, "params": self.params, "ret": self.ret,
+                    "res": True, "exts": self.exts, "fuel": self.fuel}
         return text
 
 
-def _x_anchor_sig(text, hdr, want_params, want_ret, what):
-    ptext, rtext = _fn_header(text, hdr, what)
-    got = [" ".join(a.split()) for a in _args(ptext)]
-    if got != want_params or " ".join(rtext.split()) != want_ret:
-        raise AnchorError(f"{what}: signature {got!r} {rtext!r}")
-
-
-_X_HEADER = HEADER.replace("NArith List.", "NArith ZArith List Bool.").replace(
-    "Base.MachInt.", "Base.MachInt Base.Word Base.Arr Base.ArrayVec Base.MutSlice Base.SInt.\n"
-    "From V Require Import gen.GenConsts Model.Platform gen.GenLibSmall gen.GenLibLoops.")
-
-# OutputReader: (function, header, Panic codes of the assertion macros, Panic codes of the slice checks or None).
-# 60 = &output_block[self.position_within_block as usize..] (Model/RsXof.v fill_one_block); the other slice checks of
-# fill_one_block cannot fail (take is a minimum of the two lengths) and the model has none for them.
-# 1500 / 1501 / 1502: the three debug_asserts of fill (Model/RsXof.v reader_fill).
-_XOF_FNS = [("new", r"\bfn\s+new\s*\(", [], None),
-            ("fill_one_block", r"\bfn\s+fill_one_block\s*\(", [], [60, 41, 41, 42, 40]),
-            ("fill", r"\bpub\s+fn\s+fill\s*\(", [1500, 1501, 1502], None),
-            ("position", r"\bpub\s+fn\s+position\s*\(", [], None),
-            ("set_position", r"\bpub\s+fn\s+set_position\s*\(", [], None)]
-
-
-def _xof_build():
-    text0, base, lib = _lib_loops_build()
-    plat = strip_comments(src("src/platform.rs"))
-    ctx = XCtx("lib_", base)
-    out = [_X_HEADER]
-    # Output::root_output_block is GenLibSmall's translation (same run, same text)
-    o_impl = fn_body(lib, r"\bimpl\s+Output\s*\{", "impl Output")
-    _x_anchor_sig(o_impl, r"\bfn\s+root_output_block\s*\(", ["&self"], "-> [u8; 2 * OUT_LEN]", "Output::root_output_block")
-    ctx.methods[("Output", "root_output_block")] = {"coq": "lib_Output_root_output_block", "self": "ref", "struct": "Output",
-                                                    "params": [], "ret": ("arr",), "res": False, "exts": [], "fuel": False}
-    # Platform::xof_many stays a call (explicit parameter ext_xof_many)
-    pimpl = fn_body(plat, r"\bimpl\s+Platform\s*\{", "impl Platform")
-    _x_anchor_sig(pimpl, r"\bpub\s+fn\s+xof_many\s*\(",
-                  ["&self", "cv: &CVWords", "block: &[u8; BLOCK_LEN]", "block_len: u8", "mut counter: u64", "flags: u8",
-                   "out: &mut [u8]"], "", "Platform::xof_many")
-    ctx.platform_methods["xof_many"] = {"coq": "ext_xof_many"}
-    ctx.exts["xof_many"] = {"type": "platform -> list N -> list N -> N -> N -> N -> list N -> res (list N)", "tyvar": None}
-    find1(r"\buse\s+core::cmp\s*;", lib, "lib.rs use core::cmp")
-    ctx.structs["OutputReader"] = RStruct(lib, "OutputReader", "lib_", {}, ctx.structs)
-    ctx.enums["SeekFrom"] = {"name": "SeekFrom", "path": "std::io::SeekFrom", "coq": "lib_SeekFrom", "variants": _X_SEEKFROM}
-    out.append("(* ---- src/lib.rs: struct OutputReader; std::io::SeekFrom (standard library) ---- *)\n")
-    out.append(ctx.structs["OutputReader"].record())
-    out.append(ctx.enum_def("SeekFrom"))
-    out.append("(* ---- record updates for `self.field = e` ---- *)\n")
-    out.append(ctx.setters("Output"))
-    out.append(ctx.setters("OutputReader"))
-    r_impl = fn_body(lib, r"\bimpl\s+OutputReader\s*\{", "impl OutputReader")
-    out.append("(* ---- src/lib.rs: impl OutputReader ---- *)\n")
-    for fname, hdr, codes, scodes in _XOF_FNS:
-        f = XFn(ctx, r_impl, "OutputReader", fname, hdr, codes, slice_codes=scodes)
-        out.append(f.translate())
-        if fname == "new":
-            ctx.fns["OutputReader::new"] = f.sig
-        else:
-            ctx.methods[("OutputReader", fname)] = f.sig
-    out.append("(* ---- src/lib.rs: impl std::io::Read for OutputReader, impl std::io::Seek for OutputReader ---- *)\n")
-    rd_impl = fn_body(lib, r"\bimpl\s+std::io::Read\s+for\s+OutputReader\s*\{", "impl std::io::Read for OutputReader")
-    f = XFn(ctx, rd_impl, "OutputReader", "read", r"\bfn\s+read\s*\(", [], coqname="lib_OutputReader_Read_read")
-    out.append(f.translate())
-    ctx.methods[("OutputReader", "Read::read")] = f.sig
-    sk_impl = fn_body(lib, r"\bimpl\s+std::io::Seek\s+for\s+OutputReader\s*\{", "impl std::io::Seek for OutputReader")
-    f = XFn(ctx, sk_impl, "OutputReader", "seek", r"\bfn\s+seek\s*\(", [], coqname="lib_OutputReader_Seek_seek")
-    out.append(f.translate())
-    ctx.methods[("OutputReader", "Seek::seek")] = f.sig
-    return "\n".join(out), ctx, lib
-
-
-def gen_xof():
-    return _xof_build()[0]
-
-
-# hazmat.rs: (impl / None, function, header, [(Panic code, message)]); the codes are Model/RsHasher.v's for the same
-# asserts (set_input_offset: 23, 24; finalize_non_root: 25)
-_HAZMAT_EXT_FNS = [("new_from_context_key", []),
-                   ("set_input_offset", [(23, "hasher has already accepted input"),
-                                         (24, "offset ({offset}) must be a chunk boundary (divisible by {CHUNK_LEN})")]),
-                   ("finalize_non_root", [(25, "empty subtrees are never valid")])]
-
-
-def _hazmat_build():
-    text0, xctx, lib = _xof_build()
-    hz = strip_comments(src("src/hazmat.rs"))
-    plat = strip_comments(src("src/platform.rs"))
-    ctx = XCtx("hz_", xctx)
-    out = [_X_HEADER.replace("gen.GenLibLoops.", "gen.GenLibLoops gen.GenXof.")]
-    use = find1(r"use\s+crate::\{(.*?)\};", hz, "hazmat.rs use crate::{..}").group(1)
-    used = {x.strip() for x in use.split(",")}
-    for need in ("CHUNK_LEN", "CVWords", "Hasher", "IV", "KEY_LEN", "OUT_LEN"):
-        if need not in used:
-            raise AnchorError(f"hazmat.rs does not import crate::{need}")
-    find1(r"\buse\s+crate::platform::Platform\s*;", hz, "hazmat.rs use crate::platform::Platform")
-    find1(r"\bconst\s+IV\s*:\s*&CVWords\s*=\s*&\[", lib, "lib.rs const IV: &CVWords")
-    find1(r"\bpub\s+type\s+ChainingValue\s*=\s*\[\s*u8\s*;\s*OUT_LEN\s*\]\s*;", hz, "hazmat.rs type ChainingValue = [u8; OUT_LEN]")
-    find1(r"\bpub\s+type\s+ContextKey\s*=\s*\[\s*u8\s*;\s*KEY_LEN\s*\]\s*;", hz, "hazmat.rs type ContextKey = [u8; KEY_LEN]")
-    find1(r"\bpub\s+struct\s+Hash\s*\(\s*\[\s*u8\s*;\s*OUT_LEN\s*\]\s*\)\s*;", lib, "lib.rs struct Hash([u8; OUT_LEN])")
-    ctx.aconsts["IV"] = "rs_IV"
-    for t in ("ChainingValue", "&ChainingValue", "ContextKey", "&ContextKey", "Hash", "&Hash"):
-        ctx.types[t] = ("arr",)
-
-    out.append("(* ---- src/platform.rs: words_from_le_bytes_32 ---- *)\n")
-    f = PFn("rs", "hz_words_from_le_bytes_32", plat, r"\bpub\s+fn\s+words_from_le_bytes_32\s*\(", {}, {})
-    out.append(f.translate())
-    ctx.fns["platform::words_from_le_bytes_32"] = {"coq": "hz_words_from_le_bytes_32", "self": None, "struct": None,
-                                                   "params": [("bytes", ("arr",), False)], "ret": ("arr",), "res": False,
-                                                   "exts": [], "fuel": False}
-    # Hasher::new_internal is GenLibSmall's translation; Platform::detect() is its extra last parameter
-    h_impl = fn_body(lib, r"\bimpl\s+Hasher\s*\{", "impl Hasher")
-    _x_anchor_sig(h_impl, r"\bfn\s+new_internal\s*\(", ["key: &CVWords", "flags: u8"], "-> Self", "Hasher::new_internal")
-    ctx.fns["Hasher::new_internal"] = {"coq": "lib_Hasher_new_internal", "self": None, "struct": None,
-                                       "params": [("key", ("arr",), False), ("flags", ("int", 8), False)],
-                                       "ret": ("struct", "Hasher"), "res": False, "exts": [], "fuel": False, "detect": True}
-    find1(r"\bpub\s+mod\s+platform\s*;", lib, "lib.rs pub mod platform")
-    out.append("(* ---- src/lib.rs: Hasher::new, Hasher::new_keyed, impl Default for Hasher ---- *)\n")
-    for fname in ("new", "new_keyed"):
-        f = XFn(ctx, h_impl, "Hasher", fname, r"\bpub\s+fn\s+" + fname + r"\s*\(", [], coqname="hz_Hasher_" + fname)
-        out.append(f.translate())
-        ctx.fns["Hasher::" + fname] = f.sig
-    d_impl = fn_body(lib, r"\bimpl\s+Default\s+for\s+Hasher\s*\{", "impl Default for Hasher")
-    f = XFn(ctx, d_impl, "Hasher", "default", r"\bfn\s+default\s*\(", [], coqname="hz_Hasher_Default_default")
-    out.append(f.translate())
-    ctx.fns["Hasher::default"] = f.sig
-
-    # OutputReader::new: GenXof's translation stands in for the parameter of Hasher::finalize_xof
-    ctx.bound["OutputReader_new"] = "lib_OutputReader_new"
-    fx = dict(ctx.methods[("Hasher", "finalize_xof")])
-    if fx["ret"] != ("ext", "OutputReader") or "OutputReader_new" not in fx["exts"]:
-        raise AnchorError("Hasher::finalize_xof: shape of the translation in GenLibLoops")
-    fx["ret"] = ("struct", "OutputReader")
-    ctx.methods[("Hasher", "finalize_xof")] = fx
-
-    out.append("(* ---- src/hazmat.rs: impl HasherExt for Hasher ---- *)\n")
-    e_impl = fn_body(hz, r"\bimpl\s+HasherExt\s+for\s+Hasher\s*\{", "impl HasherExt for Hasher")
-    for fname, codes in _HAZMAT_EXT_FNS:
-        f = XFn(ctx, e_impl, "Hasher", fname, r"\bfn\s+" + fname + r"\s*\(", codes, coqname="hz_Hasher_" + fname)
-        out.append(f.translate())
-        if fname == "new_from_context_key":
-            ctx.fns["Hasher::" + fname] = f.sig
-        else:
-            ctx.methods[("Hasher", fname)] = f.sig
-
-    out.append("(* ---- src/hazmat.rs: enum Mode ---- *)\n")
-    ebody = fn_body(hz, r"\bpub\s+enum\s+Mode\s*<\s*'a\s*>\s*\{", "enum Mode")
-    variants = []
-    for item in _args(ebody):
-        item = " ".join(item.split())
-        m = re.fullmatch(r"(%s)(?:\((.*)\))?" % _IDENT, item)
-        if not m:
-            raise AnchorError(f"enum Mode: variant {item!r}")
-        if m.group(2) is None:
-            variants.append((m.group(1), None))
-        else:
-            ty = re.sub(r"&\s*'a\s+", "&", m.group(2))
-            if not (re.fullmatch(r"&\[u8; KEY_LEN\]", ty) or ty == "&ContextKey"):
-                raise AnchorError(f"enum Mode: payload {m.group(2)!r}")
-            variants.append((m.group(1), ("arr",)))
-    ctx.enums["Mode"] = {"name": "Mode", "path": None, "coq": "hz_Mode", "variants": variants}
-    out.append(ctx.enum_def("Mode"))
-    m_impl = fn_body(hz, r"\bimpl\s*<\s*'a\s*>\s*Mode\s*<\s*'a\s*>\s*\{", "impl Mode")
-    for fname in ("key_words", "flags_byte"):
-        f = XFn(ctx, m_impl, "Mode", fname, r"\bfn\s+" + fname + r"\s*\(", [], coqname="hz_Mode_" + fname,
-                self_kind=("enum", "Mode"))
-        out.append(f.translate())
-        ctx.methods[("Mode", fname)] = f.sig
-
-    out.append("(* ---- src/hazmat.rs: merge_subtrees_*, hash_derive_key_context ---- *)\n")
-    _x_anchor_sig(lib, r"\bfn\s+hash_all_at_once\s*<\s*J\s*:\s*join::Join\s*>\s*\(",
-                  ["input: &[u8]", "key: &CVWords", "flags: u8"], "-> Output", "hash_all_at_once")
-    ctx.add_ext("hash_all_at_once", "hash_all_at_once",
-                [("input", ("slice",), False), ("key", ("arr",), False), ("flags", ("int", 8), False)], ("struct", "Output"))
-    ctx.exts["hash_all_at_once"]["type"] = "list N -> list N -> N -> res lib_Output"
-    ctx.fns["hash_all_at_once"]["res"] = True
-    ctx.fns["hash_all_at_once"]["generics"] = ["crate::join::SerialJoin"]
-    find1(r"\bpub\s+enum\s+SerialJoin\s*\{\s*\}", strip_comments(src("src/join.rs")), "join.rs enum SerialJoin")
-    for fname, hdr in (("merge_subtrees_inner", r"\bfn\s+merge_subtrees_inner\s*\("),
-                       ("merge_subtrees_non_root", r"\bpub\s+fn\s+merge_subtrees_non_root\s*\("),
-                       ("merge_subtrees_root", r"\bpub\s+fn\s+merge_subtrees_root\s*\("),
-                       ("merge_subtrees_root_xof", r"\bpub\s+fn\s+merge_subtrees_root_xof\s*\("),
-                       ("hash_derive_key_context", r"\bpub\s+fn\s+hash_derive_key_context\s*\(")):
-        f = XFn(ctx, hz, None, fname, hdr, [], coqname="hz_" + fname)
-        out.append(f.translate())
-        ctx.fns[fname] = f.sig
-        ctx.fns["hazmat::" + fname] = f.sig
-    return "\n".join(out), ctx, lib
-
-
-def gen_hazmat():
-    return _hazmat_build()[0]
-
-
-_TRAIT_FNS = [("digest::Update", "Hasher", "update", "tr_Update_update"),
-              ("digest::Reset", "Hasher", "reset", "tr_Reset_reset"),
-              ("digest::FixedOutput", "Hasher", "finalize_into", "tr_FixedOutput_finalize_into"),
-              ("digest::FixedOutputReset", "Hasher", "finalize_into_reset", "tr_FixedOutputReset_finalize_into_reset"),
-              ("digest::ExtendableOutput", "Hasher", "finalize_xof", "tr_ExtendableOutput_finalize_xof"),
-              ("digest::ExtendableOutputReset", "Hasher", "finalize_xof_reset", "tr_ExtendableOutputReset_finalize_xof_reset"),
-              ("digest::XofReader", "OutputReader", "read", "tr_XofReader_read"),
-              ("digest::KeyInit", "Hasher", "new", "tr_KeyInit_new")]
-_TRAIT_SIZES = [("digest::OutputSizeUser", "OutputSize", "tr_OutputSizeUser_OutputSize"),
-                ("common::KeySizeUser", "KeySize", "tr_KeySizeUser_KeySize"),
-                ("common::BlockSizeUser", "BlockSize", "tr_BlockSizeUser_BlockSize")]
-
-
-def gen_traits():
-    text0, hctx, lib = _hazmat_build()
-    tr = strip_comments(src("src/traits.rs"))
-    gu = strip_comments(src("src/guts.rs"))
-    out = [_X_HEADER.replace("gen.GenLibLoops.", "gen.GenLibLoops gen.GenXof gen.GenHazmat.")]
-    ctx = XCtx("tr_", hctx)
-    find1(r"\buse\s+crate::\{\s*Hasher\s*,\s*OutputReader\s*\}\s*;", tr, "traits.rs use crate::{Hasher, OutputReader}")
-    find1(r"\buse\s+digest::array::\{\s*Array\s*,\s*typenum::U32\s*,\s*typenum::U64\s*\}\s*;", tr,
-          "traits.rs use digest::array::{Array, typenum::U32, typenum::U64}")
-    find1(r"\buse\s+digest::common\s*;", tr, "traits.rs use digest::common")
-
-    out.append("(* ---- src/traits.rs: the associated size types (typenum::U<n> is n) ---- *)\n")
-    sizes = {}
-    for trait, ty, coq in _TRAIT_SIZES:
-        body = fn_body(tr, r"\bimpl\s+" + trait + r"\s+for\s+Hasher\s*\{", f"impl {trait} for Hasher")
-        m = re.fullmatch(r"\s*type\s+" + ty + r"\s*=\s*U(\d+)\s*;\s*", body)
-        if not m:
-            raise AnchorError(f"impl {trait} for Hasher: {body.strip()!r}")
-        sizes[ty] = int(m.group(1))
-        out.append(f"Definition {coq} : N := {m.group(1)}.\n")
-    body = fn_body(tr, r"\bimpl\s+digest::ExtendableOutput\s+for\s+Hasher\s*\{", "impl digest::ExtendableOutput for Hasher")
-    find1(r"\btype\s+Reader\s*=\s*OutputReader\s*;", body, "ExtendableOutput::Reader = OutputReader")
-    # byte arrays of the digest crate: Array<u8, Self::OutputSize> (OutputSize anchored above), digest::Key<Self>
-    ctx.types["&mut Array<u8, Self::OutputSize>"] = ("arr",)
-    ctx.types["&digest::Key<Self>"] = ("arr",)
-    ctx.types["Self::Reader"] = ("struct", "OutputReader")
-
-    # Hasher::update (update_with_join and everything below it) is not translated here: explicit parameter
-    h_impl = fn_body(lib, r"\bimpl\s+Hasher\s*\{", "impl Hasher")
-    _x_anchor_sig(h_impl, r"\bpub\s+fn\s+update\s*\(", ["&mut self", "input: &[u8]"], "-> &mut Self", "Hasher::update")
-    ctx.exts["Hasher_update"] = {"type": "lib_Hasher -> list N -> res lib_Hasher", "tyvar": None}
-    ctx.methods[("Hasher", "update")] = {"coq": "ext_Hasher_update", "self": "mut", "struct": "Hasher",
-                                         "params": [("input", ("slice",), False)], "ret": None, "res": True,
-                                         "exts": ["Hasher_update"], "fuel": False, "external": True}
-    out.append("(* ---- src/traits.rs: the trait methods ---- *)\n")
-    for trait, ty, fname, coq in _TRAIT_FNS:
-        impl = fn_body(tr, r"\bimpl\s+" + trait + r"\s+for\s+" + ty + r"\s*\{", f"impl {trait} for {ty}")
-        f = XFn(ctx, impl, ty, fname, r"\bfn\s+" + fname + r"\s*\(", [], coqname=coq)
-        out.append(f.translate())
-
-    out.append("(* ---- src/guts.rs: struct ChunkState(crate::ChunkState) is its one field ---- *)\n")
-    find1(r"\bpub\s+struct\s+ChunkState\s*\(\s*crate::ChunkState\s*\)\s*;", gu, "guts.rs struct ChunkState(crate::ChunkState)")
-    gctx = XCtx("gu_", ctx)
-    g_impl = fn_body(gu, r"\bimpl\s+ChunkState\s*\{", "guts.rs impl ChunkState")
-    for fname in ("new", "len", "update", "finalize"):
-        f = XFn(gctx, g_impl, "ChunkState", fname, r"\bpub\s+fn\s+" + fname + r"\s*\(", [],
-                coqname="gu_ChunkState_" + fname, newtype=True)
-        out.append(f.translate())
-    f = XFn(gctx, gu, None, "parent_cv", r"\bpub\s+fn\s+parent_cv\s*\(", [], coqname="gu_parent_cv")
-    out.append(f.translate())
-    return "\n".join(out)
-
-
-# ---------------------------------------------------------------------------
-# GenRefImplLoops.v: the REST of reference_impl/reference_impl.rs (what GenRefImpl.v leaves out), statement by statement,
-# with the statement translator of GenLibLoops (LParser / LFn) extended by the shapes this file uses:
-#   Output::root_output_bytes, ChunkState::new / update / output, Hasher::new_internal / new / new_keyed / push_stack /
-#   pop_stack / add_chunk_chaining_value / update / finalize / new_derive_key.
-# Callees translated in GenRefImpl.v (compress, first_8_words, words_from_little_endian_bytes, Output::chaining_value,
-# ChunkState::len / start_flag, parent_output, parent_cv) are called by name, with the signatures RFn recorded for them.
-#   * `[u32; 8]` / `&[u8; KEY_LEN]` / `&[u8]` / `&mut [u8]` / `&str` (its bytes: `.as_bytes()`) are `list N`;
-#     `[[u32; 8]; 54]` is `list (list N)` with Base/Arr2.v: `a[i]` -> `assert! (i <? len) code c ;; arr2_get`, `a[i] = v` ->
-#     the same assert and arr2_set (c: the Panic code Model/RefImpl.v gives the site, table _REF_LOOP_FNS).
-#   * a `&mut self` method returns the new `self` (and its value, if any); a `&mut [u8]` parameter is returned as its new
-#     contents.  `f(self.pop_stack(), ..)`: the call is bound first, `'(self, t) <- ..`, which is only accepted while no
-#     other part of the statement has read `self`.
-#   * `while c { .. }`: as in GenLibLoops, a Fixpoint on explicit fuel (OutOfFuel when the condition holds at fuel 0); a
-#     function passes its own fuel to its loops and to the callees that take one.
-#   * `for b in s.chunks_mut(n) { .. }` (n a positive constant, checked here): a Fixpoint on fuel over the part of `s` not
-#     visited yet: empty -> done; otherwise b := firstn n s, the body, the recursive call on skipn n s, and the result is
-#     the new b followed by the new rest (`s` itself cannot be named in the body).
-#     `for (w, b) in ws.iter().zip(s.chunks_mut(n)) { .. }`: the same by structural recursion on ws (stops when either
-#     runs out).
-#   * `x.to_le_bytes()` (u32) -> bytes_of_word; `a.copy_from_slice(b)` on a whole local slice or on
-#     `self.f[i..][..n]`: the slice checks (codes from the table for a field, 40 / 41 otherwise), the length check
-#     (code 42) and arr_store; `&a[..n]`, `&a[n..]`: codes 41 / 40.  The model leaves out the checks that cannot fail
-#     (`&input[..take]` with take = min(.., input.len())): the equality proofs show they never fire.
-#   * `let mut c = 0;` takes its type from its first use (an argument of a translated callee).
-#   * `self.cv_stack_len -= 1` in pop_stack is `ref_at_site 72 (mi_sub 8 ..)`: the model counts the wrap-around of this
-#     subtraction as the index panic that follows it in a release build (code 72 instead of the overflow code).
-#   * words_from_little_endian_bytes(b, &mut w): `assert! (.._debug_assert b w) code 1600` (its debug_assert_eq!), then
-#     the translated function.
-# Everything else raises AnchorError.
-# ---------------------------------------------------------------------------
-_REF_DEBUG_ASSERT = {"words_from_little_endian_bytes": 1600}
-# (struct, function, sites): place = (code of [a..], code of [..b]) per copy_from_slice into a sub-slice of a field,
-# index = code per `self.cv_stack[i]`, at_site = field -> code of its compound assignment.  In dependency order.
-_REF_LOOP_FNS = [("Output", "root_output_bytes", {}),
-                 ("ChunkState", "new", {}), ("ChunkState", "update", {"place": [(74, 75)]}), ("ChunkState", "output", {}),
-                 ("Hasher", "new_internal", {}), ("Hasher", "new", {}), ("Hasher", "new_keyed", {}),
-                 ("Hasher", "push_stack", {"index": [71]}),
-                 ("Hasher", "pop_stack", {"index": [72], "at_site": {"cv_stack_len": 72}}),
-                 ("Hasher", "add_chunk_chaining_value", {}), ("Hasher", "update", {}),
-                 ("Hasher", "finalize", {"index": [73]}), ("Hasher", "new_derive_key", {})]
-
-
-def _rl_norm(ast, struct):
-    """`Self` is the struct of the impl block"""
-    if isinstance(ast, tuple):
-        if ast and ast[0] == "call" and isinstance(ast[1], str) and ast[1].startswith("Self::"):
-            return ("call", struct + ast[1][4:], _rl_norm(ast[2], struct))
-        if ast and ast[0] == "struct" and ast[1] == "Self":
-            return ("struct", struct, _rl_norm(ast[2], struct))
-        return tuple(_rl_norm(a, struct) for a in ast)
-    if isinstance(ast, list):
-        return [_rl_norm(a, struct) for a in ast]
-    return ast
-
-
-class RLFn(LFn):
-    def __init__(self, ctx, impl_text, struct, fname, header_re, sites):
-        if set(sites) - {"place", "index", "at_site"}:
-            raise AnchorError(f"{struct}::{fname}: site table {sites!r}")
-        self.sites = {"place": list(sites.get("place", [])), "index": list(sites.get("index", [])),
-                      "at_site": dict(sites.get("at_site", {}))}
-        self.used = {"place": 0, "index": 0, "at_site": set()}
-        self.stmt_reads = set()
-        super().__init__(ctx, impl_text, struct, fname, header_re, [])
-
-    def parse_body(self, text):
-        b = LParser(_l_tokens(text, self.name), self.name, set(self.ctx.structs) | {"Self"}, rust_for=True).body()
-        return _rl_norm(b, self.struct)
-
-    # ---- signature ----
-    def param(self, p):
-        m = re.fullmatch(r"(mut )?(%s)\s*:\s*(.+)" % _IDENT, p)
-        if m:
-            mut, v, ty = bool(m.group(1)), m.group(2), m.group(3).strip()
-            kind, inout, elem = None, False, None
-            ma = re.fullmatch(r"&?\s*\[\s*(u8|u32)\s*;\s*(\w+)\s*\]", ty)
-            if ma and (ma.group(2).isdigit() or ma.group(2) in self.ctx.consts):
-                kind, elem = ("arr",), TYPES[ma.group(1)]
-            elif ty == "&mut [u8]":
-                kind, inout, mut, elem = ("slice",), True, True, 8
-            elif ty == "&str":
-                kind = ("str",)
-            if kind:
-                self.declare(v, kind, mut)
-                self.env[v]["elem"] = elem
-                self.params.append((v, kind, inout))
-                return
-        super().param(p)
-
-    def ret_kind(self, r):
-        if r == "-> Self":
-            return ("struct", self.struct)
-        if re.fullmatch(r"-> \[\s*u32\s*;\s*\d+\s*\]", r):
-            return ("arr",)
-        return super().ret_kind(r)
-
-    # ---- reads of a variable inside the current statement (see mut_call) ----
-    def path(self, ast):
-        p = super().path(ast)
-        if p is not None:
-            self.stmt_reads.add(p[0])
-        return p
-
-    def recv_struct(self, ast):
-        """struct of a struct-valued expression, without emitting anything"""
-        k = ast[0]
-        if k in ("var", "field"):
-            saved = set(self.stmt_reads)
-            p = self.path(ast)
-            self.stmt_reads = saved
-            return p[3][1] if p and p[3][0] == "struct" else None
-        sig = None
-        if k == "call":
-            sig = self.ctx.fns.get(ast[1])
-        elif k == "meth":
-            s = self.recv_struct(ast[1])
-            sig = self.ctx.methods.get((s, ast[2])) if s else None
-        if sig and sig["ret"] and sig["ret"][0] == "struct":
-            return sig["ret"][1]
-        return None
-
-    # ---- integer expressions ----
-    def subst(self, ast):
-        k = ast[0]
-        if k == "call" and ast[1] == "min" and len(ast[2]) == 2 and self.ctx.has_min:
-            return ("call", "cmp::min", [self.subst(a) for a in ast[2]])
-        if k == "meth" and not ast[3]:
-            s = self.recv_struct(ast[1])
-            sig = self.ctx.methods.get((s, ast[2])) if s else None
-            if s and sig is None:
-                raise self.err(f"call of {s}::{ast[2]}, which is not translated")
-            if sig:
-                if not (sig["ret"] and sig["ret"][0] == "int" and sig["self"] == "ref" and not sig["params"]) \
-                        or sig["exts"] or sig["fuel"]:
-                    raise self.err(f"integer method {ast[2]}")
-                recv = self.struct_(ast[1])[0]
-                return ("coqres" if sig["res"] else "coq", f"({sig['coq']} {recv})", sig["ret"][1])
-        return super().subst(ast)
-
-    def int_atom(self, ast, want):
-        if ast[0] == "var" and ast[1] in self.env and self.env[ast[1]]["kind"] == ("int", None) and want is not None:
-            self.env[ast[1]]["kind"] = ("int", want)          # `let mut c = 0;` typed by this use
-        return super().int_atom(ast, want)
-
-    def site_wrap(self, lhs, term):
-        if lhs[0] == "field" and lhs[1] == ("var", "self") and lhs[2] in self.sites["at_site"]:
-            if lhs[2] in self.used["at_site"]:
-                raise self.err(f"second compound assignment to self.{lhs[2]}: the table names one site")
-            self.used["at_site"].add(lhs[2])
-            return f"(ref_at_site {self.sites['at_site'][lhs[2]]} {term})"
-        return term
-
-    def next_site(self, what):
-        i = self.used[what]
-        if i >= len(self.sites[what]):
-            raise self.err(f"more {what} sites than Panic codes in _REF_LOOP_FNS")
-        self.used[what] = i + 1
-        return self.sites[what][i]
-
-    # ---- array valued expressions ----
-    def elem_of(self, ast):
-        if ast[0] == "var" and ast[1] in self.env:
-            return self.env[ast[1]].get("elem")
-        return None
-
-    def mut_call(self, ast):
-        """`self.m(args)` with a `&mut self` method that returns a value, inside an expression: bound first"""
-        recv, m, args = ast[1], ast[2], ast[3]
-        if recv != ("var", "self") or self.selfmode != "mut":
-            return None
-        sig = self.ctx.methods.get((self.struct, m))
-        if not sig or sig["self"] != "mut" or sig["ret"] is None:
-            return None
-        if "self" in self.stmt_reads:
-            raise self.err(f"self.{m}() changes self after another part of the statement has read it")
-        if any(io for _, _, io in sig["params"]) or len(args) != len(sig["params"]):
-            raise self.err(f"call of {sig['coq']} inside an expression")
-        self.use_sig(sig)
-        terms = [self.value(a, k) for a, (_, k, _) in zip(args, sig["params"])]
-        t = self.fresh()
-        pat = f"'(self, {t})"
-        if sig["res"]:
-            self.bind(pat, self.call_term(sig, "self", terms))
-        else:
-            self.let(pat, self.call_term(sig, "self", terms))
-        self.assigned("self")
-        return t, sig["ret"]
-
-    def index2(self, ast):
-        """`a[i]` on a [[u32; 8]; N] -> (root, fields, array term, i : N): the bounds assert is emitted here"""
-        p = self.path(ast[1])
-        if not p or p[3] != ("arr2",) or ast[2][0] == "range":
-            return None
-        i = self.int_atom(ast[2], 64)
-        self.check(f"({i} <? N.of_nat (length {p[2]}))", self.next_site("index"), "index")
-        return p[0], p[1], p[2], i
-
-    def arr(self, ast):
-        k = ast[0]
-        if k == "var" and ast[1] not in self.env and ast[1] in self.ctx.arr_consts:
-            return self.ctx.arr_consts[ast[1]]
-        if k == "call" and ast[1] in self.ctx.fns and self.ctx.fns[ast[1]]["ret"] == ("arr",):
-            t, res = self.call(self.ctx.fns[ast[1]], None, ast[2])
-            return self.value_of(t, res)
-        if k == "meth" and ast[2] == "as_bytes" and not ast[3]:
-            p = self.path(ast[1])
-            if p and p[3] == ("str",):
-                return p[2]
-        if k == "meth" and ast[2] == "to_le_bytes" and not ast[3]:
-            s = self.subst(ast[1])
-            if s[0] == "coq" and s[2] == 32:
-                return f"(bytes_of_word {s[1]})"
-        if k == "meth":
-            mc = self.mut_call(ast)
-            if mc and mc[1] == ("arr",):
-                return mc[0]
-        if k == "index" and ast[2][0] != "range":
-            ix = self.index2(ast)
-            if ix:
-                return f"(arr2_get {ix[2]} (N.to_nat {ix[3]}))"
-        if k == "index" and ast[2][0] == "range" and self.path(ast[1]) is None:
-            lo, hi = ast[2][1], ast[2][2]
-            base = self.named(self.arr(ast[1]))
-            ln = f"(N.of_nat (length {base}))"
-            if lo is None and hi is not None:
-                b = self.int_atom(hi, 64)
-                self.check(f"({b} <=? {ln})", _L_SLICE_TO, "[..b]")
-                return f"(firstn (N.to_nat {b}) {base})"
-            if lo is not None and hi is None:
-                a = self.int_atom(lo, 64)
-                self.check(f"({a} <=? {ln})", _L_SLICE_FROM, "[a..]")
-                return f"(skipn (N.to_nat {a}) {base})"
-        return super().arr(ast)
-
-    def arr2(self, ast):
-        if ast[0] in ("var", "field"):
-            p = self.path(ast)
-            if p and p[3] == ("arr2",):
-                return p[2]
-        if ast[0] == "repeat" and ast[1][0] == "repeat" and ast[1][1] == ("num", 0):
-            return (f"(repeat (repeat 0 (N.to_nat {self.int_atom(ast[1][2], 64)})) "
-                    f"(N.to_nat {self.int_atom(ast[2], 64)}))")
-        raise self.err(f"cannot translate the array-of-arrays expression {ast!r}")
-
-    def value(self, ast, kind):
-        if kind == ("arr2",):
-            return self.arr2(ast)
-        return super().value(ast, kind)
-
-    def kind_of(self, ast):
-        k = ast[0]
-        if k == "num":
-            return ("int", None)
-        if k == "var" and ast[1] not in self.env and ast[1] in self.ctx.arr_consts:
-            return ("arr",)
-        if k == "meth":
-            s = self.recv_struct(ast[1])
-            if s:
-                sig = self.ctx.methods.get((s, ast[2]))
-                if sig is None:
-                    raise self.err(f"call of {s}::{ast[2]}, which is not translated")
-                return sig["ret"]
-        if k == "index" and ast[2][0] != "range":
-            return ("arr",)
-        return super().kind_of(ast)
-
-    # ---- statements ----
-    def stmt(self, s, top):
-        self.stmt_reads = set()
-        if s[0] == "for":
-            return self.for_stmt(s)
-        if s[0] == "let" and s[4] is not None and s[3] is None and s[4][0] == "num":
-            _, mut, v, _, init = s                              # typed by its first use
-            self.let(v, str(init[1]))
-            return self.declare(v, ("int", None), mut)
-        r = super().stmt(s, top)
-        if s[0] == "let" and s[4] is not None and s[2] in self.env and self.env[s[2]]["kind"] == ("arr",):
-            init = s[4]
-            if init[0] == "call" and init[1] in self.ctx.fns:
-                self.env[s[2]]["elem"] = self.ctx.fns[init[1]].get("elem")
-        return r
-
-    def assign(self, s):
-        _, op, lhs, rhs = s
-        if lhs[0] == "index" and lhs[2][0] != "range" and op == "=":
-            ix = self.index2(lhs)                                # the place is evaluated first, then the value
-            if ix is None:
-                raise self.err(f"assignment to {lhs!r}")
-            root, fs, cur, i = ix
-            if not self.env[root]["mut"]:
-                raise self.err(f"assignment to {root}, which is not mutable")
-            return self.set_path(root, fs, f"(arr2_set {cur} (N.to_nat {i}) {self.arr(rhs)})")
-        return super().assign(s)
-
-    def place(self, ast, codes=None):
-        if ast[0] == "index" and ast[2][0] == "range":
-            if codes is None:
-                codes = self.next_site("place")
-            root, fs, base, off, ln = self.place(ast[1], codes)
-            lo, hi = ast[2][1], ast[2][2]
-            if lo is not None and hi is None:
-                a = self.int_atom(lo, 64)
-                self.check(f"({a} <=? {ln})", codes[0], "[a..]")
-                return root, fs, base, a if off is None else f"({off} + {a})", f"({ln} - {a})"
-            if lo is None and hi is not None:
-                b = self.int_atom(hi, 64)
-                self.check(f"({b} <=? {ln})", codes[1], "[..b]")
-                return root, fs, base, off, b
-            raise self.err(f"range {ast!r}")
-        p = self.path(ast)
-        if p and p[3] == ("arr",) and p[1] and self.env[p[0]]["mut"]:
-            return p[0], p[1], p[2], None, f"(N.of_nat (length {p[2]}))"
-        if p and p[3] in (("slice",), ("arr",)) and not p[1] and self.env[p[0]]["mut"] and codes is None:
-            return p[0], p[1], p[2], None, f"(N.of_nat (length {p[2]}))"      # a whole local slice
-        raise self.err(f"not a mutable array place: {ast!r}")
-
-    def out_arg(self, a, k):
-        """argument for a `&mut [u8]` parameter: `&mut v` (a local array / slice) or a `&mut [u8]` parameter itself"""
-        if a[0] == "ref" and a[1] and a[2][0] == "var":
-            v = a[2][1]
-        elif a[0] == "var" and any(v == a[1] and io for v, _, io in self.params):
-            v = a[1]
-        else:
-            raise self.err(f"argument {a!r} for a &mut parameter")
-        e = self.env.get(v)
-        if not e or not e["mut"] or e["uninit"] or e["kind"] not in (("arr",), ("slice",)) or k != ("slice",):
-            raise self.err(f"argument {a!r} for a &mut parameter")
-        return v
-
-    def method_stmt(self, p, sig, args):
-        """`recv.m(args);` for a translated method without a value: binds the new receiver (`&mut self`) and the new
-        contents of the `&mut [u8]` arguments"""
-        root, fs, recv, _ = p
-        if sig["ret"] is not None or len(args) != len(sig["params"]):
-            raise self.err(f"call of {sig['coq']} as a statement")
-        if sig["self"] == "mut" and not self.env[root]["mut"]:
-            raise self.err(f"{sig['coq']} on {root}, which is not mutable")
-        self.use_sig(sig)
-        terms, outs = [], []
-        for a, (_, k, io) in zip(args, sig["params"]):
-            if io:
-                v = self.out_arg(a, k)
-                terms.append(v)
-                outs.append(v)
-            else:
-                terms.append(self.value(a, k))
-        rt = None
-        if sig["self"] == "mut":
-            rt = root if not fs else self.fresh()
-            outs = [rt] + outs
-        if not outs:
-            raise self.err(f"call of {sig['coq']} has no effect")
-        pat = outs[0] if len(outs) == 1 else "'(" + ", ".join(outs) + ")"
-        term = self.call_term(sig, recv, terms)
-        if sig["res"]:
-            self.bind(pat, term)
-        else:
-            self.let(pat, term)
-        if sig["self"] == "mut":
-            if fs:
-                self.set_path(root, fs, rt)
-            else:
-                self.assigned(root)
-        for v in outs[1 if sig["self"] == "mut" else 0:]:
-            self.assigned(v)
-
-    def expr_stmt(self, e):
-        if e[0] == "call" and e[1] in self.ctx.fns and isinstance(self.ctx.fns[e[1]]["ret"], tuple) \
-                and self.ctx.fns[e[1]]["ret"][0] == "inplace":
-            # f(&a, &mut w): w := f a w, after the callee's debug_assert_eq!
-            sig, args = self.ctx.fns[e[1]], e[2]
-            mi = sig["ret"][1]
-            if len(args) != 2 or mi != 1 or sig["kinds"] != [("arr",), ("arr",)]:
-                raise self.err(f"call {e!r}")
-            a0 = self.named(self.arr(args[0]))
-            w = args[1]
-            if not (w[0] == "ref" and w[1] and w[2][0] == "var" and self.env.get(w[2][1], {}).get("kind") == ("arr",)
-                    and self.env[w[2][1]]["mut"]):
-                raise self.err(f"call {e!r}: second argument")
-            w = w[2][1]
-            if sig["asserts"]:
-                if e[1] not in _REF_DEBUG_ASSERT:
-                    raise self.err(f"no Panic code for the debug assertion of {e[1]}")
-                self.check(f"({sig['coq']}_debug_assert {a0} {w})", _REF_DEBUG_ASSERT[e[1]], f"debug_assert_eq! of {e[1]}")
-            self.let(w, f"{sig['coq']} {a0} {w}")
-            self.env[w]["elem"] = 32
-            return self.assigned(w)
-        if e[0] == "meth":
-            recv, m, args = e[1], e[2], e[3]
-            if m == "copy_from_slice" and len(args) == 1:
-                root, fs, base, off, ln = self.place(recv)
-                src = self.named(self.arr(args[0]))
-                self.check(f"(N.of_nat (length {src}) =? {ln})", _L_COPY_LEN, "copy_from_slice")
-                return self.set_path(root, fs, f"(arr_store {base} (N.to_nat {off or '0'}) {src})")
-            p = self.path(recv)
-            if p and p[3][0] == "struct":
-                sig = self.ctx.methods.get((p[3][1], m))
-                if sig is None:
-                    raise self.err(f"call of {p[3][1]}::{m}, which is not translated")
-                return self.method_stmt(p, sig, args)
-        raise self.err(f"expression statement {e!r}")
-
-    def for_stmt(self, s):
-        _, pat, it, (body, tail) = s
-        if tail is not None:
-            raise self.err("loop body with a value")
-        zipped = None
-        if it[0] == "meth" and it[2] == "zip" and len(it[3]) == 1 and it[1][0] == "meth" and it[1][2] == "iter" \
-                and not it[1][3] and len(pat) == 2:
-            zipped, chunks = it[1][1], it[3][0]
-            wv, xv = pat
-        elif len(pat) == 1:
-            chunks, xv = it, pat[0]
-        else:
-            raise self.err(f"for loop over {it!r}")
-        if not (chunks[0] == "meth" and chunks[2] == "chunks_mut" and len(chunks[3]) == 1 and chunks[1][0] == "var"):
-            raise self.err(f"for loop over {it!r}")
-        sv = chunks[1][1]
-        se = self.env.get(sv)
-        if not se or se["kind"] not in (("slice",), ("arr",)) or not se["mut"] or se["uninit"]:
-            raise self.err(f"chunks_mut of {sv}, which is not a mutable slice")
-        for v, e in self.env.items():
-            if e["uninit"]:
-                raise self.err(f"{v} is not initialised at the loop")
-        # the chunk size: a positive constant (chunks_mut(0) panics)
-        try:
-            nval = const_eval(chunks[3][0], self.ctx.const_vals, self.name)
-        except (AnchorError, KeyError):
-            raise self.err(f"chunk size {chunks[3][0]!r} is not a constant")
-        if nval <= 0:
-            raise self.err(f"chunk size {nval}")
-        n = self.int_atom(chunks[3][0], 64)
-        if re.fullmatch(r"t\d+", n):                            # bound before the loop: one of its parameters
-            self.env[n] = {"kind": ("int", 64), "mut": False, "uninit": False}
-        wl = None
-        if zipped is not None:
-            if zipped[0] != "var" or self.env.get(zipped[1], {}).get("kind") != ("arr",) or self.elem_of(zipped) is None:
-                raise self.err(f"iter() of {zipped!r}: not an array of integers of a known type")
-            wl = "iter_" + zipped[1]
-        scope = [(v, self.ctx.coq_type(e["kind"])) for v, e in self.env.items()]
-        for v in [xv] + ([wv, wl] if zipped is not None else []):
-            if v in self.env or v in self.ctx.consts or v == "fuel" or re.fullmatch(r"t\d+|ext_.*", v):
-                raise self.err(f"loop variable {v} shadows a variable")
-        # the body: the slice being chunked cannot be named inside it
-        hidden = self.env.pop(sv)
-        order = list(self.env)
-        self.env[xv] = {"kind": ("slice",), "mut": True, "uninit": False, "elem": se.get("elem")}
-        if zipped is not None:
-            self.env[wv] = {"kind": ("int", self.elem_of(zipped)), "mut": False, "uninit": False}
-        fuel_before = self.fuel
-        self.fuel = False
-        body_lines, vs = self.sub_block(body)
-        body_fuel, self.fuel = self.fuel, fuel_before
-        for v in (xv, wv) if zipped is not None else (xv,):
-            del self.env[v]
-        self.env = {v: (hidden if v == sv else self.env[v]) for v in [x for x, _ in scope]}     # original order
-        vs = [v for v in vs if v != xv]
-        outs = [sv] + vs
-        lname = f"{self.name}_loop{len(self.loops) + 1}"
-        rty = " * ".join(self.ctx.coq_type(self.env[v]["kind"]) for v in outs)
-        args = " ".join(v for v, _ in scope)
-        sig = " ".join(f"({v} : {ty})" for v, ty in scope)
-        step = ([f"let {xv} := firstn (N.to_nat {n}) {sv} in", f"let {sv} := skipn (N.to_nat {n}) {sv} in"]
-                + body_lines)
-        done = f"Ok {self.tuple_of(outs)}"
-        again = f"Ok {self.tuple_of(['(' + xv + ' ++ ' + sv + ')'] + vs)}"
-        if zipped is None:
-            text = (f"Fixpoint {lname} @EXTS@(fuel : nat) {sig}\n  : res ({rty}) :=\n"
-                    f"  if (N.of_nat (length {sv}) =? 0) then {done}\n  else\n"
-                    f"    match fuel with\n    | O => OutOfFuel\n    | S fuel =>\n"
-                    + "".join("      " + l + "\n" for l in step)
-                    + f"      {self.pat_of(outs)} <- {lname} @EXTARGS@fuel {args} ;;\n      {again}\n    end.\n")
-            self.loops.append(text)
-            self.fuel = True
-            self.bind(self.pat_of(outs), f"{lname} @EXTARGS@fuel {args}")
-        else:
-            if body_fuel:
-                raise self.err("a zip loop whose body needs fuel")
-            text = (f"Fixpoint {lname} @EXTS@{sig} ({wl} : list N) {{struct {wl}}}\n  : res ({rty}) :=\n"
-                    f"  match {wl} with\n  | [] => {done}\n  | {wv} :: {wl} =>\n"
-                    f"    if (N.of_nat (length {sv}) =? 0) then {done}\n    else\n"
-                    + "".join("      " + l + "\n" for l in step)
-                    + f"      {self.pat_of(outs)} <- {lname} @EXTARGS@{args} {wl} ;;\n      {again}\n  end.\n")
-            self.loops.append(text)
-            self.bind(self.pat_of(outs), f"{lname} @EXTARGS@{args} {zipped[1]}")
-        for v in outs:
-            self.assigned(v)
-
-    def translate(self):
-        text = super().translate().replace(f"Definition {self.name} \n", f"Definition {self.name}\n")
-        for what in ("place", "index"):
-            if self.used[what] != len(self.sites[what]):
-                raise self.err(f"{self.used[what]} {what} sites in the body, {len(self.sites[what])} in _REF_LOOP_FNS")
-        if self.used["at_site"] != set(self.sites["at_site"]):
-            raise self.err(f"compound assignments {sorted(self.used['at_site'])}, _REF_LOOP_FNS names {sorted(self.sites['at_site'])}")
-        return text
-
-
-def _rl_sig(rsig, name):
-    """signature recorded by RFn -> signature of LCtx"""
-    kinds = []
-    for k, w in zip(rsig["params"], rsig["widths"]):
-        if k == "arr":
-            kinds.append(("arr",))
-        elif k == "word" and w:
-            kinds.append(("int", w))
-        elif isinstance(k, tuple) and k[0] == "struct":
-            kinds.append(k)
-        else:
-            raise AnchorError(f"{name}: parameter kind {k!r}")
-    ret, res, elem = rsig["ret"], False, None
-    rt = rsig["rettext"]
-    if ret == "arr":
-        ret = ("arr",)
-        m = re.fullmatch(r"-> \[(u8|u32); [^\]]+\]", rt)
-        elem = TYPES[m.group(1)] if m else None
-    elif ret == "res":
-        if rt[3:] not in TYPES:
-            raise AnchorError(f"{name}: result type {rt!r}")
-        ret, res = ("int", TYPES[rt[3:]]), True
-    elif isinstance(ret, tuple) and ret[0] in ("struct", "inplace"):
-        pass
-    else:
-        raise AnchorError(f"{name}: result {ret!r}")
-    return {"coq": rsig["coq"], "self": None, "struct": None, "kinds": kinds, "ret": ret, "res": res, "exts": [],
-            "fuel": False, "elem": elem, "asserts": rsig["asserts"]}
-
-
-def gen_refimpl_loops():
-    core = _refimpl_core()
-    ref, P = core["ref"], "refsrc_"
-    out = [HEADER.replace("NArith List.", "NArith List Bool.").replace(
-        "Base.MachInt.", "Base.MachInt Base.Word Base.Arr Base.Arr2.\nFrom V Require Import gen.GenConsts gen.GenRefImpl.")]
-    find1(r"\buse\s+core::cmp::min\s*;", ref, "reference_impl use core::cmp::min")
-    consts, const_vals = {}, {}
-    for c in ("BLOCK_LEN", "OUT_LEN", "KEY_LEN", "CHUNK_LEN"):
-        consts[c] = (core["cenv"][c], 64)
-        const_vals[c] = const_eval(parse_expr(rust_const(ref, c), c), {}, c)
-    for c in ("CHUNK_START", "CHUNK_END", "PARENT", "ROOT", "KEYED_HASH", "DERIVE_KEY_CONTEXT", "DERIVE_KEY_MATERIAL"):
-        consts[c] = (core["cenv"][c], 32)
-    structs = dict(core["structs"])
-    structs["Hasher"] = RStruct(ref, "Hasher", P, core["cenv"], structs)
-    if [(f, k) for f, k, _ in structs["Hasher"].fields] != [
-            ("chunk_state", ("struct", "ChunkState")), ("key_words", "arr"), ("cv_stack", "arr2"), ("cv_stack_len", "word"),
-            ("flags", "word")]:
-        raise AnchorError(f"struct Hasher: fields {structs['Hasher'].fields!r}")
-    find1(r"cv_stack\s*:\s*\[\s*\[\s*u32\s*;\s*8\s*\]\s*;\s*\d+\s*\]", ref, "Hasher.cv_stack: [[u32; 8]; N]")
-    ctx = LCtx(P, structs, consts, None)
-    ctx.const_vals, ctx.has_min, ctx.platform_methods = const_vals, True, {}
-    ctx.arr_consts = {"IV": "ref_IV"}
-    for fname, rsig in core["fns"].items():
-        if "nat" in rsig["params"]:
-            continue                                   # fn g (array indices as parameters): only called from round
-        sig = _rl_sig(rsig, fname)
-        sig["params"] = [(f"a{i}", k, False) for i, k in enumerate(sig["kinds"])]
-        ctx.fns[fname] = sig
-    for (s, mname), rsig in core["methods"].items():
-        sig = _rl_sig(rsig, f"{s}::{mname}")
-        if sig["kinds"] != [("struct", s)]:
-            raise AnchorError(f"{s}::{mname}: parameters {sig['kinds']!r}")
-        sig.update({"self": "ref", "struct": s, "params": []})
-        ctx.methods[(s, mname)] = sig
-
-    out.append("(* the Panic code of a checked operation replaced by the code Model/RefImpl.v gives the source site *)\n"
-               "Definition ref_at_site {A : Type} (site : N) (r : res A) : res A :=\n"
-               "  match r with Panic _ => Panic site | _ => r end.\n")
-    out.append("(* ---- struct Hasher ---- *)\n")
-    out.append(structs["Hasher"].record())
-    out.append("(* ---- record updates for `self.field = e` ---- *)\n")
-    for s in ("ChunkState", "Hasher"):
-        out.append(ctx.setters(s))
-    impls = {s: fn_body(ref, r"\bimpl\s+" + s + r"\s*\{", "impl " + s) for s in ("Output", "ChunkState", "Hasher")}
-    seen = set()
-    for s, fname, sites in _REF_LOOP_FNS:
-        if s not in seen:
-            seen.add(s)
-        out.append(f"(* ---- {s}::{fname} ---- *)\n")
-        f = RLFn(ctx, impls[s], s, fname, r"\bfn\s+" + fname + r"\s*\(", sites)
-        out.append(f.translate())
-        if f.selfmode:
-            ctx.methods[(s, fname)] = f.sig
-        else:
-            ctx.fns[f"{s}::{fname}"] = f.sig
-    # every function of the file is translated, here or in GenRefImpl.v
-    all_fns = set(re.findall(r"\bfn\s+(%s)\s*\(" % _IDENT, ref))
-    done = set(core["fns"]) | {m for _, m in core["methods"]} | {f for _, f, _ in _REF_LOOP_FNS}
-    if all_fns != done:
-        raise AnchorError(f"reference_impl.rs: functions {sorted(all_fns ^ done)} are not covered")
-    return "\n".join(out)
-
-
-# ---------------------------------------------------------------------------
-# The wide recursion / update_with_join translators (GenLibWide.v, GenCHasherWide.v) live in tools/gen_coq_wide.py:
-# that file is a later branch of this translator (same base classes, with the WParser / WFn / CWParser / CSWideFn
-# extensions); only its two new generators are used from here.  Kept separate instead of merged textually because the
-# two branches refactored gen_lib_loops in different ways; the outputs of all shared generators were checked identical.
-# ---------------------------------------------------------------------------
-_WIDE_MOD = None
-
-
-def _wide_module():
-    global _WIDE_MOD
-    if _WIDE_MOD is None:
-        import importlib.util
-        spec = importlib.util.spec_from_file_location("gen_coq_wide", os.path.join(os.path.dirname(os.path.abspath(__file__)), "gen_coq_wide.py"))
-        mod = importlib.util.module_from_spec(spec)
-        spec.loader.exec_module(mod)
-        _WIDE_MOD = mod
-    return _WIDE_MOD
-
-
-def _wide_call(name):
-    mod = _wide_module()
-    try:
-        text = getattr(mod, name)()
-    except mod.AnchorError as e:
-        raise AnchorError(str(e))
-    READ.update(mod.READ)
-    return text
+# (struct | None, function, text, header, Panic codes of the assertion macros in source order,
+#  [(kind, Panic code)] of the slice / split / array_ref! / push / copy_from_slice sites in translation order).
+# 1212 = debug_assert_eq!(child_chaining_values.len() % OUT_LEN, 0), 1407 = debug_assert_eq!(CHUNK_LEN.count_ones(), 1):
+# the models work on whole chaining values / a literal 1024 and have no such site.
+_G = r"\s*<\s*J\s*:\s*join::Join\s*>\s*\("
+_LIB_WIDE_FNS = [
+    (None, "largest_power_of_two_leq", "lib", r"\bfn\s+largest_power_of_two_leq\s*\(", [], []),
+    (None, "hazmat_left_subtree_len", "haz", r"\bpub\s+fn\s+left_subtree_len\s*\(", [1205], []),
+    (None, "compress_chunks_parallel", "lib", r"\bfn\s+compress_chunks_parallel\s*\(", [1200, 1201],
+     [("array_ref", 54), ("push", 30), ("array_mut_ref", 31)]),
+    (None, "compress_parents_parallel", "lib", r"\bfn\s+compress_parents_parallel\s*\(", [1212, 1202, 1203],
+     [("array_ref", 54), ("push", 32), ("from", 33), ("to", 33), ("copy", 42)]),
+    (None, "compress_subtree_wide", "lib", r"\bfn\s+compress_subtree_wide" + _G, [1204, 1206, 1207, 1208],
+     [("split_at", 34), ("split_at_mut", 35), ("to", 36), ("to", 41), ("copy", 42), ("to", 41)]),
+    (None, "compress_subtree_to_parent_node", "lib", r"\bfn\s+compress_subtree_to_parent_node" + _G, [1209, 1210],
+     [("to", 41), ("to", 41), ("to", 41), ("copy", 42), ("array_ref", 1211)]),
+    (None, "hash_all_at_once", "lib", r"\bfn\s+hash_all_at_once" + _G, [], []),
+    (None, "hash", "lib", r"\bpub\s+fn\s+hash\s*\(", [], []),
+    (None, "keyed_hash", "lib", r"\bpub\s+fn\s+keyed_hash\s*\(", [], []),
+    (None, "derive_key", "lib", r"\bpub\s+fn\s+derive_key\s*\(", [], []),
+    ("Hasher", "update_with_join", "h_impl", r"\bfn\s+update_with_join" + _G, [21, 1400, 1401, 1407, 1402, 1403],
+     [("to", 41), ("from", 40), ("to", 52), ("to", 52), ("array_ref", 54), ("array_ref", 54), ("from", 52)]),
+    ("Hasher", "update", "h_impl", r"\bpub\s+fn\s+update\s*\(", [], []),
+]
 
 
 def gen_lib_wide():
-    return _wide_call("gen_lib_wide")
+    ctx, _, (lib, plat, cs_impl, h_impl, o_impl) = _lib_loops_parts()
+    haz = strip_comments(src("src/hazmat.rs"))
+    join = strip_comments(src("src/join.rs"))
+    out = [HEADER.replace("NArith List.", "NArith List Bool.").replace(
+        "Base.MachInt.", "Base.MachInt Base.Word Base.Arr Base.ArrayVec Base.Slice.\n"
+        "From V Require Import gen.GenConsts gen.GenFormulas Model.Platform gen.GenLibSmall gen.GenLibLoops.")]
+    texts = {"lib": lib, "haz": haz, "h_impl": h_impl}
 
+    def anchored(text, hdr, want_params, want_ret, what):
+        ptext, rtext = _fn_header(text, hdr, what)
+        got = [" ".join(a.split()) for a in _args(ptext)]
+        if got != want_params or " ".join(rtext.split()) != want_ret:
+            raise AnchorError(f"{what}: signature {got!r} {rtext!r}")
 
-def gen_c_hasher_wide():
-    return _wide_call("gen_c_hasher_wide")
+    # ---- constants ----
+    find1(r"\bconst\s+IV\s*:\s*&CVWords\s*=", lib, "lib.rs IV: &CVWords")
+    ctx.arr_consts["IV"] = "rs_IV"
+    for c in ("MAX_SIMD_DEGREE", "MAX_SIMD_DEGREE_OR_2"):
+        find1(r"\bpub\s+const\s+" + c + r"\s*:\s*usize\s*=", plat, "platform.rs " + c + ": usize")
+        find1(r"\buse\s+(?:crate::)?platform::\{[^}]*\b" + c + r"\b[^}]*\}", lib, "lib.rs use platform::" + c)
+        ctx.add_ext_const(c, c, ("int", 64))
+    # enum IncrementCounter { Yes, No } and IncrementCounter::yes()
+    find1(r"\bpub\s+enum\s+IncrementCounter\s*\{\s*Yes\s*,\s*No\s*,?\s*\}", lib, "enum IncrementCounter { Yes, No }")
+    find1(r"IncrementCounter::Yes\s*=>\s*true\s*,\s*IncrementCounter::No\s*=>\s*false", lib, "IncrementCounter::yes")
+    ctx.bool_consts = {"IncrementCounter::Yes": "true", "IncrementCounter::No": "false"}
+    # join::SerialJoin::join runs oper_a then oper_b
+    sj = fn_body(join, r"\bimpl\s+Join\s+for\s+SerialJoin\s*\{", "impl Join for SerialJoin")
+    find1(r"\(\s*oper_a\s*\(\s*\)\s*,\s*oper_b\s*\(\s*\)\s*\)", fn_body(sj, r"\bfn\s+join\s*<", "SerialJoin::join"),
+          "SerialJoin::join = (oper_a(), oper_b())")
+
+    # ---- called, not translated here ----
+    pimpl = fn_body(plat, r"\bimpl\s+Platform\s*\{", "impl Platform")
+    anchored(pimpl, r"\bpub\s+fn\s+hash_many\s*<\s*const\s+N\s*:\s*usize\s*>\s*\(",
+             ["&self", "inputs: &[&[u8; N]]", "key: &CVWords", "counter: u64", "increment_counter: IncrementCounter",
+              "flags: u8", "flags_start: u8", "flags_end: u8", "out: &mut [u8]"], "", "Platform::hash_many")
+    ctx.add_ext("Platform::hash_many", "hash_many",
+                [("self", ("platform",), False), ("inputs", ("vec", None), False), ("key", ("arr",), False),
+                 ("counter", ("int", 64), False), ("increment_counter", ("bool",), False), ("flags", ("int", 8), False),
+                 ("flags_start", ("int", 8), False), ("flags_end", ("int", 8), False), ("out", ("slice",), True)], ("slice",))
+    ctx.exts["hash_many"]["type"] = "platform -> list (list N) -> list N -> N -> bool -> N -> N -> N -> list N -> res (list N)"
+    ctx.fns["Platform::hash_many"]["res"] = True
+    ctx.fns["Platform::hash_many"]["ret"] = None
+    anchored(pimpl, r"\bpub\s+fn\s+simd_degree\s*\(", ["&self"], "-> usize", "Platform::simd_degree")
+    anchored(pimpl, r"\bpub\s+fn\s+detect\s*\(", [], "-> Self", "Platform::detect")
+    ctx.add_ext_const("Platform::detect", "Platform_detect", ("platform",))
+    anchored(plat, r"\bpub\s+fn\s+words_from_le_bytes_32\s*\(", ["bytes: &[u8; 32]"], "-> [u32; 8]",
+             "platform::words_from_le_bytes_32")
+    ctx.add_ext("platform::words_from_le_bytes_32", "words_from_le_bytes_32", [("bytes", ("arr",), False)], ("arr",))
+    anchored(haz, r"\bpub\s+fn\s+hash_derive_key_context\s*\(", ["context: &str"], "-> ContextKey",
+             "hazmat::hash_derive_key_context")
+    find1(r"\bpub\s+type\s+ContextKey\s*=\s*\[\s*u8\s*;\s*KEY_LEN\s*\]\s*;", haz, "hazmat ContextKey = [u8; KEY_LEN]")
+    ctx.add_ext("hazmat::hash_derive_key_context", "hash_derive_key_context", [("context", ("slice",), False)], ("arr",))
+    ctx.exts["hash_derive_key_context"]["type"] = "list N -> res (list N)"
+    ctx.fns["hazmat::hash_derive_key_context"]["res"] = True
+    # hazmat::max_subtree_len is the formula rs_max_subtree_len of GenFormulas.v (translated there, statement by statement)
+    anchored(haz, r"\bpub\s+fn\s+max_subtree_len\s*\(", ["input_offset: u64"], "-> Option<u64>", "hazmat::max_subtree_len")
+    ctx.fns["hazmat::max_subtree_len"] = {"coq": "rs_max_subtree_len", "self": None, "struct": None,
+                                          "params": [("input_offset", ("int", 64), False)], "ret": ("option", 64),
+                                          "res": True, "exts": [], "fuel": False}
+    # Output::root_hash returns Hash(bytes); `.0` is the byte array
+    find1(r"\bpub\s+struct\s+Hash\s*\(\s*\[\s*u8\s*;\s*OUT_LEN\s*\]\s*\)\s*;", lib, "struct Hash([u8; OUT_LEN])")
+
+    keys = {"hazmat_left_subtree_len": "hazmat::left_subtree_len"}
+    for st, fname, which, hdr, codes, sites in _LIB_WIDE_FNS:
+        out.append(f"(* ---- {'src/hazmat.rs' if which == 'haz' else 'src/lib.rs'}: "
+                   f"{(st + '::') if st else ''}{keys.get(fname, fname).split('::')[-1]} ---- *)\n")
+        f = WFn(ctx, texts[which], st, fname, hdr, codes, sites, key=keys.get(fname))
+        out.append(f.translate())
+        if st:
+            ctx.methods[(st, fname)] = f.sig
+        else:
+            ctx.fns[keys.get(fname, fname)] = f.sig
+    return "\n".join(out)
 
 
 def write_if_changed(path, text):
@@ -8756,11 +8782,9 @@ GENERATORS = [("GenConsts.v", gen_consts), ("GenFormulas.v", gen_formulas), ("Ge
               ("GenDispatch.v", gen_dispatch),
               ("GenAsmFrames.v", gen_asm_frames),
               ("GenApi.v", gen_api), ("GenB3sum.v", gen_b3sum_literals), ("GenPortable.v", gen_portable), ("GenCHasherSmall.v", gen_c_hasher_small),
-              ("GenCHasherLoops.v", gen_c_hasher_loops),
-              ("GenRefImpl.v", gen_refimpl), ("GenRefImplLoops.v", gen_refimpl_loops),
-              ("GenLibSmall.v", gen_lib_small), ("GenLibLoops.v", gen_lib_loops),
-              ("GenXof.v", gen_xof), ("GenHazmat.v", gen_hazmat), ("GenTraits.v", gen_traits),
-              ("GenLibWide.v", gen_lib_wide), ("GenCHasherWide.v", gen_c_hasher_wide),
+              ("GenCHasherLoops.v", gen_c_hasher_loops), ("GenCHasherWide.v", gen_c_hasher_wide),
+              ("GenRefImpl.v", gen_refimpl), ("GenLibSmall.v", gen_lib_small), ("GenLibLoops.v", gen_lib_loops),
+              ("GenLibWide.v", gen_lib_wide),
               ("GenCounters.v", gen_counters),
               ("GenRounds.v", gen_kernel_rounds)]
 
